@@ -1,9 +1,10 @@
 import GoLevel.Proofs.LocksCount
-/-! Further invariants (three fixes, and the fourth or no `SetReadOnly`) used by the progress theorem. -/
+/-! Further invariants (three fixes, `compactionError` as coded, and the fourth fix or no `SetReadOnly`) used by
+the progress theorem and by the theorems about `SetReadOnly`. -/
 namespace GoLevel.Locks
+open CompErr
 set_option linter.unusedSimpArgs false
 
-def srW : Pc → Nat | .srSet => 1 | _ => 0
 /-- threads of `DB.Write`'s large-batch path that will still end the internal transaction -/
 def lgW : Pc → Nat
   | .lgWrite | .cmLockTr true | .cmFlush true | .cmLockClk true | .cmTry _ true | .cmSleep _ true
@@ -28,8 +29,21 @@ theorem tot_le_tot (f g : Pc → Nat) (h : ∀ p, f p ≤ g p) (ws : List Pc) : 
   | nil => simp [tot]
   | cons x xs ih => rw [tot_cons, tot_cons]; have := h x; omega
 
-def perW : Eh → Nat | .hasperr => 1 | _ => 0
+theorem afterCmd_parked (cfg : Cfg) (s : St) (b : Bool) (h : afterCmd cfg s b = .parked) : b = true ∧ s.ro = true := by
+  unfold afterCmd at h
+  split at h
+  · rename_i hc; simp at hc; exact ⟨hc.1.1, hc.2⟩
+  · cases h
+
+@[simp] theorem clearW_eq_parked (x : Bg) (i : Nat) : clearW x i = .parked ↔ x = .parked := by
+  unfold clearW; split
+  · split <;> simp
+  · rfl
+
+/-- `compactionError` is in (or leaving) its persistent-error loop -/
+def perW : Eh → Nat | .hasperr => 1 | .closing => 1 | _ => 0
 @[simp] theorem perW_hasperr : perW .hasperr = 1 := rfl
+@[simp] theorem perW_closing : perW .closing = 1 := rfl
 @[simp] theorem perW_noerr : perW .noerr = 0 := rfl
 @[simp] theorem perW_haserr : perW .haserr = 0 := rfl
 @[simp] theorem perW_exited : perW .exited = 0 := rfl
@@ -37,14 +51,17 @@ def perW : Eh → Nat | .hasperr => 1 | _ => 0
 /-- `closed ∨ persistent error`: the alternatives of every wait are enabled -/
 def Alt (s : St) : Prop := s.closed = true ∨ s.eh = .hasperr
 
-/-- goroutines end only when the DB is closed (or, for a compaction, in the persistent-error state) -/
+/-- goroutines end only when the DB is closed (or, for a compaction, in the persistent-error state);
+`tCompaction` parks only when the DB is read-only, and a read-only DB is in the persistent-error state -/
 def PInvA (s : St) : Prop :=
-  (s.mc = .exited → Alt s) ∧ (s.tc = .exited → Alt s) ∧ (s.eh = .exited → s.closed = true)
+  (s.mc = .exited → Alt s) ∧ (s.tc = .exited → Alt s) ∧ (s.eh = .exited → s.closed = true) ∧
+  (s.eh = .closing → s.closed = true) ∧ (s.tc = .parked → s.ro = true) ∧ (s.ro = true → Alt s) ∧
+  s.mc ≠ .parked
 
 /-- the token held for `compWriteLocking` will be released by `compactionError` or by the `SetReadOnly`
 that took it; an internal transaction of `DB.Write` is always being finished by its thread -/
 def PInvB (s : St) : Prop :=
-  b2n s.ehTok ≤ perW s.eh + tot srW s.ws
+  b2n s.ehTok ≤ perW s.eh + tot srW s.ws ∧ (s.ehTok = true → s.cwl = true)
 
 def PInvD (s : St) : Prop :=
   b2n (s.trOpen && !s.trUser) ≤ tot lgW s.ws
@@ -54,1927 +71,13 @@ def PInvC (s : St) : Prop :=
   tot clAllW s.ws ≤ b2n s.closed ∧ b2n s.closeTok ≤ b2n s.closed ∧
   tot clPreW s.ws + b2n s.closeTok ≤ 1
 
-theorem step_pinvA (s t : St) (f : Bool) (cfg : Cfg) (hfx : Fixed3 cfg)
-    (h4 : cfg.setReadOnlyReleasesOnClose = true ∨ NoSR s) (h : Step cfg f s t) (inv : PInvA s) : PInvA t := by
-  unfold PInvA Alt at *
-  obtain ⟨h1, h2, h3⟩ := inv
-  obtain ⟨f1, f2, f3⟩ := hfx
-  cases h with
-  | startPut _ i hi =>
-    clear h4
-    have l0 := le_tot srW _ _ _ hi
-    have l1 := le_tot lgW _ _ _ hi
-    have l2 := le_tot clAllW _ _ _ hi
-    have l3 := le_tot clPreW _ _ _ hi
-    (try simp only [St.setDone, St.setBg]) <;> (repeat' split) <;> simp_all [tot_set_eq _ _ _ _ _ hi, tot_ackWs_srw', tot_ackWs_lgw, tot_ackWs_clall, tot_ackWs_clpre, b2n_true, b2n_false, clearW_idle, clearW_exited, clearW_eq_exited, srW, lgW, clAllW, clPreW, St.bg, onOk, onErr, selNext, afterSetErr, srAllW] <;> (try omega)
-  | startWrite _ i hi =>
-    clear h4
-    have l0 := le_tot srW _ _ _ hi
-    have l1 := le_tot lgW _ _ _ hi
-    have l2 := le_tot clAllW _ _ _ hi
-    have l3 := le_tot clPreW _ _ _ hi
-    (try simp only [St.setDone, St.setBg]) <;> (repeat' split) <;> simp_all [tot_set_eq _ _ _ _ _ hi, tot_ackWs_srw', tot_ackWs_lgw, tot_ackWs_clall, tot_ackWs_clpre, b2n_true, b2n_false, clearW_idle, clearW_exited, clearW_eq_exited, srW, lgW, clAllW, clPreW, St.bg, onOk, onErr, selNext, afterSetErr, srAllW] <;> (try omega)
-  | startOtx _ i hi =>
-    clear h4
-    have l0 := le_tot srW _ _ _ hi
-    have l1 := le_tot lgW _ _ _ hi
-    have l2 := le_tot clAllW _ _ _ hi
-    have l3 := le_tot clPreW _ _ _ hi
-    (try simp only [St.setDone, St.setBg]) <;> (repeat' split) <;> simp_all [tot_set_eq _ _ _ _ _ hi, tot_ackWs_srw', tot_ackWs_lgw, tot_ackWs_clall, tot_ackWs_clpre, b2n_true, b2n_false, clearW_idle, clearW_exited, clearW_eq_exited, srW, lgW, clAllW, clPreW, St.bg, onOk, onErr, selNext, afterSetErr, srAllW] <;> (try omega)
-  | startCommit _ i hi hu =>
-    clear h4
-    have l0 := le_tot srW _ _ _ hi
-    have l1 := le_tot lgW _ _ _ hi
-    have l2 := le_tot clAllW _ _ _ hi
-    have l3 := le_tot clPreW _ _ _ hi
-    (try simp only [St.setDone, St.setBg]) <;> (repeat' split) <;> simp_all [tot_set_eq _ _ _ _ _ hi, tot_ackWs_srw', tot_ackWs_lgw, tot_ackWs_clall, tot_ackWs_clpre, b2n_true, b2n_false, clearW_idle, clearW_exited, clearW_eq_exited, srW, lgW, clAllW, clPreW, St.bg, onOk, onErr, selNext, afterSetErr, srAllW] <;> (try omega)
-  | startDiscard _ i hi hu =>
-    clear h4
-    have l0 := le_tot srW _ _ _ hi
-    have l1 := le_tot lgW _ _ _ hi
-    have l2 := le_tot clAllW _ _ _ hi
-    have l3 := le_tot clPreW _ _ _ hi
-    (try simp only [St.setDone, St.setBg]) <;> (repeat' split) <;> simp_all [tot_set_eq _ _ _ _ _ hi, tot_ackWs_srw', tot_ackWs_lgw, tot_ackWs_clall, tot_ackWs_clpre, b2n_true, b2n_false, clearW_idle, clearW_exited, clearW_eq_exited, srW, lgW, clAllW, clPreW, St.bg, onOk, onErr, selNext, afterSetErr, srAllW] <;> (try omega)
-  | startCR _ i hi =>
-    clear h4
-    have l0 := le_tot srW _ _ _ hi
-    have l1 := le_tot lgW _ _ _ hi
-    have l2 := le_tot clAllW _ _ _ hi
-    have l3 := le_tot clPreW _ _ _ hi
-    (try simp only [St.setDone, St.setBg]) <;> (repeat' split) <;> simp_all [tot_set_eq _ _ _ _ _ hi, tot_ackWs_srw', tot_ackWs_lgw, tot_ackWs_clall, tot_ackWs_clpre, b2n_true, b2n_false, clearW_idle, clearW_exited, clearW_eq_exited, srW, lgW, clAllW, clPreW, St.bg, onOk, onErr, selNext, afterSetErr, srAllW] <;> (try omega)
-  | startSR _ i hi ha =>
-    clear h4
-    have l0 := le_tot srW _ _ _ hi
-    have l1 := le_tot lgW _ _ _ hi
-    have l2 := le_tot clAllW _ _ _ hi
-    have l3 := le_tot clPreW _ _ _ hi
-    (try simp only [St.setDone, St.setBg]) <;> (repeat' split) <;> simp_all [tot_set_eq _ _ _ _ _ hi, tot_ackWs_srw', tot_ackWs_lgw, tot_ackWs_clall, tot_ackWs_clpre, b2n_true, b2n_false, clearW_idle, clearW_exited, clearW_eq_exited, srW, lgW, clAllW, clPreW, St.bg, onOk, onErr, selNext, afterSetErr, srAllW] <;> (try omega)
-  | startClose _ i hi =>
-    clear h4
-    have l0 := le_tot srW _ _ _ hi
-    have l1 := le_tot lgW _ _ _ hi
-    have l2 := le_tot clAllW _ _ _ hi
-    have l3 := le_tot clPreW _ _ _ hi
-    (try simp only [St.setDone, St.setBg]) <;> (repeat' split) <;> simp_all [tot_set_eq _ _ _ _ _ hi, tot_ackWs_srw', tot_ackWs_lgw, tot_ackWs_clall, tot_ackWs_clpre, b2n_true, b2n_false, clearW_idle, clearW_exited, clearW_eq_exited, srW, lgW, clAllW, clPreW, St.bg, onOk, onErr, selNext, afterSetErr, srAllW] <;> (try omega)
-  | selTok _ i p q hi hq ht =>
-    clear h4
-    have l0 := le_tot srW _ _ _ hi
-    have l1 := le_tot lgW _ _ _ hi
-    have l2 := le_tot clAllW _ _ _ hi
-    have l3 := le_tot clPreW _ _ _ hi
-    cases p <;> simp only [selNext] at hq <;> (try contradiction) <;> cases hq <;> simp_all [tot_set_eq _ _ _ _ _ hi, tot_ackWs_srw', tot_ackWs_lgw, tot_ackWs_clall, tot_ackWs_clpre, b2n_true, b2n_false, clearW_idle, clearW_exited, clearW_eq_exited, srW, lgW, clAllW, clPreW, St.bg, onOk, onErr, selNext, afterSetErr, srAllW] <;> (try omega)
-  | selPerErr _ i p q hi hq he =>
-    clear h4
-    have l0 := le_tot srW _ _ _ hi
-    have l1 := le_tot lgW _ _ _ hi
-    have l2 := le_tot clAllW _ _ _ hi
-    have l3 := le_tot clPreW _ _ _ hi
-    cases p <;> simp only [selNext] at hq <;> (try contradiction) <;> cases hq <;> simp_all [tot_set_eq _ _ _ _ _ hi, tot_ackWs_srw', tot_ackWs_lgw, tot_ackWs_clall, tot_ackWs_clpre, b2n_true, b2n_false, clearW_idle, clearW_exited, clearW_eq_exited, srW, lgW, clAllW, clPreW, St.bg, onOk, onErr, selNext, afterSetErr, srAllW] <;> (try omega)
-  | selClosed _ i p q hi hq hc =>
-    clear h4
-    have l0 := le_tot srW _ _ _ hi
-    have l1 := le_tot lgW _ _ _ hi
-    have l2 := le_tot clAllW _ _ _ hi
-    have l3 := le_tot clPreW _ _ _ hi
-    cases p <;> simp only [selNext] at hq <;> (try contradiction) <;> cases hq <;> simp_all [tot_set_eq _ _ _ _ _ hi, tot_ackWs_srw', tot_ackWs_lgw, tot_ackWs_clall, tot_ackWs_clpre, b2n_true, b2n_false, clearW_idle, clearW_exited, clearW_eq_exited, srW, lgW, clAllW, clPreW, St.bg, onOk, onErr, selNext, afterSetErr, srAllW] <;> (try omega)
-  | putNoWait _ i hi =>
-    clear h4
-    have l0 := le_tot srW _ _ _ hi
-    have l1 := le_tot lgW _ _ _ hi
-    have l2 := le_tot clAllW _ _ _ hi
-    have l3 := le_tot clPreW _ _ _ hi
-    (try simp only [St.setDone, St.setBg]) <;> (repeat' split) <;> simp_all [tot_set_eq _ _ _ _ _ hi, tot_ackWs_srw', tot_ackWs_lgw, tot_ackWs_clall, tot_ackWs_clpre, b2n_true, b2n_false, clearW_idle, clearW_exited, clearW_eq_exited, srW, lgW, clAllW, clPreW, St.bg, onOk, onErr, selNext, afterSetErr, srAllW] <;> (try omega)
-  | putWait _ i b hi =>
-    clear h4
-    have l0 := le_tot srW _ _ _ hi
-    have l1 := le_tot lgW _ _ _ hi
-    have l2 := le_tot clAllW _ _ _ hi
-    have l3 := le_tot clPreW _ _ _ hi
-    cases b <;> (try simp only [St.setDone, St.setBg]) <;> (repeat' split) <;> simp_all [tot_set_eq _ _ _ _ _ hi, tot_ackWs_srw', tot_ackWs_lgw, tot_ackWs_clall, tot_ackWs_clpre, b2n_true, b2n_false, clearW_idle, clearW_exited, clearW_eq_exited, srW, lgW, clAllW, clPreW, St.bg, onOk, onErr, selNext, afterSetErr, srAllW] <;> (try omega)
-  | putJournalOk _ i hi =>
-    clear h4
-    have l0 := le_tot srW _ _ _ hi
-    have l1 := le_tot lgW _ _ _ hi
-    have l2 := le_tot clAllW _ _ _ hi
-    have l3 := le_tot clPreW _ _ _ hi
-    (try simp only [St.setDone, St.setBg]) <;> (repeat' split) <;> simp_all [tot_set_eq _ _ _ _ _ hi, tot_ackWs_srw', tot_ackWs_lgw, tot_ackWs_clall, tot_ackWs_clpre, b2n_true, b2n_false, clearW_idle, clearW_exited, clearW_eq_exited, srW, lgW, clAllW, clPreW, St.bg, onOk, onErr, selNext, afterSetErr, srAllW] <;> (try omega)
-  | putJournalFail _ i hi =>
-    clear h4
-    have l0 := le_tot srW _ _ _ hi
-    have l1 := le_tot lgW _ _ _ hi
-    have l2 := le_tot clAllW _ _ _ hi
-    have l3 := le_tot clPreW _ _ _ hi
-    (try simp only [St.setDone, St.setBg]) <;> (repeat' split) <;> simp_all [tot_set_eq _ _ _ _ _ hi, tot_ackWs_srw', tot_ackWs_lgw, tot_ackWs_clall, tot_ackWs_clpre, b2n_true, b2n_false, clearW_idle, clearW_exited, clearW_eq_exited, srW, lgW, clAllW, clPreW, St.bg, onOk, onErr, selNext, afterSetErr, srAllW] <;> (try omega)
-  | putUnlock _ i r hi =>
-    clear h4
-    have l0 := le_tot srW _ _ _ hi
-    have l1 := le_tot lgW _ _ _ hi
-    have l2 := le_tot clAllW _ _ _ hi
-    have l3 := le_tot clPreW _ _ _ hi
-    cases r <;> (try simp only [St.setDone, St.setBg]) <;> (repeat' split) <;> simp_all [tot_set_eq _ _ _ _ _ hi, tot_ackWs_srw', tot_ackWs_lgw, tot_ackWs_clall, tot_ackWs_clpre, b2n_true, b2n_false, clearW_idle, clearW_exited, clearW_eq_exited, srW, lgW, clAllW, clPreW, St.bg, onOk, onErr, selNext, afterSetErr, srAllW] <;> (try omega)
-  | cwSendGo _ i b site lg hi hb =>
-    clear h4
-    have l0 := le_tot srW _ _ _ hi
-    have l1 := le_tot lgW _ _ _ hi
-    have l2 := le_tot clAllW _ _ _ hi
-    have l3 := le_tot clPreW _ _ _ hi
-    cases site <;> cases b <;> cases lg <;> (try simp only [St.setDone, St.setBg]) <;> (repeat' split) <;> simp_all [tot_set_eq _ _ _ _ _ hi, tot_ackWs_srw', tot_ackWs_lgw, tot_ackWs_clall, tot_ackWs_clpre, b2n_true, b2n_false, clearW_idle, clearW_exited, clearW_eq_exited, srW, lgW, clAllW, clPreW, St.bg, onOk, onErr, selNext, afterSetErr, srAllW] <;> (try omega)
-  | cwSendErr _ i b site lg hi he =>
-    clear h4
-    have l0 := le_tot srW _ _ _ hi
-    have l1 := le_tot lgW _ _ _ hi
-    have l2 := le_tot clAllW _ _ _ hi
-    have l3 := le_tot clPreW _ _ _ hi
-    cases site <;> cases b <;> cases lg <;> (try simp only [St.setDone, St.setBg]) <;> (repeat' split) <;> simp_all [tot_set_eq _ _ _ _ _ hi, tot_ackWs_srw', tot_ackWs_lgw, tot_ackWs_clall, tot_ackWs_clpre, b2n_true, b2n_false, clearW_idle, clearW_exited, clearW_eq_exited, srW, lgW, clAllW, clPreW, St.bg, onOk, onErr, selNext, afterSetErr, srAllW] <;> (try omega)
-  | cwAckErr _ i b site lg hi he =>
-    clear h4
-    have l0 := le_tot srW _ _ _ hi
-    have l1 := le_tot lgW _ _ _ hi
-    have l2 := le_tot clAllW _ _ _ hi
-    have l3 := le_tot clPreW _ _ _ hi
-    cases site <;> cases b <;> cases lg <;> (try simp only [St.setDone, St.setBg]) <;> (repeat' split) <;> simp_all [tot_set_eq _ _ _ _ _ hi, tot_ackWs_srw', tot_ackWs_lgw, tot_ackWs_clall, tot_ackWs_clpre, b2n_true, b2n_false, clearW_idle, clearW_exited, clearW_eq_exited, srW, lgW, clAllW, clPreW, St.bg, onOk, onErr, selNext, afterSetErr, srAllW] <;> (try omega)
-  | otxRotate _ i lg hi =>
-    clear h4
-    have l0 := le_tot srW _ _ _ hi
-    have l1 := le_tot lgW _ _ _ hi
-    have l2 := le_tot clAllW _ _ _ hi
-    have l3 := le_tot clPreW _ _ _ hi
-    cases lg <;> (try simp only [St.setDone, St.setBg]) <;> (repeat' split) <;> simp_all [tot_set_eq _ _ _ _ _ hi, tot_ackWs_srw', tot_ackWs_lgw, tot_ackWs_clall, tot_ackWs_clpre, b2n_true, b2n_false, clearW_idle, clearW_exited, clearW_eq_exited, srW, lgW, clAllW, clPreW, St.bg, onOk, onErr, selNext, afterSetErr, srAllW] <;> (try omega)
-  | otxNoRotate _ i lg hi =>
-    clear h4
-    have l0 := le_tot srW _ _ _ hi
-    have l1 := le_tot lgW _ _ _ hi
-    have l2 := le_tot clAllW _ _ _ hi
-    have l3 := le_tot clPreW _ _ _ hi
-    cases lg <;> (try simp only [St.setDone, St.setBg]) <;> (repeat' split) <;> simp_all [tot_set_eq _ _ _ _ _ hi, tot_ackWs_srw', tot_ackWs_lgw, tot_ackWs_clall, tot_ackWs_clpre, b2n_true, b2n_false, clearW_idle, clearW_exited, clearW_eq_exited, srW, lgW, clAllW, clPreW, St.bg, onOk, onErr, selNext, afterSetErr, srAllW] <;> (try omega)
-  | otxNewMemOk _ i lg hi =>
-    clear h4
-    have l0 := le_tot srW _ _ _ hi
-    have l1 := le_tot lgW _ _ _ hi
-    have l2 := le_tot clAllW _ _ _ hi
-    have l3 := le_tot clPreW _ _ _ hi
-    cases lg <;> (try simp only [St.setDone, St.setBg]) <;> (repeat' split) <;> simp_all [tot_set_eq _ _ _ _ _ hi, tot_ackWs_srw', tot_ackWs_lgw, tot_ackWs_clall, tot_ackWs_clpre, b2n_true, b2n_false, clearW_idle, clearW_exited, clearW_eq_exited, srW, lgW, clAllW, clPreW, St.bg, onOk, onErr, selNext, afterSetErr, srAllW] <;> (try omega)
-  | otxNewMemFail _ i lg hi =>
-    clear h4
-    have l0 := le_tot srW _ _ _ hi
-    have l1 := le_tot lgW _ _ _ hi
-    have l2 := le_tot clAllW _ _ _ hi
-    have l3 := le_tot clPreW _ _ _ hi
-    cases lg <;> (try simp only [St.setDone, St.setBg]) <;> (repeat' split) <;> simp_all [tot_set_eq _ _ _ _ _ hi, tot_ackWs_srw', tot_ackWs_lgw, tot_ackWs_clall, tot_ackWs_clpre, b2n_true, b2n_false, clearW_idle, clearW_exited, clearW_eq_exited, srW, lgW, clAllW, clPreW, St.bg, onOk, onErr, selNext, afterSetErr, srAllW] <;> (try omega)
-  | otxNoWaitComp _ i lg hi =>
-    clear h4
-    have l0 := le_tot srW _ _ _ hi
-    have l1 := le_tot lgW _ _ _ hi
-    have l2 := le_tot clAllW _ _ _ hi
-    have l3 := le_tot clPreW _ _ _ hi
-    cases lg <;> (try simp only [St.setDone, St.setBg]) <;> (repeat' split) <;> simp_all [tot_set_eq _ _ _ _ _ hi, tot_ackWs_srw', tot_ackWs_lgw, tot_ackWs_clall, tot_ackWs_clpre, b2n_true, b2n_false, clearW_idle, clearW_exited, clearW_eq_exited, srW, lgW, clAllW, clPreW, St.bg, onOk, onErr, selNext, afterSetErr, srAllW] <;> (try omega)
-  | otxWaitComp _ i lg hi =>
-    clear h4
-    have l0 := le_tot srW _ _ _ hi
-    have l1 := le_tot lgW _ _ _ hi
-    have l2 := le_tot clAllW _ _ _ hi
-    have l3 := le_tot clPreW _ _ _ hi
-    cases lg <;> (try simp only [St.setDone, St.setBg]) <;> (repeat' split) <;> simp_all [tot_set_eq _ _ _ _ _ hi, tot_ackWs_srw', tot_ackWs_lgw, tot_ackWs_clall, tot_ackWs_clpre, b2n_true, b2n_false, clearW_idle, clearW_exited, clearW_eq_exited, srW, lgW, clAllW, clPreW, St.bg, onOk, onErr, selNext, afterSetErr, srAllW] <;> (try omega)
-  | otxFail _ i lg hi =>
-    clear h4
-    have l0 := le_tot srW _ _ _ hi
-    have l1 := le_tot lgW _ _ _ hi
-    have l2 := le_tot clAllW _ _ _ hi
-    have l3 := le_tot clPreW _ _ _ hi
-    cases lg <;> (try simp only [St.setDone, St.setBg]) <;> (repeat' split) <;> simp_all [tot_set_eq _ _ _ _ _ hi, tot_ackWs_srw', tot_ackWs_lgw, tot_ackWs_clall, tot_ackWs_clpre, b2n_true, b2n_false, clearW_idle, clearW_exited, clearW_eq_exited, srW, lgW, clAllW, clPreW, St.bg, onOk, onErr, selNext, afterSetErr, srAllW] <;> (try omega)
-  | otxRel _ i lg hi =>
-    clear h4
-    have l0 := le_tot srW _ _ _ hi
-    have l1 := le_tot lgW _ _ _ hi
-    have l2 := le_tot clAllW _ _ _ hi
-    have l3 := le_tot clPreW _ _ _ hi
-    cases lg <;> (try simp only [St.setDone, St.setBg]) <;> (repeat' split) <;> simp_all [tot_set_eq _ _ _ _ _ hi, tot_ackWs_srw', tot_ackWs_lgw, tot_ackWs_clall, tot_ackWs_clpre, b2n_true, b2n_false, clearW_idle, clearW_exited, clearW_eq_exited, srW, lgW, clAllW, clPreW, St.bg, onOk, onErr, selNext, afterSetErr, srAllW] <;> (try omega)
-  | otxDone _ i lg hi =>
-    clear h4
-    have l0 := le_tot srW _ _ _ hi
-    have l1 := le_tot lgW _ _ _ hi
-    have l2 := le_tot clAllW _ _ _ hi
-    have l3 := le_tot clPreW _ _ _ hi
-    cases lg <;> (try simp only [St.setDone, St.setBg]) <;> (repeat' split) <;> simp_all [tot_set_eq _ _ _ _ _ hi, tot_ackWs_srw', tot_ackWs_lgw, tot_ackWs_clall, tot_ackWs_clpre, b2n_true, b2n_false, clearW_idle, clearW_exited, clearW_eq_exited, srW, lgW, clAllW, clPreW, St.bg, onOk, onErr, selNext, afterSetErr, srAllW] <;> (try omega)
-  | lgWriteOk _ i hi =>
-    clear h4
-    have l0 := le_tot srW _ _ _ hi
-    have l1 := le_tot lgW _ _ _ hi
-    have l2 := le_tot clAllW _ _ _ hi
-    have l3 := le_tot clPreW _ _ _ hi
-    (try simp only [St.setDone, St.setBg]) <;> (repeat' split) <;> simp_all [tot_set_eq _ _ _ _ _ hi, tot_ackWs_srw', tot_ackWs_lgw, tot_ackWs_clall, tot_ackWs_clpre, b2n_true, b2n_false, clearW_idle, clearW_exited, clearW_eq_exited, srW, lgW, clAllW, clPreW, St.bg, onOk, onErr, selNext, afterSetErr, srAllW] <;> (try omega)
-  | lgWriteFail _ i hi =>
-    clear h4
-    have l0 := le_tot srW _ _ _ hi
-    have l1 := le_tot lgW _ _ _ hi
-    have l2 := le_tot clAllW _ _ _ hi
-    have l3 := le_tot clPreW _ _ _ hi
-    (try simp only [St.setDone, St.setBg]) <;> (repeat' split) <;> simp_all [tot_set_eq _ _ _ _ _ hi, tot_ackWs_srw', tot_ackWs_lgw, tot_ackWs_clall, tot_ackWs_clpre, b2n_true, b2n_false, clearW_idle, clearW_exited, clearW_eq_exited, srW, lgW, clAllW, clPreW, St.bg, onOk, onErr, selNext, afterSetErr, srAllW] <;> (try omega)
-  | cmLockTr _ i lg hi hl =>
-    clear h4
-    have l0 := le_tot srW _ _ _ hi
-    have l1 := le_tot lgW _ _ _ hi
-    have l2 := le_tot clAllW _ _ _ hi
-    have l3 := le_tot clPreW _ _ _ hi
-    cases lg <;> (try simp only [St.setDone, St.setBg]) <;> (repeat' split) <;> simp_all [tot_set_eq _ _ _ _ _ hi, tot_ackWs_srw', tot_ackWs_lgw, tot_ackWs_clall, tot_ackWs_clpre, b2n_true, b2n_false, clearW_idle, clearW_exited, clearW_eq_exited, srW, lgW, clAllW, clPreW, St.bg, onOk, onErr, selNext, afterSetErr, srAllW] <;> (try omega)
-  | cmFlushOk _ i lg hi =>
-    clear h4
-    have l0 := le_tot srW _ _ _ hi
-    have l1 := le_tot lgW _ _ _ hi
-    have l2 := le_tot clAllW _ _ _ hi
-    have l3 := le_tot clPreW _ _ _ hi
-    cases lg <;> (try simp only [St.setDone, St.setBg]) <;> (repeat' split) <;> simp_all [tot_set_eq _ _ _ _ _ hi, tot_ackWs_srw', tot_ackWs_lgw, tot_ackWs_clall, tot_ackWs_clpre, b2n_true, b2n_false, clearW_idle, clearW_exited, clearW_eq_exited, srW, lgW, clAllW, clPreW, St.bg, onOk, onErr, selNext, afterSetErr, srAllW] <;> (try omega)
-  | cmFlushEmpty _ i lg hi =>
-    clear h4
-    have l0 := le_tot srW _ _ _ hi
-    have l1 := le_tot lgW _ _ _ hi
-    have l2 := le_tot clAllW _ _ _ hi
-    have l3 := le_tot clPreW _ _ _ hi
-    cases lg <;> (try simp only [St.setDone, St.setBg]) <;> (repeat' split) <;> simp_all [tot_set_eq _ _ _ _ _ hi, tot_ackWs_srw', tot_ackWs_lgw, tot_ackWs_clall, tot_ackWs_clpre, b2n_true, b2n_false, clearW_idle, clearW_exited, clearW_eq_exited, srW, lgW, clAllW, clPreW, St.bg, onOk, onErr, selNext, afterSetErr, srAllW] <;> (try omega)
-  | cmFlushFail _ i lg hi =>
-    clear h4
-    have l0 := le_tot srW _ _ _ hi
-    have l1 := le_tot lgW _ _ _ hi
-    have l2 := le_tot clAllW _ _ _ hi
-    have l3 := le_tot clPreW _ _ _ hi
-    cases lg <;> (try simp only [St.setDone, St.setBg]) <;> (repeat' split) <;> simp_all [tot_set_eq _ _ _ _ _ hi, tot_ackWs_srw', tot_ackWs_lgw, tot_ackWs_clall, tot_ackWs_clpre, b2n_true, b2n_false, clearW_idle, clearW_exited, clearW_eq_exited, srW, lgW, clAllW, clPreW, St.bg, onOk, onErr, selNext, afterSetErr, srAllW] <;> (try omega)
-  | cmLockClk _ i lg hi hl =>
-    clear h4
-    have l0 := le_tot srW _ _ _ hi
-    have l1 := le_tot lgW _ _ _ hi
-    have l2 := le_tot clAllW _ _ _ hi
-    have l3 := le_tot clPreW _ _ _ hi
-    cases lg <;> (try simp only [St.setDone, St.setBg]) <;> (repeat' split) <;> simp_all [tot_set_eq _ _ _ _ _ hi, tot_ackWs_srw', tot_ackWs_lgw, tot_ackWs_clall, tot_ackWs_clpre, b2n_true, b2n_false, clearW_idle, clearW_exited, clearW_eq_exited, srW, lgW, clAllW, clPreW, St.bg, onOk, onErr, selNext, afterSetErr, srAllW] <;> (try omega)
-  | cmTryOk _ i k lg hi =>
-    clear h4
-    have l0 := le_tot srW _ _ _ hi
-    have l1 := le_tot lgW _ _ _ hi
-    have l2 := le_tot clAllW _ _ _ hi
-    have l3 := le_tot clPreW _ _ _ hi
-    cases lg <;> (try simp only [St.setDone, St.setBg]) <;> (repeat' split) <;> simp_all [tot_set_eq _ _ _ _ _ hi, tot_ackWs_srw', tot_ackWs_lgw, tot_ackWs_clall, tot_ackWs_clpre, b2n_true, b2n_false, clearW_idle, clearW_exited, clearW_eq_exited, srW, lgW, clAllW, clPreW, St.bg, onOk, onErr, selNext, afterSetErr, srAllW] <;> (try omega)
-  | cmTryFail _ i k lg hi =>
-    clear h4
-    have l0 := le_tot srW _ _ _ hi
-    have l1 := le_tot lgW _ _ _ hi
-    have l2 := le_tot clAllW _ _ _ hi
-    have l3 := le_tot clPreW _ _ _ hi
-    cases lg <;> (try simp only [St.setDone, St.setBg]) <;> (repeat' split) <;> simp_all [tot_set_eq _ _ _ _ _ hi, tot_ackWs_srw', tot_ackWs_lgw, tot_ackWs_clall, tot_ackWs_clpre, b2n_true, b2n_false, clearW_idle, clearW_exited, clearW_eq_exited, srW, lgW, clAllW, clPreW, St.bg, onOk, onErr, selNext, afterSetErr, srAllW] <;> (try omega)
-  | cmSleepTimer _ i k lg hi =>
-    clear h4
-    have l0 := le_tot srW _ _ _ hi
-    have l1 := le_tot lgW _ _ _ hi
-    have l2 := le_tot clAllW _ _ _ hi
-    have l3 := le_tot clPreW _ _ _ hi
-    cases lg <;> (try simp only [St.setDone, St.setBg]) <;> (repeat' split) <;> simp_all [tot_set_eq _ _ _ _ _ hi, tot_ackWs_srw', tot_ackWs_lgw, tot_ackWs_clall, tot_ackWs_clpre, b2n_true, b2n_false, clearW_idle, clearW_exited, clearW_eq_exited, srW, lgW, clAllW, clPreW, St.bg, onOk, onErr, selNext, afterSetErr, srAllW] <;> (try omega)
-  | cmSleepClosed _ i k lg hi hc =>
-    clear h4
-    have l0 := le_tot srW _ _ _ hi
-    have l1 := le_tot lgW _ _ _ hi
-    have l2 := le_tot clAllW _ _ _ hi
-    have l3 := le_tot clPreW _ _ _ hi
-    cases lg <;> (try simp only [St.setDone, St.setBg]) <;> (repeat' split) <;> simp_all [tot_set_eq _ _ _ _ _ hi, tot_ackWs_srw', tot_ackWs_lgw, tot_ackWs_clall, tot_ackWs_clpre, b2n_true, b2n_false, clearW_idle, clearW_exited, clearW_eq_exited, srW, lgW, clAllW, clPreW, St.bg, onOk, onErr, selNext, afterSetErr, srAllW] <;> (try omega)
-  | cmFail3 _ i lg hi =>
-    clear h4
-    have l0 := le_tot srW _ _ _ hi
-    have l1 := le_tot lgW _ _ _ hi
-    have l2 := le_tot clAllW _ _ _ hi
-    have l3 := le_tot clPreW _ _ _ hi
-    cases lg <;> (try simp only [St.setDone, St.setBg]) <;> (repeat' split) <;> simp_all [tot_set_eq _ _ _ _ _ hi, tot_ackWs_srw', tot_ackWs_lgw, tot_ackWs_clall, tot_ackWs_clpre, b2n_true, b2n_false, clearW_idle, clearW_exited, clearW_eq_exited, srW, lgW, clAllW, clPreW, St.bg, onOk, onErr, selNext, afterSetErr, srAllW] <;> (try omega)
-  | cmAfterOk _ i lg hi =>
-    clear h4
-    have l0 := le_tot srW _ _ _ hi
-    have l1 := le_tot lgW _ _ _ hi
-    have l2 := le_tot clAllW _ _ _ hi
-    have l3 := le_tot clPreW _ _ _ hi
-    cases lg <;> (try simp only [St.setDone, St.setBg]) <;> (repeat' split) <;> simp_all [tot_set_eq _ _ _ _ _ hi, tot_ackWs_srw', tot_ackWs_lgw, tot_ackWs_clall, tot_ackWs_clpre, b2n_true, b2n_false, clearW_idle, clearW_exited, clearW_eq_exited, srW, lgW, clAllW, clPreW, St.bg, onOk, onErr, selNext, afterSetErr, srAllW] <;> (try omega)
-  | cmNoWaitComp _ i lg hi =>
-    clear h4
-    have l0 := le_tot srW _ _ _ hi
-    have l1 := le_tot lgW _ _ _ hi
-    have l2 := le_tot clAllW _ _ _ hi
-    have l3 := le_tot clPreW _ _ _ hi
-    cases lg <;> (try simp only [St.setDone, St.setBg]) <;> (repeat' split) <;> simp_all [tot_set_eq _ _ _ _ _ hi, tot_ackWs_srw', tot_ackWs_lgw, tot_ackWs_clall, tot_ackWs_clpre, b2n_true, b2n_false, clearW_idle, clearW_exited, clearW_eq_exited, srW, lgW, clAllW, clPreW, St.bg, onOk, onErr, selNext, afterSetErr, srAllW] <;> (try omega)
-  | cmWaitComp _ i lg hi =>
-    clear h4
-    have l0 := le_tot srW _ _ _ hi
-    have l1 := le_tot lgW _ _ _ hi
-    have l2 := le_tot clAllW _ _ _ hi
-    have l3 := le_tot clPreW _ _ _ hi
-    cases lg <;> (try simp only [St.setDone, St.setBg]) <;> (repeat' split) <;> simp_all [tot_set_eq _ _ _ _ _ hi, tot_ackWs_srw', tot_ackWs_lgw, tot_ackWs_clall, tot_ackWs_clpre, b2n_true, b2n_false, clearW_idle, clearW_exited, clearW_eq_exited, srW, lgW, clAllW, clPreW, St.bg, onOk, onErr, selNext, afterSetErr, srAllW] <;> (try omega)
-  | cmDone _ i lg hi =>
-    clear h4
-    have l0 := le_tot srW _ _ _ hi
-    have l1 := le_tot lgW _ _ _ hi
-    have l2 := le_tot clAllW _ _ _ hi
-    have l3 := le_tot clPreW _ _ _ hi
-    cases lg <;> (try simp only [St.setDone, St.setBg]) <;> (repeat' split) <;> simp_all [tot_set_eq _ _ _ _ _ hi, tot_ackWs_srw', tot_ackWs_lgw, tot_ackWs_clall, tot_ackWs_clpre, b2n_true, b2n_false, clearW_idle, clearW_exited, clearW_eq_exited, srW, lgW, clAllW, clPreW, St.bg, onOk, onErr, selNext, afterSetErr, srAllW] <;> (try omega)
-  | cmRet _ i ok lg hi =>
-    clear h4
-    have l0 := le_tot srW _ _ _ hi
-    have l1 := le_tot lgW _ _ _ hi
-    have l2 := le_tot clAllW _ _ _ hi
-    have l3 := le_tot clPreW _ _ _ hi
-    cases ok <;> cases lg <;> (try simp only [St.setDone, St.setBg]) <;> (repeat' split) <;> simp_all [tot_set_eq _ _ _ _ _ hi, tot_ackWs_srw', tot_ackWs_lgw, tot_ackWs_clall, tot_ackWs_clpre, b2n_true, b2n_false, clearW_idle, clearW_exited, clearW_eq_exited, srW, lgW, clAllW, clPreW, St.bg, onOk, onErr, selNext, afterSetErr, srAllW] <;> (try omega)
-  | dcLockTr _ i lg hi hl =>
-    clear h4
-    have l0 := le_tot srW _ _ _ hi
-    have l1 := le_tot lgW _ _ _ hi
-    have l2 := le_tot clAllW _ _ _ hi
-    have l3 := le_tot clPreW _ _ _ hi
-    cases lg <;> (try simp only [St.setDone, St.setBg]) <;> (repeat' split) <;> simp_all [tot_set_eq _ _ _ _ _ hi, tot_ackWs_srw', tot_ackWs_lgw, tot_ackWs_clall, tot_ackWs_clpre, b2n_true, b2n_false, clearW_idle, clearW_exited, clearW_eq_exited, srW, lgW, clAllW, clPreW, St.bg, onOk, onErr, selNext, afterSetErr, srAllW] <;> (try omega)
-  | dcBody _ i lg hi =>
-    clear h4
-    have l0 := le_tot srW _ _ _ hi
-    have l1 := le_tot lgW _ _ _ hi
-    have l2 := le_tot clAllW _ _ _ hi
-    have l3 := le_tot clPreW _ _ _ hi
-    cases lg <;> (try simp only [St.setDone, St.setBg]) <;> (repeat' split) <;> simp_all [tot_set_eq _ _ _ _ _ hi, tot_ackWs_srw', tot_ackWs_lgw, tot_ackWs_clall, tot_ackWs_clpre, b2n_true, b2n_false, clearW_idle, clearW_exited, clearW_eq_exited, srW, lgW, clAllW, clPreW, St.bg, onOk, onErr, selNext, afterSetErr, srAllW] <;> (try omega)
-  | crNoOverlap _ i hi =>
-    clear h4
-    have l0 := le_tot srW _ _ _ hi
-    have l1 := le_tot lgW _ _ _ hi
-    have l2 := le_tot clAllW _ _ _ hi
-    have l3 := le_tot clPreW _ _ _ hi
-    (try simp only [St.setDone, St.setBg]) <;> (repeat' split) <;> simp_all [tot_set_eq _ _ _ _ _ hi, tot_ackWs_srw', tot_ackWs_lgw, tot_ackWs_clall, tot_ackWs_clpre, b2n_true, b2n_false, clearW_idle, clearW_exited, clearW_eq_exited, srW, lgW, clAllW, clPreW, St.bg, onOk, onErr, selNext, afterSetErr, srAllW] <;> (try omega)
-  | crOverlap _ i hi =>
-    clear h4
-    have l0 := le_tot srW _ _ _ hi
-    have l1 := le_tot lgW _ _ _ hi
-    have l2 := le_tot clAllW _ _ _ hi
-    have l3 := le_tot clPreW _ _ _ hi
-    (try simp only [St.setDone, St.setBg]) <;> (repeat' split) <;> simp_all [tot_set_eq _ _ _ _ _ hi, tot_ackWs_srw', tot_ackWs_lgw, tot_ackWs_clall, tot_ackWs_clpre, b2n_true, b2n_false, clearW_idle, clearW_exited, clearW_eq_exited, srW, lgW, clAllW, clPreW, St.bg, onOk, onErr, selNext, afterSetErr, srAllW] <;> (try omega)
-  | crNewMemOk _ i hi =>
-    clear h4
-    have l0 := le_tot srW _ _ _ hi
-    have l1 := le_tot lgW _ _ _ hi
-    have l2 := le_tot clAllW _ _ _ hi
-    have l3 := le_tot clPreW _ _ _ hi
-    (try simp only [St.setDone, St.setBg]) <;> (repeat' split) <;> simp_all [tot_set_eq _ _ _ _ _ hi, tot_ackWs_srw', tot_ackWs_lgw, tot_ackWs_clall, tot_ackWs_clpre, b2n_true, b2n_false, clearW_idle, clearW_exited, clearW_eq_exited, srW, lgW, clAllW, clPreW, St.bg, onOk, onErr, selNext, afterSetErr, srAllW] <;> (try omega)
-  | crNewMemFail _ i hi =>
-    clear h4
-    have l0 := le_tot srW _ _ _ hi
-    have l1 := le_tot lgW _ _ _ hi
-    have l2 := le_tot clAllW _ _ _ hi
-    have l3 := le_tot clPreW _ _ _ hi
-    (try simp only [St.setDone, St.setBg]) <;> (repeat' split) <;> simp_all [tot_set_eq _ _ _ _ _ hi, tot_ackWs_srw', tot_ackWs_lgw, tot_ackWs_clall, tot_ackWs_clpre, b2n_true, b2n_false, clearW_idle, clearW_exited, clearW_eq_exited, srW, lgW, clAllW, clPreW, St.bg, onOk, onErr, selNext, afterSetErr, srAllW] <;> (try omega)
-  | crRelM _ i hi =>
-    clear h4
-    have l0 := le_tot srW _ _ _ hi
-    have l1 := le_tot lgW _ _ _ hi
-    have l2 := le_tot clAllW _ _ _ hi
-    have l3 := le_tot clPreW _ _ _ hi
-    (try simp only [St.setDone, St.setBg]) <;> (repeat' split) <;> simp_all [tot_set_eq _ _ _ _ _ hi, tot_ackWs_srw', tot_ackWs_lgw, tot_ackWs_clall, tot_ackWs_clpre, b2n_true, b2n_false, clearW_idle, clearW_exited, clearW_eq_exited, srW, lgW, clAllW, clPreW, St.bg, onOk, onErr, selNext, afterSetErr, srAllW] <;> (try omega)
-  | crRelOk _ i hi =>
-    clear h4
-    have l0 := le_tot srW _ _ _ hi
-    have l1 := le_tot lgW _ _ _ hi
-    have l2 := le_tot clAllW _ _ _ hi
-    have l3 := le_tot clPreW _ _ _ hi
-    (try simp only [St.setDone, St.setBg]) <;> (repeat' split) <;> simp_all [tot_set_eq _ _ _ _ _ hi, tot_ackWs_srw', tot_ackWs_lgw, tot_ackWs_clall, tot_ackWs_clpre, b2n_true, b2n_false, clearW_idle, clearW_exited, clearW_eq_exited, srW, lgW, clAllW, clPreW, St.bg, onOk, onErr, selNext, afterSetErr, srAllW] <;> (try omega)
-  | crRelFail _ i hi =>
-    clear h4
-    have l0 := le_tot srW _ _ _ hi
-    have l1 := le_tot lgW _ _ _ hi
-    have l2 := le_tot clAllW _ _ _ hi
-    have l3 := le_tot clPreW _ _ _ hi
-    (try simp only [St.setDone, St.setBg]) <;> (repeat' split) <;> simp_all [tot_set_eq _ _ _ _ _ hi, tot_ackWs_srw', tot_ackWs_lgw, tot_ackWs_clall, tot_ackWs_clpre, b2n_true, b2n_false, clearW_idle, clearW_exited, clearW_eq_exited, srW, lgW, clAllW, clPreW, St.bg, onOk, onErr, selNext, afterSetErr, srAllW] <;> (try omega)
-  | srSend _ i hi he =>
-    clear h4
-    have l0 := le_tot srW _ _ _ hi
-    have l1 := le_tot lgW _ _ _ hi
-    have l2 := le_tot clAllW _ _ _ hi
-    have l3 := le_tot clPreW _ _ _ hi
-    rcases he with he | he <;> (try simp only [St.setDone, St.setBg]) <;> (repeat' split) <;> simp_all [tot_set_eq _ _ _ _ _ hi, tot_ackWs_srw', tot_ackWs_lgw, tot_ackWs_clall, tot_ackWs_clpre, b2n_true, b2n_false, clearW_idle, clearW_exited, clearW_eq_exited, srW, lgW, clAllW, clPreW, St.bg, onOk, onErr, selNext, afterSetErr, srAllW] <;> (try omega)
-  | srPerErr _ i hi he =>
-    clear h4
-    have l0 := le_tot srW _ _ _ hi
-    have l1 := le_tot lgW _ _ _ hi
-    have l2 := le_tot clAllW _ _ _ hi
-    have l3 := le_tot clPreW _ _ _ hi
-    (try simp only [St.setDone, St.setBg]) <;> (repeat' split) <;> simp_all [tot_set_eq _ _ _ _ _ hi, tot_ackWs_srw', tot_ackWs_lgw, tot_ackWs_clall, tot_ackWs_clpre, b2n_true, b2n_false, clearW_idle, clearW_exited, clearW_eq_exited, srW, lgW, clAllW, clPreW, St.bg, onOk, onErr, selNext, afterSetErr, srAllW] <;> (try omega)
-  | srClosed _ i hi hc =>
-    have l0 := le_tot srW _ _ _ hi
-    have l1 := le_tot lgW _ _ _ hi
-    have l2 := le_tot clAllW _ _ _ hi
-    have l3 := le_tot clPreW _ _ _ hi
-    have ls := le_tot srAllW _ _ _ hi
-    rcases h4 with h4 | ⟨_, h4⟩ <;> (try simp only [St.setDone, St.setBg]) <;> (repeat' split) <;> simp_all [tot_set_eq _ _ _ _ _ hi, tot_ackWs_srw', tot_ackWs_lgw, tot_ackWs_clall, tot_ackWs_clpre, b2n_true, b2n_false, clearW_idle, clearW_exited, clearW_eq_exited, srW, lgW, clAllW, clPreW, St.bg, onOk, onErr, selNext, afterSetErr, srAllW] <;> (try omega)
-  | clCheckTr _ i hi =>
-    clear h4
-    have l0 := le_tot srW _ _ _ hi
-    have l1 := le_tot lgW _ _ _ hi
-    have l2 := le_tot clAllW _ _ _ hi
-    have l3 := le_tot clPreW _ _ _ hi
-    (try simp only [St.setDone, St.setBg]) <;> (repeat' split) <;> simp_all [tot_set_eq _ _ _ _ _ hi, tot_ackWs_srw', tot_ackWs_lgw, tot_ackWs_clall, tot_ackWs_clpre, b2n_true, b2n_false, clearW_idle, clearW_exited, clearW_eq_exited, srW, lgW, clAllW, clPreW, St.bg, onOk, onErr, selNext, afterSetErr, srAllW] <;> (try omega)
-  | clLockTr _ i hi hl =>
-    clear h4
-    have l0 := le_tot srW _ _ _ hi
-    have l1 := le_tot lgW _ _ _ hi
-    have l2 := le_tot clAllW _ _ _ hi
-    have l3 := le_tot clPreW _ _ _ hi
-    (try simp only [St.setDone, St.setBg]) <;> (repeat' split) <;> simp_all [tot_set_eq _ _ _ _ _ hi, tot_ackWs_srw', tot_ackWs_lgw, tot_ackWs_clall, tot_ackWs_clpre, b2n_true, b2n_false, clearW_idle, clearW_exited, clearW_eq_exited, srW, lgW, clAllW, clPreW, St.bg, onOk, onErr, selNext, afterSetErr, srAllW] <;> (try omega)
-  | clBody _ i hi =>
-    clear h4
-    have l0 := le_tot srW _ _ _ hi
-    have l1 := le_tot lgW _ _ _ hi
-    have l2 := le_tot clAllW _ _ _ hi
-    have l3 := le_tot clPreW _ _ _ hi
-    (try simp only [St.setDone, St.setBg]) <;> (repeat' split) <;> simp_all [tot_set_eq _ _ _ _ _ hi, tot_ackWs_srw', tot_ackWs_lgw, tot_ackWs_clall, tot_ackWs_clpre, b2n_true, b2n_false, clearW_idle, clearW_exited, clearW_eq_exited, srW, lgW, clAllW, clPreW, St.bg, onOk, onErr, selNext, afterSetErr, srAllW] <;> (try omega)
-  | clAcq _ i hi ht =>
-    clear h4
-    have l0 := le_tot srW _ _ _ hi
-    have l1 := le_tot lgW _ _ _ hi
-    have l2 := le_tot clAllW _ _ _ hi
-    have l3 := le_tot clPreW _ _ _ hi
-    (try simp only [St.setDone, St.setBg]) <;> (repeat' split) <;> simp_all [tot_set_eq _ _ _ _ _ hi, tot_ackWs_srw', tot_ackWs_lgw, tot_ackWs_clall, tot_ackWs_clpre, b2n_true, b2n_false, clearW_idle, clearW_exited, clearW_eq_exited, srW, lgW, clAllW, clPreW, St.bg, onOk, onErr, selNext, afterSetErr, srAllW] <;> (try omega)
-  | clWait _ i hi hm ht =>
-    clear h4
-    have l0 := le_tot srW _ _ _ hi
-    have l1 := le_tot lgW _ _ _ hi
-    have l2 := le_tot clAllW _ _ _ hi
-    have l3 := le_tot clPreW _ _ _ hi
-    (try simp only [St.setDone, St.setBg]) <;> (repeat' split) <;> simp_all [tot_set_eq _ _ _ _ _ hi, tot_ackWs_srw', tot_ackWs_lgw, tot_ackWs_clall, tot_ackWs_clpre, b2n_true, b2n_false, clearW_idle, clearW_exited, clearW_eq_exited, srW, lgW, clAllW, clPreW, St.bg, onOk, onErr, selNext, afterSetErr, srAllW] <;> (try omega)
-  | ehAcquire _ he ht hn =>
-    clear h4
-    (try simp only [St.setDone, St.setBg]) <;> (repeat' split) <;> simp_all [tot_ackWs_srw', tot_ackWs_lgw, tot_ackWs_clall, tot_ackWs_clpre, b2n_true, b2n_false, clearW_idle, clearW_exited, clearW_eq_exited, srW, lgW, clAllW, clPreW, St.bg, onOk, onErr, selNext, afterSetErr, srAllW] <;> (try omega)
-  | ehExit _ he hc =>
-    clear h4
-    cases he' : s.eh <;> (try simp only [St.setDone, St.setBg]) <;> (repeat' split) <;> simp_all [tot_ackWs_srw', tot_ackWs_lgw, tot_ackWs_clall, tot_ackWs_clpre, b2n_true, b2n_false, clearW_idle, clearW_exited, clearW_eq_exited, srW, lgW, clAllW, clPreW, St.bg, onOk, onErr, selNext, afterSetErr, srAllW] <;> (try omega)
-  | bgExitIdle _ b hb hc =>
-    clear h4
-    cases b <;> (try simp only [St.setDone, St.setBg]) <;> (repeat' split) <;> simp_all [tot_ackWs_srw', tot_ackWs_lgw, tot_ackWs_clall, tot_ackWs_clpre, b2n_true, b2n_false, clearW_idle, clearW_exited, clearW_eq_exited, srW, lgW, clAllW, clPreW, St.bg, onOk, onErr, selNext, afterSetErr, srAllW] <;> (try omega)
-  | bgWorkOk _ b w hb =>
-    clear h4
-    cases b <;> (try simp only [St.setDone, St.setBg]) <;> (repeat' split) <;> simp_all [tot_ackWs_srw', tot_ackWs_lgw, tot_ackWs_clall, tot_ackWs_clpre, b2n_true, b2n_false, clearW_idle, clearW_exited, clearW_eq_exited, srW, lgW, clAllW, clPreW, St.bg, onOk, onErr, selNext, afterSetErr, srAllW] <;> (try omega)
-  | bgWorkFail _ b w hb =>
-    clear h4
-    cases b <;> (try simp only [St.setDone, St.setBg]) <;> (repeat' split) <;> simp_all [tot_ackWs_srw', tot_ackWs_lgw, tot_ackWs_clall, tot_ackWs_clpre, b2n_true, b2n_false, clearW_idle, clearW_exited, clearW_eq_exited, srW, lgW, clAllW, clPreW, St.bg, onOk, onErr, selNext, afterSetErr, srAllW] <;> (try omega)
-  | bgCommitOk _ b w hb =>
-    clear h4
-    cases b <;> (try simp only [St.setDone, St.setBg]) <;> (repeat' split) <;> simp_all [tot_ackWs_srw', tot_ackWs_lgw, tot_ackWs_clall, tot_ackWs_clpre, b2n_true, b2n_false, clearW_idle, clearW_exited, clearW_eq_exited, srW, lgW, clAllW, clPreW, St.bg, onOk, onErr, selNext, afterSetErr, srAllW] <;> (try omega)
-  | bgCommitFail _ b w hb =>
-    clear h4
-    cases b <;> (try simp only [St.setDone, St.setBg]) <;> (repeat' split) <;> simp_all [tot_ackWs_srw', tot_ackWs_lgw, tot_ackWs_clall, tot_ackWs_clpre, b2n_true, b2n_false, clearW_idle, clearW_exited, clearW_eq_exited, srW, lgW, clAllW, clPreW, St.bg, onOk, onErr, selNext, afterSetErr, srAllW] <;> (try omega)
-  | bgSetErr _ b w ok c hb he =>
-    clear h4
-    rcases he with he | he <;> cases b <;> cases ok <;> cases c <;> (try simp only [St.setDone, St.setBg]) <;> (repeat' split) <;> simp_all [tot_ackWs_srw', tot_ackWs_lgw, tot_ackWs_clall, tot_ackWs_clpre, b2n_true, b2n_false, clearW_idle, clearW_exited, clearW_eq_exited, srW, lgW, clAllW, clPreW, St.bg, onOk, onErr, selNext, afterSetErr, srAllW] <;> (try omega)
-  | bgSetErrPer _ b w c hb he =>
-    clear h4
-    cases b <;> cases c <;> (try simp only [St.setDone, St.setBg]) <;> (repeat' split) <;> simp_all [tot_ackWs_srw', tot_ackWs_lgw, tot_ackWs_clall, tot_ackWs_clpre, b2n_true, b2n_false, clearW_idle, clearW_exited, clearW_eq_exited, srW, lgW, clAllW, clPreW, St.bg, onOk, onErr, selNext, afterSetErr, srAllW] <;> (try omega)
-  | bgBackoff _ b w c hb =>
-    clear h4
-    cases b <;> cases c <;> (try simp only [St.setDone, St.setBg]) <;> (repeat' split) <;> simp_all [tot_ackWs_srw', tot_ackWs_lgw, tot_ackWs_clall, tot_ackWs_clpre, b2n_true, b2n_false, clearW_idle, clearW_exited, clearW_eq_exited, srW, lgW, clAllW, clPreW, St.bg, onOk, onErr, selNext, afterSetErr, srAllW] <;> (try omega)
-  | bgLockClk _ b w hb hl =>
-    clear h4
-    cases b <;> (try simp only [St.setDone, St.setBg]) <;> (repeat' split) <;> simp_all [tot_ackWs_srw', tot_ackWs_lgw, tot_ackWs_clall, tot_ackWs_clpre, b2n_true, b2n_false, clearW_idle, clearW_exited, clearW_eq_exited, srW, lgW, clAllW, clPreW, St.bg, onOk, onErr, selNext, afterSetErr, srAllW] <;> (try omega)
-  | bgAck _ b w hb =>
-    clear h4
-    cases b <;> (try simp only [St.setDone, St.setBg]) <;> (repeat' split) <;> simp_all [tot_ackWs_srw', tot_ackWs_lgw, tot_ackWs_clall, tot_ackWs_clpre, b2n_true, b2n_false, clearW_idle, clearW_exited, clearW_eq_exited, srW, lgW, clAllW, clPreW, St.bg, onOk, onErr, selNext, afterSetErr, srAllW] <;> (try omega)
-  | bgExit _ b w ph hb hx =>
-    clear h4
-    cases b <;> cases ph <;> (try simp only [St.setDone, St.setBg]) <;> (repeat' split) <;> simp_all [tot_ackWs_srw', tot_ackWs_lgw, tot_ackWs_clall, tot_ackWs_clpre, b2n_true, b2n_false, clearW_idle, clearW_exited, clearW_eq_exited, srW, lgW, clAllW, clPreW, St.bg, onOk, onErr, selNext, afterSetErr, srAllW] <;> (try omega) <;> (try (rcases hx with hx | hx <;> simp_all))
+/-- `SetReadOnly`: while the DB is open, a thread between the two `select`s still has its token in
+`writeLockC`; once `compReadOnly` is set the machine is in (or past) `hasperr` with `ErrReadOnly`, and while the
+DB is open the token stays in `writeLockC` -/
+def PInvE (s : St) : Prop :=
+  (s.closed = false → 0 < tot srW s.ws → s.ehTok = true) ∧
+  (s.ro = true → s.ehErr = .readonly ∧ (s.eh = .hasperr ∨ s.eh = .closing ∨ s.eh = .exited)) ∧
+  (s.ro = true → s.closed = false → s.ehTok = true)
 
-theorem step_pinvB (s t : St) (f : Bool) (cfg : Cfg) (hfx : Fixed3 cfg)
-    (h4 : cfg.setReadOnlyReleasesOnClose = true ∨ NoSR s) (h : Step cfg f s t) (inv : PInvB s) : PInvB t := by
-  unfold PInvB at *
-  have c3 := b2n_le s.ehTok
-  obtain ⟨f1, f2, f3⟩ := hfx
-  cases h with
-  | startPut _ i hi =>
-    clear h4
-    have l0 := le_tot srW _ _ _ hi
-    have l1 := le_tot lgW _ _ _ hi
-    have l2 := le_tot clAllW _ _ _ hi
-    have l3 := le_tot clPreW _ _ _ hi
-    (try simp only [St.setDone, St.setBg]) <;> (repeat' split) <;> simp_all [tot_set_eq _ _ _ _ _ hi, tot_ackWs_srw', tot_ackWs_lgw, tot_ackWs_clall, tot_ackWs_clpre, b2n_true, b2n_false, clearW_idle, clearW_exited, clearW_eq_exited, srW, lgW, clAllW, clPreW, St.bg, onOk, onErr, selNext, afterSetErr, srAllW] <;> (try omega)
-  | startWrite _ i hi =>
-    clear h4
-    have l0 := le_tot srW _ _ _ hi
-    have l1 := le_tot lgW _ _ _ hi
-    have l2 := le_tot clAllW _ _ _ hi
-    have l3 := le_tot clPreW _ _ _ hi
-    (try simp only [St.setDone, St.setBg]) <;> (repeat' split) <;> simp_all [tot_set_eq _ _ _ _ _ hi, tot_ackWs_srw', tot_ackWs_lgw, tot_ackWs_clall, tot_ackWs_clpre, b2n_true, b2n_false, clearW_idle, clearW_exited, clearW_eq_exited, srW, lgW, clAllW, clPreW, St.bg, onOk, onErr, selNext, afterSetErr, srAllW] <;> (try omega)
-  | startOtx _ i hi =>
-    clear h4
-    have l0 := le_tot srW _ _ _ hi
-    have l1 := le_tot lgW _ _ _ hi
-    have l2 := le_tot clAllW _ _ _ hi
-    have l3 := le_tot clPreW _ _ _ hi
-    (try simp only [St.setDone, St.setBg]) <;> (repeat' split) <;> simp_all [tot_set_eq _ _ _ _ _ hi, tot_ackWs_srw', tot_ackWs_lgw, tot_ackWs_clall, tot_ackWs_clpre, b2n_true, b2n_false, clearW_idle, clearW_exited, clearW_eq_exited, srW, lgW, clAllW, clPreW, St.bg, onOk, onErr, selNext, afterSetErr, srAllW] <;> (try omega)
-  | startCommit _ i hi hu =>
-    clear h4
-    have l0 := le_tot srW _ _ _ hi
-    have l1 := le_tot lgW _ _ _ hi
-    have l2 := le_tot clAllW _ _ _ hi
-    have l3 := le_tot clPreW _ _ _ hi
-    (try simp only [St.setDone, St.setBg]) <;> (repeat' split) <;> simp_all [tot_set_eq _ _ _ _ _ hi, tot_ackWs_srw', tot_ackWs_lgw, tot_ackWs_clall, tot_ackWs_clpre, b2n_true, b2n_false, clearW_idle, clearW_exited, clearW_eq_exited, srW, lgW, clAllW, clPreW, St.bg, onOk, onErr, selNext, afterSetErr, srAllW] <;> (try omega)
-  | startDiscard _ i hi hu =>
-    clear h4
-    have l0 := le_tot srW _ _ _ hi
-    have l1 := le_tot lgW _ _ _ hi
-    have l2 := le_tot clAllW _ _ _ hi
-    have l3 := le_tot clPreW _ _ _ hi
-    (try simp only [St.setDone, St.setBg]) <;> (repeat' split) <;> simp_all [tot_set_eq _ _ _ _ _ hi, tot_ackWs_srw', tot_ackWs_lgw, tot_ackWs_clall, tot_ackWs_clpre, b2n_true, b2n_false, clearW_idle, clearW_exited, clearW_eq_exited, srW, lgW, clAllW, clPreW, St.bg, onOk, onErr, selNext, afterSetErr, srAllW] <;> (try omega)
-  | startCR _ i hi =>
-    clear h4
-    have l0 := le_tot srW _ _ _ hi
-    have l1 := le_tot lgW _ _ _ hi
-    have l2 := le_tot clAllW _ _ _ hi
-    have l3 := le_tot clPreW _ _ _ hi
-    (try simp only [St.setDone, St.setBg]) <;> (repeat' split) <;> simp_all [tot_set_eq _ _ _ _ _ hi, tot_ackWs_srw', tot_ackWs_lgw, tot_ackWs_clall, tot_ackWs_clpre, b2n_true, b2n_false, clearW_idle, clearW_exited, clearW_eq_exited, srW, lgW, clAllW, clPreW, St.bg, onOk, onErr, selNext, afterSetErr, srAllW] <;> (try omega)
-  | startSR _ i hi ha =>
-    clear h4
-    have l0 := le_tot srW _ _ _ hi
-    have l1 := le_tot lgW _ _ _ hi
-    have l2 := le_tot clAllW _ _ _ hi
-    have l3 := le_tot clPreW _ _ _ hi
-    (try simp only [St.setDone, St.setBg]) <;> (repeat' split) <;> simp_all [tot_set_eq _ _ _ _ _ hi, tot_ackWs_srw', tot_ackWs_lgw, tot_ackWs_clall, tot_ackWs_clpre, b2n_true, b2n_false, clearW_idle, clearW_exited, clearW_eq_exited, srW, lgW, clAllW, clPreW, St.bg, onOk, onErr, selNext, afterSetErr, srAllW] <;> (try omega)
-  | startClose _ i hi =>
-    clear h4
-    have l0 := le_tot srW _ _ _ hi
-    have l1 := le_tot lgW _ _ _ hi
-    have l2 := le_tot clAllW _ _ _ hi
-    have l3 := le_tot clPreW _ _ _ hi
-    (try simp only [St.setDone, St.setBg]) <;> (repeat' split) <;> simp_all [tot_set_eq _ _ _ _ _ hi, tot_ackWs_srw', tot_ackWs_lgw, tot_ackWs_clall, tot_ackWs_clpre, b2n_true, b2n_false, clearW_idle, clearW_exited, clearW_eq_exited, srW, lgW, clAllW, clPreW, St.bg, onOk, onErr, selNext, afterSetErr, srAllW] <;> (try omega)
-  | selTok _ i p q hi hq ht =>
-    clear h4
-    have l0 := le_tot srW _ _ _ hi
-    have l1 := le_tot lgW _ _ _ hi
-    have l2 := le_tot clAllW _ _ _ hi
-    have l3 := le_tot clPreW _ _ _ hi
-    cases p <;> simp only [selNext] at hq <;> (try contradiction) <;> cases hq <;> simp_all [tot_set_eq _ _ _ _ _ hi, tot_ackWs_srw', tot_ackWs_lgw, tot_ackWs_clall, tot_ackWs_clpre, b2n_true, b2n_false, clearW_idle, clearW_exited, clearW_eq_exited, srW, lgW, clAllW, clPreW, St.bg, onOk, onErr, selNext, afterSetErr, srAllW] <;> (try omega)
-  | selPerErr _ i p q hi hq he =>
-    clear h4
-    have l0 := le_tot srW _ _ _ hi
-    have l1 := le_tot lgW _ _ _ hi
-    have l2 := le_tot clAllW _ _ _ hi
-    have l3 := le_tot clPreW _ _ _ hi
-    cases p <;> simp only [selNext] at hq <;> (try contradiction) <;> cases hq <;> simp_all [tot_set_eq _ _ _ _ _ hi, tot_ackWs_srw', tot_ackWs_lgw, tot_ackWs_clall, tot_ackWs_clpre, b2n_true, b2n_false, clearW_idle, clearW_exited, clearW_eq_exited, srW, lgW, clAllW, clPreW, St.bg, onOk, onErr, selNext, afterSetErr, srAllW] <;> (try omega)
-  | selClosed _ i p q hi hq hc =>
-    clear h4
-    have l0 := le_tot srW _ _ _ hi
-    have l1 := le_tot lgW _ _ _ hi
-    have l2 := le_tot clAllW _ _ _ hi
-    have l3 := le_tot clPreW _ _ _ hi
-    cases p <;> simp only [selNext] at hq <;> (try contradiction) <;> cases hq <;> simp_all [tot_set_eq _ _ _ _ _ hi, tot_ackWs_srw', tot_ackWs_lgw, tot_ackWs_clall, tot_ackWs_clpre, b2n_true, b2n_false, clearW_idle, clearW_exited, clearW_eq_exited, srW, lgW, clAllW, clPreW, St.bg, onOk, onErr, selNext, afterSetErr, srAllW] <;> (try omega)
-  | putNoWait _ i hi =>
-    clear h4
-    have l0 := le_tot srW _ _ _ hi
-    have l1 := le_tot lgW _ _ _ hi
-    have l2 := le_tot clAllW _ _ _ hi
-    have l3 := le_tot clPreW _ _ _ hi
-    (try simp only [St.setDone, St.setBg]) <;> (repeat' split) <;> simp_all [tot_set_eq _ _ _ _ _ hi, tot_ackWs_srw', tot_ackWs_lgw, tot_ackWs_clall, tot_ackWs_clpre, b2n_true, b2n_false, clearW_idle, clearW_exited, clearW_eq_exited, srW, lgW, clAllW, clPreW, St.bg, onOk, onErr, selNext, afterSetErr, srAllW] <;> (try omega)
-  | putWait _ i b hi =>
-    clear h4
-    have l0 := le_tot srW _ _ _ hi
-    have l1 := le_tot lgW _ _ _ hi
-    have l2 := le_tot clAllW _ _ _ hi
-    have l3 := le_tot clPreW _ _ _ hi
-    cases b <;> (try simp only [St.setDone, St.setBg]) <;> (repeat' split) <;> simp_all [tot_set_eq _ _ _ _ _ hi, tot_ackWs_srw', tot_ackWs_lgw, tot_ackWs_clall, tot_ackWs_clpre, b2n_true, b2n_false, clearW_idle, clearW_exited, clearW_eq_exited, srW, lgW, clAllW, clPreW, St.bg, onOk, onErr, selNext, afterSetErr, srAllW] <;> (try omega)
-  | putJournalOk _ i hi =>
-    clear h4
-    have l0 := le_tot srW _ _ _ hi
-    have l1 := le_tot lgW _ _ _ hi
-    have l2 := le_tot clAllW _ _ _ hi
-    have l3 := le_tot clPreW _ _ _ hi
-    (try simp only [St.setDone, St.setBg]) <;> (repeat' split) <;> simp_all [tot_set_eq _ _ _ _ _ hi, tot_ackWs_srw', tot_ackWs_lgw, tot_ackWs_clall, tot_ackWs_clpre, b2n_true, b2n_false, clearW_idle, clearW_exited, clearW_eq_exited, srW, lgW, clAllW, clPreW, St.bg, onOk, onErr, selNext, afterSetErr, srAllW] <;> (try omega)
-  | putJournalFail _ i hi =>
-    clear h4
-    have l0 := le_tot srW _ _ _ hi
-    have l1 := le_tot lgW _ _ _ hi
-    have l2 := le_tot clAllW _ _ _ hi
-    have l3 := le_tot clPreW _ _ _ hi
-    (try simp only [St.setDone, St.setBg]) <;> (repeat' split) <;> simp_all [tot_set_eq _ _ _ _ _ hi, tot_ackWs_srw', tot_ackWs_lgw, tot_ackWs_clall, tot_ackWs_clpre, b2n_true, b2n_false, clearW_idle, clearW_exited, clearW_eq_exited, srW, lgW, clAllW, clPreW, St.bg, onOk, onErr, selNext, afterSetErr, srAllW] <;> (try omega)
-  | putUnlock _ i r hi =>
-    clear h4
-    have l0 := le_tot srW _ _ _ hi
-    have l1 := le_tot lgW _ _ _ hi
-    have l2 := le_tot clAllW _ _ _ hi
-    have l3 := le_tot clPreW _ _ _ hi
-    cases r <;> (try simp only [St.setDone, St.setBg]) <;> (repeat' split) <;> simp_all [tot_set_eq _ _ _ _ _ hi, tot_ackWs_srw', tot_ackWs_lgw, tot_ackWs_clall, tot_ackWs_clpre, b2n_true, b2n_false, clearW_idle, clearW_exited, clearW_eq_exited, srW, lgW, clAllW, clPreW, St.bg, onOk, onErr, selNext, afterSetErr, srAllW] <;> (try omega)
-  | cwSendGo _ i b site lg hi hb =>
-    clear h4
-    have l0 := le_tot srW _ _ _ hi
-    have l1 := le_tot lgW _ _ _ hi
-    have l2 := le_tot clAllW _ _ _ hi
-    have l3 := le_tot clPreW _ _ _ hi
-    cases site <;> cases b <;> cases lg <;> (try simp only [St.setDone, St.setBg]) <;> (repeat' split) <;> simp_all [tot_set_eq _ _ _ _ _ hi, tot_ackWs_srw', tot_ackWs_lgw, tot_ackWs_clall, tot_ackWs_clpre, b2n_true, b2n_false, clearW_idle, clearW_exited, clearW_eq_exited, srW, lgW, clAllW, clPreW, St.bg, onOk, onErr, selNext, afterSetErr, srAllW] <;> (try omega)
-  | cwSendErr _ i b site lg hi he =>
-    clear h4
-    have l0 := le_tot srW _ _ _ hi
-    have l1 := le_tot lgW _ _ _ hi
-    have l2 := le_tot clAllW _ _ _ hi
-    have l3 := le_tot clPreW _ _ _ hi
-    cases site <;> cases b <;> cases lg <;> (try simp only [St.setDone, St.setBg]) <;> (repeat' split) <;> simp_all [tot_set_eq _ _ _ _ _ hi, tot_ackWs_srw', tot_ackWs_lgw, tot_ackWs_clall, tot_ackWs_clpre, b2n_true, b2n_false, clearW_idle, clearW_exited, clearW_eq_exited, srW, lgW, clAllW, clPreW, St.bg, onOk, onErr, selNext, afterSetErr, srAllW] <;> (try omega)
-  | cwAckErr _ i b site lg hi he =>
-    clear h4
-    have l0 := le_tot srW _ _ _ hi
-    have l1 := le_tot lgW _ _ _ hi
-    have l2 := le_tot clAllW _ _ _ hi
-    have l3 := le_tot clPreW _ _ _ hi
-    cases site <;> cases b <;> cases lg <;> (try simp only [St.setDone, St.setBg]) <;> (repeat' split) <;> simp_all [tot_set_eq _ _ _ _ _ hi, tot_ackWs_srw', tot_ackWs_lgw, tot_ackWs_clall, tot_ackWs_clpre, b2n_true, b2n_false, clearW_idle, clearW_exited, clearW_eq_exited, srW, lgW, clAllW, clPreW, St.bg, onOk, onErr, selNext, afterSetErr, srAllW] <;> (try omega)
-  | otxRotate _ i lg hi =>
-    clear h4
-    have l0 := le_tot srW _ _ _ hi
-    have l1 := le_tot lgW _ _ _ hi
-    have l2 := le_tot clAllW _ _ _ hi
-    have l3 := le_tot clPreW _ _ _ hi
-    cases lg <;> (try simp only [St.setDone, St.setBg]) <;> (repeat' split) <;> simp_all [tot_set_eq _ _ _ _ _ hi, tot_ackWs_srw', tot_ackWs_lgw, tot_ackWs_clall, tot_ackWs_clpre, b2n_true, b2n_false, clearW_idle, clearW_exited, clearW_eq_exited, srW, lgW, clAllW, clPreW, St.bg, onOk, onErr, selNext, afterSetErr, srAllW] <;> (try omega)
-  | otxNoRotate _ i lg hi =>
-    clear h4
-    have l0 := le_tot srW _ _ _ hi
-    have l1 := le_tot lgW _ _ _ hi
-    have l2 := le_tot clAllW _ _ _ hi
-    have l3 := le_tot clPreW _ _ _ hi
-    cases lg <;> (try simp only [St.setDone, St.setBg]) <;> (repeat' split) <;> simp_all [tot_set_eq _ _ _ _ _ hi, tot_ackWs_srw', tot_ackWs_lgw, tot_ackWs_clall, tot_ackWs_clpre, b2n_true, b2n_false, clearW_idle, clearW_exited, clearW_eq_exited, srW, lgW, clAllW, clPreW, St.bg, onOk, onErr, selNext, afterSetErr, srAllW] <;> (try omega)
-  | otxNewMemOk _ i lg hi =>
-    clear h4
-    have l0 := le_tot srW _ _ _ hi
-    have l1 := le_tot lgW _ _ _ hi
-    have l2 := le_tot clAllW _ _ _ hi
-    have l3 := le_tot clPreW _ _ _ hi
-    cases lg <;> (try simp only [St.setDone, St.setBg]) <;> (repeat' split) <;> simp_all [tot_set_eq _ _ _ _ _ hi, tot_ackWs_srw', tot_ackWs_lgw, tot_ackWs_clall, tot_ackWs_clpre, b2n_true, b2n_false, clearW_idle, clearW_exited, clearW_eq_exited, srW, lgW, clAllW, clPreW, St.bg, onOk, onErr, selNext, afterSetErr, srAllW] <;> (try omega)
-  | otxNewMemFail _ i lg hi =>
-    clear h4
-    have l0 := le_tot srW _ _ _ hi
-    have l1 := le_tot lgW _ _ _ hi
-    have l2 := le_tot clAllW _ _ _ hi
-    have l3 := le_tot clPreW _ _ _ hi
-    cases lg <;> (try simp only [St.setDone, St.setBg]) <;> (repeat' split) <;> simp_all [tot_set_eq _ _ _ _ _ hi, tot_ackWs_srw', tot_ackWs_lgw, tot_ackWs_clall, tot_ackWs_clpre, b2n_true, b2n_false, clearW_idle, clearW_exited, clearW_eq_exited, srW, lgW, clAllW, clPreW, St.bg, onOk, onErr, selNext, afterSetErr, srAllW] <;> (try omega)
-  | otxNoWaitComp _ i lg hi =>
-    clear h4
-    have l0 := le_tot srW _ _ _ hi
-    have l1 := le_tot lgW _ _ _ hi
-    have l2 := le_tot clAllW _ _ _ hi
-    have l3 := le_tot clPreW _ _ _ hi
-    cases lg <;> (try simp only [St.setDone, St.setBg]) <;> (repeat' split) <;> simp_all [tot_set_eq _ _ _ _ _ hi, tot_ackWs_srw', tot_ackWs_lgw, tot_ackWs_clall, tot_ackWs_clpre, b2n_true, b2n_false, clearW_idle, clearW_exited, clearW_eq_exited, srW, lgW, clAllW, clPreW, St.bg, onOk, onErr, selNext, afterSetErr, srAllW] <;> (try omega)
-  | otxWaitComp _ i lg hi =>
-    clear h4
-    have l0 := le_tot srW _ _ _ hi
-    have l1 := le_tot lgW _ _ _ hi
-    have l2 := le_tot clAllW _ _ _ hi
-    have l3 := le_tot clPreW _ _ _ hi
-    cases lg <;> (try simp only [St.setDone, St.setBg]) <;> (repeat' split) <;> simp_all [tot_set_eq _ _ _ _ _ hi, tot_ackWs_srw', tot_ackWs_lgw, tot_ackWs_clall, tot_ackWs_clpre, b2n_true, b2n_false, clearW_idle, clearW_exited, clearW_eq_exited, srW, lgW, clAllW, clPreW, St.bg, onOk, onErr, selNext, afterSetErr, srAllW] <;> (try omega)
-  | otxFail _ i lg hi =>
-    clear h4
-    have l0 := le_tot srW _ _ _ hi
-    have l1 := le_tot lgW _ _ _ hi
-    have l2 := le_tot clAllW _ _ _ hi
-    have l3 := le_tot clPreW _ _ _ hi
-    cases lg <;> (try simp only [St.setDone, St.setBg]) <;> (repeat' split) <;> simp_all [tot_set_eq _ _ _ _ _ hi, tot_ackWs_srw', tot_ackWs_lgw, tot_ackWs_clall, tot_ackWs_clpre, b2n_true, b2n_false, clearW_idle, clearW_exited, clearW_eq_exited, srW, lgW, clAllW, clPreW, St.bg, onOk, onErr, selNext, afterSetErr, srAllW] <;> (try omega)
-  | otxRel _ i lg hi =>
-    clear h4
-    have l0 := le_tot srW _ _ _ hi
-    have l1 := le_tot lgW _ _ _ hi
-    have l2 := le_tot clAllW _ _ _ hi
-    have l3 := le_tot clPreW _ _ _ hi
-    cases lg <;> (try simp only [St.setDone, St.setBg]) <;> (repeat' split) <;> simp_all [tot_set_eq _ _ _ _ _ hi, tot_ackWs_srw', tot_ackWs_lgw, tot_ackWs_clall, tot_ackWs_clpre, b2n_true, b2n_false, clearW_idle, clearW_exited, clearW_eq_exited, srW, lgW, clAllW, clPreW, St.bg, onOk, onErr, selNext, afterSetErr, srAllW] <;> (try omega)
-  | otxDone _ i lg hi =>
-    clear h4
-    have l0 := le_tot srW _ _ _ hi
-    have l1 := le_tot lgW _ _ _ hi
-    have l2 := le_tot clAllW _ _ _ hi
-    have l3 := le_tot clPreW _ _ _ hi
-    cases lg <;> (try simp only [St.setDone, St.setBg]) <;> (repeat' split) <;> simp_all [tot_set_eq _ _ _ _ _ hi, tot_ackWs_srw', tot_ackWs_lgw, tot_ackWs_clall, tot_ackWs_clpre, b2n_true, b2n_false, clearW_idle, clearW_exited, clearW_eq_exited, srW, lgW, clAllW, clPreW, St.bg, onOk, onErr, selNext, afterSetErr, srAllW] <;> (try omega)
-  | lgWriteOk _ i hi =>
-    clear h4
-    have l0 := le_tot srW _ _ _ hi
-    have l1 := le_tot lgW _ _ _ hi
-    have l2 := le_tot clAllW _ _ _ hi
-    have l3 := le_tot clPreW _ _ _ hi
-    (try simp only [St.setDone, St.setBg]) <;> (repeat' split) <;> simp_all [tot_set_eq _ _ _ _ _ hi, tot_ackWs_srw', tot_ackWs_lgw, tot_ackWs_clall, tot_ackWs_clpre, b2n_true, b2n_false, clearW_idle, clearW_exited, clearW_eq_exited, srW, lgW, clAllW, clPreW, St.bg, onOk, onErr, selNext, afterSetErr, srAllW] <;> (try omega)
-  | lgWriteFail _ i hi =>
-    clear h4
-    have l0 := le_tot srW _ _ _ hi
-    have l1 := le_tot lgW _ _ _ hi
-    have l2 := le_tot clAllW _ _ _ hi
-    have l3 := le_tot clPreW _ _ _ hi
-    (try simp only [St.setDone, St.setBg]) <;> (repeat' split) <;> simp_all [tot_set_eq _ _ _ _ _ hi, tot_ackWs_srw', tot_ackWs_lgw, tot_ackWs_clall, tot_ackWs_clpre, b2n_true, b2n_false, clearW_idle, clearW_exited, clearW_eq_exited, srW, lgW, clAllW, clPreW, St.bg, onOk, onErr, selNext, afterSetErr, srAllW] <;> (try omega)
-  | cmLockTr _ i lg hi hl =>
-    clear h4
-    have l0 := le_tot srW _ _ _ hi
-    have l1 := le_tot lgW _ _ _ hi
-    have l2 := le_tot clAllW _ _ _ hi
-    have l3 := le_tot clPreW _ _ _ hi
-    cases lg <;> (try simp only [St.setDone, St.setBg]) <;> (repeat' split) <;> simp_all [tot_set_eq _ _ _ _ _ hi, tot_ackWs_srw', tot_ackWs_lgw, tot_ackWs_clall, tot_ackWs_clpre, b2n_true, b2n_false, clearW_idle, clearW_exited, clearW_eq_exited, srW, lgW, clAllW, clPreW, St.bg, onOk, onErr, selNext, afterSetErr, srAllW] <;> (try omega)
-  | cmFlushOk _ i lg hi =>
-    clear h4
-    have l0 := le_tot srW _ _ _ hi
-    have l1 := le_tot lgW _ _ _ hi
-    have l2 := le_tot clAllW _ _ _ hi
-    have l3 := le_tot clPreW _ _ _ hi
-    cases lg <;> (try simp only [St.setDone, St.setBg]) <;> (repeat' split) <;> simp_all [tot_set_eq _ _ _ _ _ hi, tot_ackWs_srw', tot_ackWs_lgw, tot_ackWs_clall, tot_ackWs_clpre, b2n_true, b2n_false, clearW_idle, clearW_exited, clearW_eq_exited, srW, lgW, clAllW, clPreW, St.bg, onOk, onErr, selNext, afterSetErr, srAllW] <;> (try omega)
-  | cmFlushEmpty _ i lg hi =>
-    clear h4
-    have l0 := le_tot srW _ _ _ hi
-    have l1 := le_tot lgW _ _ _ hi
-    have l2 := le_tot clAllW _ _ _ hi
-    have l3 := le_tot clPreW _ _ _ hi
-    cases lg <;> (try simp only [St.setDone, St.setBg]) <;> (repeat' split) <;> simp_all [tot_set_eq _ _ _ _ _ hi, tot_ackWs_srw', tot_ackWs_lgw, tot_ackWs_clall, tot_ackWs_clpre, b2n_true, b2n_false, clearW_idle, clearW_exited, clearW_eq_exited, srW, lgW, clAllW, clPreW, St.bg, onOk, onErr, selNext, afterSetErr, srAllW] <;> (try omega)
-  | cmFlushFail _ i lg hi =>
-    clear h4
-    have l0 := le_tot srW _ _ _ hi
-    have l1 := le_tot lgW _ _ _ hi
-    have l2 := le_tot clAllW _ _ _ hi
-    have l3 := le_tot clPreW _ _ _ hi
-    cases lg <;> (try simp only [St.setDone, St.setBg]) <;> (repeat' split) <;> simp_all [tot_set_eq _ _ _ _ _ hi, tot_ackWs_srw', tot_ackWs_lgw, tot_ackWs_clall, tot_ackWs_clpre, b2n_true, b2n_false, clearW_idle, clearW_exited, clearW_eq_exited, srW, lgW, clAllW, clPreW, St.bg, onOk, onErr, selNext, afterSetErr, srAllW] <;> (try omega)
-  | cmLockClk _ i lg hi hl =>
-    clear h4
-    have l0 := le_tot srW _ _ _ hi
-    have l1 := le_tot lgW _ _ _ hi
-    have l2 := le_tot clAllW _ _ _ hi
-    have l3 := le_tot clPreW _ _ _ hi
-    cases lg <;> (try simp only [St.setDone, St.setBg]) <;> (repeat' split) <;> simp_all [tot_set_eq _ _ _ _ _ hi, tot_ackWs_srw', tot_ackWs_lgw, tot_ackWs_clall, tot_ackWs_clpre, b2n_true, b2n_false, clearW_idle, clearW_exited, clearW_eq_exited, srW, lgW, clAllW, clPreW, St.bg, onOk, onErr, selNext, afterSetErr, srAllW] <;> (try omega)
-  | cmTryOk _ i k lg hi =>
-    clear h4
-    have l0 := le_tot srW _ _ _ hi
-    have l1 := le_tot lgW _ _ _ hi
-    have l2 := le_tot clAllW _ _ _ hi
-    have l3 := le_tot clPreW _ _ _ hi
-    cases lg <;> (try simp only [St.setDone, St.setBg]) <;> (repeat' split) <;> simp_all [tot_set_eq _ _ _ _ _ hi, tot_ackWs_srw', tot_ackWs_lgw, tot_ackWs_clall, tot_ackWs_clpre, b2n_true, b2n_false, clearW_idle, clearW_exited, clearW_eq_exited, srW, lgW, clAllW, clPreW, St.bg, onOk, onErr, selNext, afterSetErr, srAllW] <;> (try omega)
-  | cmTryFail _ i k lg hi =>
-    clear h4
-    have l0 := le_tot srW _ _ _ hi
-    have l1 := le_tot lgW _ _ _ hi
-    have l2 := le_tot clAllW _ _ _ hi
-    have l3 := le_tot clPreW _ _ _ hi
-    cases lg <;> (try simp only [St.setDone, St.setBg]) <;> (repeat' split) <;> simp_all [tot_set_eq _ _ _ _ _ hi, tot_ackWs_srw', tot_ackWs_lgw, tot_ackWs_clall, tot_ackWs_clpre, b2n_true, b2n_false, clearW_idle, clearW_exited, clearW_eq_exited, srW, lgW, clAllW, clPreW, St.bg, onOk, onErr, selNext, afterSetErr, srAllW] <;> (try omega)
-  | cmSleepTimer _ i k lg hi =>
-    clear h4
-    have l0 := le_tot srW _ _ _ hi
-    have l1 := le_tot lgW _ _ _ hi
-    have l2 := le_tot clAllW _ _ _ hi
-    have l3 := le_tot clPreW _ _ _ hi
-    cases lg <;> (try simp only [St.setDone, St.setBg]) <;> (repeat' split) <;> simp_all [tot_set_eq _ _ _ _ _ hi, tot_ackWs_srw', tot_ackWs_lgw, tot_ackWs_clall, tot_ackWs_clpre, b2n_true, b2n_false, clearW_idle, clearW_exited, clearW_eq_exited, srW, lgW, clAllW, clPreW, St.bg, onOk, onErr, selNext, afterSetErr, srAllW] <;> (try omega)
-  | cmSleepClosed _ i k lg hi hc =>
-    clear h4
-    have l0 := le_tot srW _ _ _ hi
-    have l1 := le_tot lgW _ _ _ hi
-    have l2 := le_tot clAllW _ _ _ hi
-    have l3 := le_tot clPreW _ _ _ hi
-    cases lg <;> (try simp only [St.setDone, St.setBg]) <;> (repeat' split) <;> simp_all [tot_set_eq _ _ _ _ _ hi, tot_ackWs_srw', tot_ackWs_lgw, tot_ackWs_clall, tot_ackWs_clpre, b2n_true, b2n_false, clearW_idle, clearW_exited, clearW_eq_exited, srW, lgW, clAllW, clPreW, St.bg, onOk, onErr, selNext, afterSetErr, srAllW] <;> (try omega)
-  | cmFail3 _ i lg hi =>
-    clear h4
-    have l0 := le_tot srW _ _ _ hi
-    have l1 := le_tot lgW _ _ _ hi
-    have l2 := le_tot clAllW _ _ _ hi
-    have l3 := le_tot clPreW _ _ _ hi
-    cases lg <;> (try simp only [St.setDone, St.setBg]) <;> (repeat' split) <;> simp_all [tot_set_eq _ _ _ _ _ hi, tot_ackWs_srw', tot_ackWs_lgw, tot_ackWs_clall, tot_ackWs_clpre, b2n_true, b2n_false, clearW_idle, clearW_exited, clearW_eq_exited, srW, lgW, clAllW, clPreW, St.bg, onOk, onErr, selNext, afterSetErr, srAllW] <;> (try omega)
-  | cmAfterOk _ i lg hi =>
-    clear h4
-    have l0 := le_tot srW _ _ _ hi
-    have l1 := le_tot lgW _ _ _ hi
-    have l2 := le_tot clAllW _ _ _ hi
-    have l3 := le_tot clPreW _ _ _ hi
-    cases lg <;> (try simp only [St.setDone, St.setBg]) <;> (repeat' split) <;> simp_all [tot_set_eq _ _ _ _ _ hi, tot_ackWs_srw', tot_ackWs_lgw, tot_ackWs_clall, tot_ackWs_clpre, b2n_true, b2n_false, clearW_idle, clearW_exited, clearW_eq_exited, srW, lgW, clAllW, clPreW, St.bg, onOk, onErr, selNext, afterSetErr, srAllW] <;> (try omega)
-  | cmNoWaitComp _ i lg hi =>
-    clear h4
-    have l0 := le_tot srW _ _ _ hi
-    have l1 := le_tot lgW _ _ _ hi
-    have l2 := le_tot clAllW _ _ _ hi
-    have l3 := le_tot clPreW _ _ _ hi
-    cases lg <;> (try simp only [St.setDone, St.setBg]) <;> (repeat' split) <;> simp_all [tot_set_eq _ _ _ _ _ hi, tot_ackWs_srw', tot_ackWs_lgw, tot_ackWs_clall, tot_ackWs_clpre, b2n_true, b2n_false, clearW_idle, clearW_exited, clearW_eq_exited, srW, lgW, clAllW, clPreW, St.bg, onOk, onErr, selNext, afterSetErr, srAllW] <;> (try omega)
-  | cmWaitComp _ i lg hi =>
-    clear h4
-    have l0 := le_tot srW _ _ _ hi
-    have l1 := le_tot lgW _ _ _ hi
-    have l2 := le_tot clAllW _ _ _ hi
-    have l3 := le_tot clPreW _ _ _ hi
-    cases lg <;> (try simp only [St.setDone, St.setBg]) <;> (repeat' split) <;> simp_all [tot_set_eq _ _ _ _ _ hi, tot_ackWs_srw', tot_ackWs_lgw, tot_ackWs_clall, tot_ackWs_clpre, b2n_true, b2n_false, clearW_idle, clearW_exited, clearW_eq_exited, srW, lgW, clAllW, clPreW, St.bg, onOk, onErr, selNext, afterSetErr, srAllW] <;> (try omega)
-  | cmDone _ i lg hi =>
-    clear h4
-    have l0 := le_tot srW _ _ _ hi
-    have l1 := le_tot lgW _ _ _ hi
-    have l2 := le_tot clAllW _ _ _ hi
-    have l3 := le_tot clPreW _ _ _ hi
-    cases lg <;> (try simp only [St.setDone, St.setBg]) <;> (repeat' split) <;> simp_all [tot_set_eq _ _ _ _ _ hi, tot_ackWs_srw', tot_ackWs_lgw, tot_ackWs_clall, tot_ackWs_clpre, b2n_true, b2n_false, clearW_idle, clearW_exited, clearW_eq_exited, srW, lgW, clAllW, clPreW, St.bg, onOk, onErr, selNext, afterSetErr, srAllW] <;> (try omega)
-  | cmRet _ i ok lg hi =>
-    clear h4
-    have l0 := le_tot srW _ _ _ hi
-    have l1 := le_tot lgW _ _ _ hi
-    have l2 := le_tot clAllW _ _ _ hi
-    have l3 := le_tot clPreW _ _ _ hi
-    cases ok <;> cases lg <;> (try simp only [St.setDone, St.setBg]) <;> (repeat' split) <;> simp_all [tot_set_eq _ _ _ _ _ hi, tot_ackWs_srw', tot_ackWs_lgw, tot_ackWs_clall, tot_ackWs_clpre, b2n_true, b2n_false, clearW_idle, clearW_exited, clearW_eq_exited, srW, lgW, clAllW, clPreW, St.bg, onOk, onErr, selNext, afterSetErr, srAllW] <;> (try omega)
-  | dcLockTr _ i lg hi hl =>
-    clear h4
-    have l0 := le_tot srW _ _ _ hi
-    have l1 := le_tot lgW _ _ _ hi
-    have l2 := le_tot clAllW _ _ _ hi
-    have l3 := le_tot clPreW _ _ _ hi
-    cases lg <;> (try simp only [St.setDone, St.setBg]) <;> (repeat' split) <;> simp_all [tot_set_eq _ _ _ _ _ hi, tot_ackWs_srw', tot_ackWs_lgw, tot_ackWs_clall, tot_ackWs_clpre, b2n_true, b2n_false, clearW_idle, clearW_exited, clearW_eq_exited, srW, lgW, clAllW, clPreW, St.bg, onOk, onErr, selNext, afterSetErr, srAllW] <;> (try omega)
-  | dcBody _ i lg hi =>
-    clear h4
-    have l0 := le_tot srW _ _ _ hi
-    have l1 := le_tot lgW _ _ _ hi
-    have l2 := le_tot clAllW _ _ _ hi
-    have l3 := le_tot clPreW _ _ _ hi
-    cases lg <;> (try simp only [St.setDone, St.setBg]) <;> (repeat' split) <;> simp_all [tot_set_eq _ _ _ _ _ hi, tot_ackWs_srw', tot_ackWs_lgw, tot_ackWs_clall, tot_ackWs_clpre, b2n_true, b2n_false, clearW_idle, clearW_exited, clearW_eq_exited, srW, lgW, clAllW, clPreW, St.bg, onOk, onErr, selNext, afterSetErr, srAllW] <;> (try omega)
-  | crNoOverlap _ i hi =>
-    clear h4
-    have l0 := le_tot srW _ _ _ hi
-    have l1 := le_tot lgW _ _ _ hi
-    have l2 := le_tot clAllW _ _ _ hi
-    have l3 := le_tot clPreW _ _ _ hi
-    (try simp only [St.setDone, St.setBg]) <;> (repeat' split) <;> simp_all [tot_set_eq _ _ _ _ _ hi, tot_ackWs_srw', tot_ackWs_lgw, tot_ackWs_clall, tot_ackWs_clpre, b2n_true, b2n_false, clearW_idle, clearW_exited, clearW_eq_exited, srW, lgW, clAllW, clPreW, St.bg, onOk, onErr, selNext, afterSetErr, srAllW] <;> (try omega)
-  | crOverlap _ i hi =>
-    clear h4
-    have l0 := le_tot srW _ _ _ hi
-    have l1 := le_tot lgW _ _ _ hi
-    have l2 := le_tot clAllW _ _ _ hi
-    have l3 := le_tot clPreW _ _ _ hi
-    (try simp only [St.setDone, St.setBg]) <;> (repeat' split) <;> simp_all [tot_set_eq _ _ _ _ _ hi, tot_ackWs_srw', tot_ackWs_lgw, tot_ackWs_clall, tot_ackWs_clpre, b2n_true, b2n_false, clearW_idle, clearW_exited, clearW_eq_exited, srW, lgW, clAllW, clPreW, St.bg, onOk, onErr, selNext, afterSetErr, srAllW] <;> (try omega)
-  | crNewMemOk _ i hi =>
-    clear h4
-    have l0 := le_tot srW _ _ _ hi
-    have l1 := le_tot lgW _ _ _ hi
-    have l2 := le_tot clAllW _ _ _ hi
-    have l3 := le_tot clPreW _ _ _ hi
-    (try simp only [St.setDone, St.setBg]) <;> (repeat' split) <;> simp_all [tot_set_eq _ _ _ _ _ hi, tot_ackWs_srw', tot_ackWs_lgw, tot_ackWs_clall, tot_ackWs_clpre, b2n_true, b2n_false, clearW_idle, clearW_exited, clearW_eq_exited, srW, lgW, clAllW, clPreW, St.bg, onOk, onErr, selNext, afterSetErr, srAllW] <;> (try omega)
-  | crNewMemFail _ i hi =>
-    clear h4
-    have l0 := le_tot srW _ _ _ hi
-    have l1 := le_tot lgW _ _ _ hi
-    have l2 := le_tot clAllW _ _ _ hi
-    have l3 := le_tot clPreW _ _ _ hi
-    (try simp only [St.setDone, St.setBg]) <;> (repeat' split) <;> simp_all [tot_set_eq _ _ _ _ _ hi, tot_ackWs_srw', tot_ackWs_lgw, tot_ackWs_clall, tot_ackWs_clpre, b2n_true, b2n_false, clearW_idle, clearW_exited, clearW_eq_exited, srW, lgW, clAllW, clPreW, St.bg, onOk, onErr, selNext, afterSetErr, srAllW] <;> (try omega)
-  | crRelM _ i hi =>
-    clear h4
-    have l0 := le_tot srW _ _ _ hi
-    have l1 := le_tot lgW _ _ _ hi
-    have l2 := le_tot clAllW _ _ _ hi
-    have l3 := le_tot clPreW _ _ _ hi
-    (try simp only [St.setDone, St.setBg]) <;> (repeat' split) <;> simp_all [tot_set_eq _ _ _ _ _ hi, tot_ackWs_srw', tot_ackWs_lgw, tot_ackWs_clall, tot_ackWs_clpre, b2n_true, b2n_false, clearW_idle, clearW_exited, clearW_eq_exited, srW, lgW, clAllW, clPreW, St.bg, onOk, onErr, selNext, afterSetErr, srAllW] <;> (try omega)
-  | crRelOk _ i hi =>
-    clear h4
-    have l0 := le_tot srW _ _ _ hi
-    have l1 := le_tot lgW _ _ _ hi
-    have l2 := le_tot clAllW _ _ _ hi
-    have l3 := le_tot clPreW _ _ _ hi
-    (try simp only [St.setDone, St.setBg]) <;> (repeat' split) <;> simp_all [tot_set_eq _ _ _ _ _ hi, tot_ackWs_srw', tot_ackWs_lgw, tot_ackWs_clall, tot_ackWs_clpre, b2n_true, b2n_false, clearW_idle, clearW_exited, clearW_eq_exited, srW, lgW, clAllW, clPreW, St.bg, onOk, onErr, selNext, afterSetErr, srAllW] <;> (try omega)
-  | crRelFail _ i hi =>
-    clear h4
-    have l0 := le_tot srW _ _ _ hi
-    have l1 := le_tot lgW _ _ _ hi
-    have l2 := le_tot clAllW _ _ _ hi
-    have l3 := le_tot clPreW _ _ _ hi
-    (try simp only [St.setDone, St.setBg]) <;> (repeat' split) <;> simp_all [tot_set_eq _ _ _ _ _ hi, tot_ackWs_srw', tot_ackWs_lgw, tot_ackWs_clall, tot_ackWs_clpre, b2n_true, b2n_false, clearW_idle, clearW_exited, clearW_eq_exited, srW, lgW, clAllW, clPreW, St.bg, onOk, onErr, selNext, afterSetErr, srAllW] <;> (try omega)
-  | srSend _ i hi he =>
-    clear h4
-    have l0 := le_tot srW _ _ _ hi
-    have l1 := le_tot lgW _ _ _ hi
-    have l2 := le_tot clAllW _ _ _ hi
-    have l3 := le_tot clPreW _ _ _ hi
-    rcases he with he | he <;> (try simp only [St.setDone, St.setBg]) <;> (repeat' split) <;> simp_all [tot_set_eq _ _ _ _ _ hi, tot_ackWs_srw', tot_ackWs_lgw, tot_ackWs_clall, tot_ackWs_clpre, b2n_true, b2n_false, clearW_idle, clearW_exited, clearW_eq_exited, srW, lgW, clAllW, clPreW, St.bg, onOk, onErr, selNext, afterSetErr, srAllW] <;> (try omega)
-  | srPerErr _ i hi he =>
-    clear h4
-    have l0 := le_tot srW _ _ _ hi
-    have l1 := le_tot lgW _ _ _ hi
-    have l2 := le_tot clAllW _ _ _ hi
-    have l3 := le_tot clPreW _ _ _ hi
-    (try simp only [St.setDone, St.setBg]) <;> (repeat' split) <;> simp_all [tot_set_eq _ _ _ _ _ hi, tot_ackWs_srw', tot_ackWs_lgw, tot_ackWs_clall, tot_ackWs_clpre, b2n_true, b2n_false, clearW_idle, clearW_exited, clearW_eq_exited, srW, lgW, clAllW, clPreW, St.bg, onOk, onErr, selNext, afterSetErr, srAllW] <;> (try omega)
-  | srClosed _ i hi hc =>
-    have l0 := le_tot srW _ _ _ hi
-    have l1 := le_tot lgW _ _ _ hi
-    have l2 := le_tot clAllW _ _ _ hi
-    have l3 := le_tot clPreW _ _ _ hi
-    have ls := le_tot srAllW _ _ _ hi
-    rcases h4 with h4 | ⟨_, h4⟩ <;> (try simp only [St.setDone, St.setBg]) <;> (repeat' split) <;> simp_all [tot_set_eq _ _ _ _ _ hi, tot_ackWs_srw', tot_ackWs_lgw, tot_ackWs_clall, tot_ackWs_clpre, b2n_true, b2n_false, clearW_idle, clearW_exited, clearW_eq_exited, srW, lgW, clAllW, clPreW, St.bg, onOk, onErr, selNext, afterSetErr, srAllW] <;> (try omega)
-  | clCheckTr _ i hi =>
-    clear h4
-    have l0 := le_tot srW _ _ _ hi
-    have l1 := le_tot lgW _ _ _ hi
-    have l2 := le_tot clAllW _ _ _ hi
-    have l3 := le_tot clPreW _ _ _ hi
-    (try simp only [St.setDone, St.setBg]) <;> (repeat' split) <;> simp_all [tot_set_eq _ _ _ _ _ hi, tot_ackWs_srw', tot_ackWs_lgw, tot_ackWs_clall, tot_ackWs_clpre, b2n_true, b2n_false, clearW_idle, clearW_exited, clearW_eq_exited, srW, lgW, clAllW, clPreW, St.bg, onOk, onErr, selNext, afterSetErr, srAllW] <;> (try omega)
-  | clLockTr _ i hi hl =>
-    clear h4
-    have l0 := le_tot srW _ _ _ hi
-    have l1 := le_tot lgW _ _ _ hi
-    have l2 := le_tot clAllW _ _ _ hi
-    have l3 := le_tot clPreW _ _ _ hi
-    (try simp only [St.setDone, St.setBg]) <;> (repeat' split) <;> simp_all [tot_set_eq _ _ _ _ _ hi, tot_ackWs_srw', tot_ackWs_lgw, tot_ackWs_clall, tot_ackWs_clpre, b2n_true, b2n_false, clearW_idle, clearW_exited, clearW_eq_exited, srW, lgW, clAllW, clPreW, St.bg, onOk, onErr, selNext, afterSetErr, srAllW] <;> (try omega)
-  | clBody _ i hi =>
-    clear h4
-    have l0 := le_tot srW _ _ _ hi
-    have l1 := le_tot lgW _ _ _ hi
-    have l2 := le_tot clAllW _ _ _ hi
-    have l3 := le_tot clPreW _ _ _ hi
-    (try simp only [St.setDone, St.setBg]) <;> (repeat' split) <;> simp_all [tot_set_eq _ _ _ _ _ hi, tot_ackWs_srw', tot_ackWs_lgw, tot_ackWs_clall, tot_ackWs_clpre, b2n_true, b2n_false, clearW_idle, clearW_exited, clearW_eq_exited, srW, lgW, clAllW, clPreW, St.bg, onOk, onErr, selNext, afterSetErr, srAllW] <;> (try omega)
-  | clAcq _ i hi ht =>
-    clear h4
-    have l0 := le_tot srW _ _ _ hi
-    have l1 := le_tot lgW _ _ _ hi
-    have l2 := le_tot clAllW _ _ _ hi
-    have l3 := le_tot clPreW _ _ _ hi
-    (try simp only [St.setDone, St.setBg]) <;> (repeat' split) <;> simp_all [tot_set_eq _ _ _ _ _ hi, tot_ackWs_srw', tot_ackWs_lgw, tot_ackWs_clall, tot_ackWs_clpre, b2n_true, b2n_false, clearW_idle, clearW_exited, clearW_eq_exited, srW, lgW, clAllW, clPreW, St.bg, onOk, onErr, selNext, afterSetErr, srAllW] <;> (try omega)
-  | clWait _ i hi hm ht =>
-    clear h4
-    have l0 := le_tot srW _ _ _ hi
-    have l1 := le_tot lgW _ _ _ hi
-    have l2 := le_tot clAllW _ _ _ hi
-    have l3 := le_tot clPreW _ _ _ hi
-    (try simp only [St.setDone, St.setBg]) <;> (repeat' split) <;> simp_all [tot_set_eq _ _ _ _ _ hi, tot_ackWs_srw', tot_ackWs_lgw, tot_ackWs_clall, tot_ackWs_clpre, b2n_true, b2n_false, clearW_idle, clearW_exited, clearW_eq_exited, srW, lgW, clAllW, clPreW, St.bg, onOk, onErr, selNext, afterSetErr, srAllW] <;> (try omega)
-  | ehAcquire _ he ht hn =>
-    clear h4
-    (try simp only [St.setDone, St.setBg]) <;> (repeat' split) <;> simp_all [tot_ackWs_srw', tot_ackWs_lgw, tot_ackWs_clall, tot_ackWs_clpre, b2n_true, b2n_false, clearW_idle, clearW_exited, clearW_eq_exited, srW, lgW, clAllW, clPreW, St.bg, onOk, onErr, selNext, afterSetErr, srAllW] <;> (try omega)
-  | ehExit _ he hc =>
-    clear h4
-    cases he' : s.eh <;> (try simp only [St.setDone, St.setBg]) <;> (repeat' split) <;> simp_all [tot_ackWs_srw', tot_ackWs_lgw, tot_ackWs_clall, tot_ackWs_clpre, b2n_true, b2n_false, clearW_idle, clearW_exited, clearW_eq_exited, srW, lgW, clAllW, clPreW, St.bg, onOk, onErr, selNext, afterSetErr, srAllW] <;> (try omega)
-  | bgExitIdle _ b hb hc =>
-    clear h4
-    cases b <;> (try simp only [St.setDone, St.setBg]) <;> (repeat' split) <;> simp_all [tot_ackWs_srw', tot_ackWs_lgw, tot_ackWs_clall, tot_ackWs_clpre, b2n_true, b2n_false, clearW_idle, clearW_exited, clearW_eq_exited, srW, lgW, clAllW, clPreW, St.bg, onOk, onErr, selNext, afterSetErr, srAllW] <;> (try omega)
-  | bgWorkOk _ b w hb =>
-    clear h4
-    cases b <;> (try simp only [St.setDone, St.setBg]) <;> (repeat' split) <;> simp_all [tot_ackWs_srw', tot_ackWs_lgw, tot_ackWs_clall, tot_ackWs_clpre, b2n_true, b2n_false, clearW_idle, clearW_exited, clearW_eq_exited, srW, lgW, clAllW, clPreW, St.bg, onOk, onErr, selNext, afterSetErr, srAllW] <;> (try omega)
-  | bgWorkFail _ b w hb =>
-    clear h4
-    cases b <;> (try simp only [St.setDone, St.setBg]) <;> (repeat' split) <;> simp_all [tot_ackWs_srw', tot_ackWs_lgw, tot_ackWs_clall, tot_ackWs_clpre, b2n_true, b2n_false, clearW_idle, clearW_exited, clearW_eq_exited, srW, lgW, clAllW, clPreW, St.bg, onOk, onErr, selNext, afterSetErr, srAllW] <;> (try omega)
-  | bgCommitOk _ b w hb =>
-    clear h4
-    cases b <;> (try simp only [St.setDone, St.setBg]) <;> (repeat' split) <;> simp_all [tot_ackWs_srw', tot_ackWs_lgw, tot_ackWs_clall, tot_ackWs_clpre, b2n_true, b2n_false, clearW_idle, clearW_exited, clearW_eq_exited, srW, lgW, clAllW, clPreW, St.bg, onOk, onErr, selNext, afterSetErr, srAllW] <;> (try omega)
-  | bgCommitFail _ b w hb =>
-    clear h4
-    cases b <;> (try simp only [St.setDone, St.setBg]) <;> (repeat' split) <;> simp_all [tot_ackWs_srw', tot_ackWs_lgw, tot_ackWs_clall, tot_ackWs_clpre, b2n_true, b2n_false, clearW_idle, clearW_exited, clearW_eq_exited, srW, lgW, clAllW, clPreW, St.bg, onOk, onErr, selNext, afterSetErr, srAllW] <;> (try omega)
-  | bgSetErr _ b w ok c hb he =>
-    clear h4
-    rcases he with he | he <;> cases b <;> cases ok <;> cases c <;> (try simp only [St.setDone, St.setBg]) <;> (repeat' split) <;> simp_all [tot_ackWs_srw', tot_ackWs_lgw, tot_ackWs_clall, tot_ackWs_clpre, b2n_true, b2n_false, clearW_idle, clearW_exited, clearW_eq_exited, srW, lgW, clAllW, clPreW, St.bg, onOk, onErr, selNext, afterSetErr, srAllW] <;> (try omega)
-  | bgSetErrPer _ b w c hb he =>
-    clear h4
-    cases b <;> cases c <;> (try simp only [St.setDone, St.setBg]) <;> (repeat' split) <;> simp_all [tot_ackWs_srw', tot_ackWs_lgw, tot_ackWs_clall, tot_ackWs_clpre, b2n_true, b2n_false, clearW_idle, clearW_exited, clearW_eq_exited, srW, lgW, clAllW, clPreW, St.bg, onOk, onErr, selNext, afterSetErr, srAllW] <;> (try omega)
-  | bgBackoff _ b w c hb =>
-    clear h4
-    cases b <;> cases c <;> (try simp only [St.setDone, St.setBg]) <;> (repeat' split) <;> simp_all [tot_ackWs_srw', tot_ackWs_lgw, tot_ackWs_clall, tot_ackWs_clpre, b2n_true, b2n_false, clearW_idle, clearW_exited, clearW_eq_exited, srW, lgW, clAllW, clPreW, St.bg, onOk, onErr, selNext, afterSetErr, srAllW] <;> (try omega)
-  | bgLockClk _ b w hb hl =>
-    clear h4
-    cases b <;> (try simp only [St.setDone, St.setBg]) <;> (repeat' split) <;> simp_all [tot_ackWs_srw', tot_ackWs_lgw, tot_ackWs_clall, tot_ackWs_clpre, b2n_true, b2n_false, clearW_idle, clearW_exited, clearW_eq_exited, srW, lgW, clAllW, clPreW, St.bg, onOk, onErr, selNext, afterSetErr, srAllW] <;> (try omega)
-  | bgAck _ b w hb =>
-    clear h4
-    cases b <;> (try simp only [St.setDone, St.setBg]) <;> (repeat' split) <;> simp_all [tot_ackWs_srw', tot_ackWs_lgw, tot_ackWs_clall, tot_ackWs_clpre, b2n_true, b2n_false, clearW_idle, clearW_exited, clearW_eq_exited, srW, lgW, clAllW, clPreW, St.bg, onOk, onErr, selNext, afterSetErr, srAllW] <;> (try omega)
-  | bgExit _ b w ph hb hx =>
-    clear h4
-    cases b <;> cases ph <;> (try simp only [St.setDone, St.setBg]) <;> (repeat' split) <;> simp_all [tot_ackWs_srw', tot_ackWs_lgw, tot_ackWs_clall, tot_ackWs_clpre, b2n_true, b2n_false, clearW_idle, clearW_exited, clearW_eq_exited, srW, lgW, clAllW, clPreW, St.bg, onOk, onErr, selNext, afterSetErr, srAllW] <;> (try omega) <;> (try (rcases hx with hx | hx <;> simp_all))
-
-theorem step_pinvD (s t : St) (f : Bool) (cfg : Cfg) (hfx : Fixed3 cfg)
-    (h4 : cfg.setReadOnlyReleasesOnClose = true ∨ NoSR s) (h : Step cfg f s t) (inv : PInvD s) : PInvD t := by
-  unfold PInvD at *
-  have c3 := b2n_le (s.trOpen && !s.trUser)
-  obtain ⟨f1, f2, f3⟩ := hfx
-  cases h with
-  | startPut _ i hi =>
-    clear h4
-    have l0 := le_tot srW _ _ _ hi
-    have l1 := le_tot lgW _ _ _ hi
-    have l2 := le_tot clAllW _ _ _ hi
-    have l3 := le_tot clPreW _ _ _ hi
-    (try simp only [St.setDone, St.setBg]) <;> (repeat' split) <;> simp_all [tot_set_eq _ _ _ _ _ hi, tot_ackWs_srw', tot_ackWs_lgw, tot_ackWs_clall, tot_ackWs_clpre, b2n_true, b2n_false, clearW_idle, clearW_exited, clearW_eq_exited, srW, lgW, clAllW, clPreW, St.bg, onOk, onErr, selNext, afterSetErr, srAllW] <;> (try omega)
-  | startWrite _ i hi =>
-    clear h4
-    have l0 := le_tot srW _ _ _ hi
-    have l1 := le_tot lgW _ _ _ hi
-    have l2 := le_tot clAllW _ _ _ hi
-    have l3 := le_tot clPreW _ _ _ hi
-    (try simp only [St.setDone, St.setBg]) <;> (repeat' split) <;> simp_all [tot_set_eq _ _ _ _ _ hi, tot_ackWs_srw', tot_ackWs_lgw, tot_ackWs_clall, tot_ackWs_clpre, b2n_true, b2n_false, clearW_idle, clearW_exited, clearW_eq_exited, srW, lgW, clAllW, clPreW, St.bg, onOk, onErr, selNext, afterSetErr, srAllW] <;> (try omega)
-  | startOtx _ i hi =>
-    clear h4
-    have l0 := le_tot srW _ _ _ hi
-    have l1 := le_tot lgW _ _ _ hi
-    have l2 := le_tot clAllW _ _ _ hi
-    have l3 := le_tot clPreW _ _ _ hi
-    (try simp only [St.setDone, St.setBg]) <;> (repeat' split) <;> simp_all [tot_set_eq _ _ _ _ _ hi, tot_ackWs_srw', tot_ackWs_lgw, tot_ackWs_clall, tot_ackWs_clpre, b2n_true, b2n_false, clearW_idle, clearW_exited, clearW_eq_exited, srW, lgW, clAllW, clPreW, St.bg, onOk, onErr, selNext, afterSetErr, srAllW] <;> (try omega)
-  | startCommit _ i hi hu =>
-    clear h4
-    have l0 := le_tot srW _ _ _ hi
-    have l1 := le_tot lgW _ _ _ hi
-    have l2 := le_tot clAllW _ _ _ hi
-    have l3 := le_tot clPreW _ _ _ hi
-    (try simp only [St.setDone, St.setBg]) <;> (repeat' split) <;> simp_all [tot_set_eq _ _ _ _ _ hi, tot_ackWs_srw', tot_ackWs_lgw, tot_ackWs_clall, tot_ackWs_clpre, b2n_true, b2n_false, clearW_idle, clearW_exited, clearW_eq_exited, srW, lgW, clAllW, clPreW, St.bg, onOk, onErr, selNext, afterSetErr, srAllW] <;> (try omega)
-  | startDiscard _ i hi hu =>
-    clear h4
-    have l0 := le_tot srW _ _ _ hi
-    have l1 := le_tot lgW _ _ _ hi
-    have l2 := le_tot clAllW _ _ _ hi
-    have l3 := le_tot clPreW _ _ _ hi
-    (try simp only [St.setDone, St.setBg]) <;> (repeat' split) <;> simp_all [tot_set_eq _ _ _ _ _ hi, tot_ackWs_srw', tot_ackWs_lgw, tot_ackWs_clall, tot_ackWs_clpre, b2n_true, b2n_false, clearW_idle, clearW_exited, clearW_eq_exited, srW, lgW, clAllW, clPreW, St.bg, onOk, onErr, selNext, afterSetErr, srAllW] <;> (try omega)
-  | startCR _ i hi =>
-    clear h4
-    have l0 := le_tot srW _ _ _ hi
-    have l1 := le_tot lgW _ _ _ hi
-    have l2 := le_tot clAllW _ _ _ hi
-    have l3 := le_tot clPreW _ _ _ hi
-    (try simp only [St.setDone, St.setBg]) <;> (repeat' split) <;> simp_all [tot_set_eq _ _ _ _ _ hi, tot_ackWs_srw', tot_ackWs_lgw, tot_ackWs_clall, tot_ackWs_clpre, b2n_true, b2n_false, clearW_idle, clearW_exited, clearW_eq_exited, srW, lgW, clAllW, clPreW, St.bg, onOk, onErr, selNext, afterSetErr, srAllW] <;> (try omega)
-  | startSR _ i hi ha =>
-    clear h4
-    have l0 := le_tot srW _ _ _ hi
-    have l1 := le_tot lgW _ _ _ hi
-    have l2 := le_tot clAllW _ _ _ hi
-    have l3 := le_tot clPreW _ _ _ hi
-    (try simp only [St.setDone, St.setBg]) <;> (repeat' split) <;> simp_all [tot_set_eq _ _ _ _ _ hi, tot_ackWs_srw', tot_ackWs_lgw, tot_ackWs_clall, tot_ackWs_clpre, b2n_true, b2n_false, clearW_idle, clearW_exited, clearW_eq_exited, srW, lgW, clAllW, clPreW, St.bg, onOk, onErr, selNext, afterSetErr, srAllW] <;> (try omega)
-  | startClose _ i hi =>
-    clear h4
-    have l0 := le_tot srW _ _ _ hi
-    have l1 := le_tot lgW _ _ _ hi
-    have l2 := le_tot clAllW _ _ _ hi
-    have l3 := le_tot clPreW _ _ _ hi
-    (try simp only [St.setDone, St.setBg]) <;> (repeat' split) <;> simp_all [tot_set_eq _ _ _ _ _ hi, tot_ackWs_srw', tot_ackWs_lgw, tot_ackWs_clall, tot_ackWs_clpre, b2n_true, b2n_false, clearW_idle, clearW_exited, clearW_eq_exited, srW, lgW, clAllW, clPreW, St.bg, onOk, onErr, selNext, afterSetErr, srAllW] <;> (try omega)
-  | selTok _ i p q hi hq ht =>
-    clear h4
-    have l0 := le_tot srW _ _ _ hi
-    have l1 := le_tot lgW _ _ _ hi
-    have l2 := le_tot clAllW _ _ _ hi
-    have l3 := le_tot clPreW _ _ _ hi
-    cases p <;> simp only [selNext] at hq <;> (try contradiction) <;> cases hq <;> simp_all [tot_set_eq _ _ _ _ _ hi, tot_ackWs_srw', tot_ackWs_lgw, tot_ackWs_clall, tot_ackWs_clpre, b2n_true, b2n_false, clearW_idle, clearW_exited, clearW_eq_exited, srW, lgW, clAllW, clPreW, St.bg, onOk, onErr, selNext, afterSetErr, srAllW] <;> (try omega)
-  | selPerErr _ i p q hi hq he =>
-    clear h4
-    have l0 := le_tot srW _ _ _ hi
-    have l1 := le_tot lgW _ _ _ hi
-    have l2 := le_tot clAllW _ _ _ hi
-    have l3 := le_tot clPreW _ _ _ hi
-    cases p <;> simp only [selNext] at hq <;> (try contradiction) <;> cases hq <;> simp_all [tot_set_eq _ _ _ _ _ hi, tot_ackWs_srw', tot_ackWs_lgw, tot_ackWs_clall, tot_ackWs_clpre, b2n_true, b2n_false, clearW_idle, clearW_exited, clearW_eq_exited, srW, lgW, clAllW, clPreW, St.bg, onOk, onErr, selNext, afterSetErr, srAllW] <;> (try omega)
-  | selClosed _ i p q hi hq hc =>
-    clear h4
-    have l0 := le_tot srW _ _ _ hi
-    have l1 := le_tot lgW _ _ _ hi
-    have l2 := le_tot clAllW _ _ _ hi
-    have l3 := le_tot clPreW _ _ _ hi
-    cases p <;> simp only [selNext] at hq <;> (try contradiction) <;> cases hq <;> simp_all [tot_set_eq _ _ _ _ _ hi, tot_ackWs_srw', tot_ackWs_lgw, tot_ackWs_clall, tot_ackWs_clpre, b2n_true, b2n_false, clearW_idle, clearW_exited, clearW_eq_exited, srW, lgW, clAllW, clPreW, St.bg, onOk, onErr, selNext, afterSetErr, srAllW] <;> (try omega)
-  | putNoWait _ i hi =>
-    clear h4
-    have l0 := le_tot srW _ _ _ hi
-    have l1 := le_tot lgW _ _ _ hi
-    have l2 := le_tot clAllW _ _ _ hi
-    have l3 := le_tot clPreW _ _ _ hi
-    (try simp only [St.setDone, St.setBg]) <;> (repeat' split) <;> simp_all [tot_set_eq _ _ _ _ _ hi, tot_ackWs_srw', tot_ackWs_lgw, tot_ackWs_clall, tot_ackWs_clpre, b2n_true, b2n_false, clearW_idle, clearW_exited, clearW_eq_exited, srW, lgW, clAllW, clPreW, St.bg, onOk, onErr, selNext, afterSetErr, srAllW] <;> (try omega)
-  | putWait _ i b hi =>
-    clear h4
-    have l0 := le_tot srW _ _ _ hi
-    have l1 := le_tot lgW _ _ _ hi
-    have l2 := le_tot clAllW _ _ _ hi
-    have l3 := le_tot clPreW _ _ _ hi
-    cases b <;> (try simp only [St.setDone, St.setBg]) <;> (repeat' split) <;> simp_all [tot_set_eq _ _ _ _ _ hi, tot_ackWs_srw', tot_ackWs_lgw, tot_ackWs_clall, tot_ackWs_clpre, b2n_true, b2n_false, clearW_idle, clearW_exited, clearW_eq_exited, srW, lgW, clAllW, clPreW, St.bg, onOk, onErr, selNext, afterSetErr, srAllW] <;> (try omega)
-  | putJournalOk _ i hi =>
-    clear h4
-    have l0 := le_tot srW _ _ _ hi
-    have l1 := le_tot lgW _ _ _ hi
-    have l2 := le_tot clAllW _ _ _ hi
-    have l3 := le_tot clPreW _ _ _ hi
-    (try simp only [St.setDone, St.setBg]) <;> (repeat' split) <;> simp_all [tot_set_eq _ _ _ _ _ hi, tot_ackWs_srw', tot_ackWs_lgw, tot_ackWs_clall, tot_ackWs_clpre, b2n_true, b2n_false, clearW_idle, clearW_exited, clearW_eq_exited, srW, lgW, clAllW, clPreW, St.bg, onOk, onErr, selNext, afterSetErr, srAllW] <;> (try omega)
-  | putJournalFail _ i hi =>
-    clear h4
-    have l0 := le_tot srW _ _ _ hi
-    have l1 := le_tot lgW _ _ _ hi
-    have l2 := le_tot clAllW _ _ _ hi
-    have l3 := le_tot clPreW _ _ _ hi
-    (try simp only [St.setDone, St.setBg]) <;> (repeat' split) <;> simp_all [tot_set_eq _ _ _ _ _ hi, tot_ackWs_srw', tot_ackWs_lgw, tot_ackWs_clall, tot_ackWs_clpre, b2n_true, b2n_false, clearW_idle, clearW_exited, clearW_eq_exited, srW, lgW, clAllW, clPreW, St.bg, onOk, onErr, selNext, afterSetErr, srAllW] <;> (try omega)
-  | putUnlock _ i r hi =>
-    clear h4
-    have l0 := le_tot srW _ _ _ hi
-    have l1 := le_tot lgW _ _ _ hi
-    have l2 := le_tot clAllW _ _ _ hi
-    have l3 := le_tot clPreW _ _ _ hi
-    cases r <;> (try simp only [St.setDone, St.setBg]) <;> (repeat' split) <;> simp_all [tot_set_eq _ _ _ _ _ hi, tot_ackWs_srw', tot_ackWs_lgw, tot_ackWs_clall, tot_ackWs_clpre, b2n_true, b2n_false, clearW_idle, clearW_exited, clearW_eq_exited, srW, lgW, clAllW, clPreW, St.bg, onOk, onErr, selNext, afterSetErr, srAllW] <;> (try omega)
-  | cwSendGo _ i b site lg hi hb =>
-    clear h4
-    have l0 := le_tot srW _ _ _ hi
-    have l1 := le_tot lgW _ _ _ hi
-    have l2 := le_tot clAllW _ _ _ hi
-    have l3 := le_tot clPreW _ _ _ hi
-    cases site <;> cases b <;> cases lg <;> (try simp only [St.setDone, St.setBg]) <;> (repeat' split) <;> simp_all [tot_set_eq _ _ _ _ _ hi, tot_ackWs_srw', tot_ackWs_lgw, tot_ackWs_clall, tot_ackWs_clpre, b2n_true, b2n_false, clearW_idle, clearW_exited, clearW_eq_exited, srW, lgW, clAllW, clPreW, St.bg, onOk, onErr, selNext, afterSetErr, srAllW] <;> (try omega)
-  | cwSendErr _ i b site lg hi he =>
-    clear h4
-    have l0 := le_tot srW _ _ _ hi
-    have l1 := le_tot lgW _ _ _ hi
-    have l2 := le_tot clAllW _ _ _ hi
-    have l3 := le_tot clPreW _ _ _ hi
-    cases site <;> cases b <;> cases lg <;> (try simp only [St.setDone, St.setBg]) <;> (repeat' split) <;> simp_all [tot_set_eq _ _ _ _ _ hi, tot_ackWs_srw', tot_ackWs_lgw, tot_ackWs_clall, tot_ackWs_clpre, b2n_true, b2n_false, clearW_idle, clearW_exited, clearW_eq_exited, srW, lgW, clAllW, clPreW, St.bg, onOk, onErr, selNext, afterSetErr, srAllW] <;> (try omega)
-  | cwAckErr _ i b site lg hi he =>
-    clear h4
-    have l0 := le_tot srW _ _ _ hi
-    have l1 := le_tot lgW _ _ _ hi
-    have l2 := le_tot clAllW _ _ _ hi
-    have l3 := le_tot clPreW _ _ _ hi
-    cases site <;> cases b <;> cases lg <;> (try simp only [St.setDone, St.setBg]) <;> (repeat' split) <;> simp_all [tot_set_eq _ _ _ _ _ hi, tot_ackWs_srw', tot_ackWs_lgw, tot_ackWs_clall, tot_ackWs_clpre, b2n_true, b2n_false, clearW_idle, clearW_exited, clearW_eq_exited, srW, lgW, clAllW, clPreW, St.bg, onOk, onErr, selNext, afterSetErr, srAllW] <;> (try omega)
-  | otxRotate _ i lg hi =>
-    clear h4
-    have l0 := le_tot srW _ _ _ hi
-    have l1 := le_tot lgW _ _ _ hi
-    have l2 := le_tot clAllW _ _ _ hi
-    have l3 := le_tot clPreW _ _ _ hi
-    cases lg <;> (try simp only [St.setDone, St.setBg]) <;> (repeat' split) <;> simp_all [tot_set_eq _ _ _ _ _ hi, tot_ackWs_srw', tot_ackWs_lgw, tot_ackWs_clall, tot_ackWs_clpre, b2n_true, b2n_false, clearW_idle, clearW_exited, clearW_eq_exited, srW, lgW, clAllW, clPreW, St.bg, onOk, onErr, selNext, afterSetErr, srAllW] <;> (try omega)
-  | otxNoRotate _ i lg hi =>
-    clear h4
-    have l0 := le_tot srW _ _ _ hi
-    have l1 := le_tot lgW _ _ _ hi
-    have l2 := le_tot clAllW _ _ _ hi
-    have l3 := le_tot clPreW _ _ _ hi
-    cases lg <;> (try simp only [St.setDone, St.setBg]) <;> (repeat' split) <;> simp_all [tot_set_eq _ _ _ _ _ hi, tot_ackWs_srw', tot_ackWs_lgw, tot_ackWs_clall, tot_ackWs_clpre, b2n_true, b2n_false, clearW_idle, clearW_exited, clearW_eq_exited, srW, lgW, clAllW, clPreW, St.bg, onOk, onErr, selNext, afterSetErr, srAllW] <;> (try omega)
-  | otxNewMemOk _ i lg hi =>
-    clear h4
-    have l0 := le_tot srW _ _ _ hi
-    have l1 := le_tot lgW _ _ _ hi
-    have l2 := le_tot clAllW _ _ _ hi
-    have l3 := le_tot clPreW _ _ _ hi
-    cases lg <;> (try simp only [St.setDone, St.setBg]) <;> (repeat' split) <;> simp_all [tot_set_eq _ _ _ _ _ hi, tot_ackWs_srw', tot_ackWs_lgw, tot_ackWs_clall, tot_ackWs_clpre, b2n_true, b2n_false, clearW_idle, clearW_exited, clearW_eq_exited, srW, lgW, clAllW, clPreW, St.bg, onOk, onErr, selNext, afterSetErr, srAllW] <;> (try omega)
-  | otxNewMemFail _ i lg hi =>
-    clear h4
-    have l0 := le_tot srW _ _ _ hi
-    have l1 := le_tot lgW _ _ _ hi
-    have l2 := le_tot clAllW _ _ _ hi
-    have l3 := le_tot clPreW _ _ _ hi
-    cases lg <;> (try simp only [St.setDone, St.setBg]) <;> (repeat' split) <;> simp_all [tot_set_eq _ _ _ _ _ hi, tot_ackWs_srw', tot_ackWs_lgw, tot_ackWs_clall, tot_ackWs_clpre, b2n_true, b2n_false, clearW_idle, clearW_exited, clearW_eq_exited, srW, lgW, clAllW, clPreW, St.bg, onOk, onErr, selNext, afterSetErr, srAllW] <;> (try omega)
-  | otxNoWaitComp _ i lg hi =>
-    clear h4
-    have l0 := le_tot srW _ _ _ hi
-    have l1 := le_tot lgW _ _ _ hi
-    have l2 := le_tot clAllW _ _ _ hi
-    have l3 := le_tot clPreW _ _ _ hi
-    cases lg <;> (try simp only [St.setDone, St.setBg]) <;> (repeat' split) <;> simp_all [tot_set_eq _ _ _ _ _ hi, tot_ackWs_srw', tot_ackWs_lgw, tot_ackWs_clall, tot_ackWs_clpre, b2n_true, b2n_false, clearW_idle, clearW_exited, clearW_eq_exited, srW, lgW, clAllW, clPreW, St.bg, onOk, onErr, selNext, afterSetErr, srAllW] <;> (try omega)
-  | otxWaitComp _ i lg hi =>
-    clear h4
-    have l0 := le_tot srW _ _ _ hi
-    have l1 := le_tot lgW _ _ _ hi
-    have l2 := le_tot clAllW _ _ _ hi
-    have l3 := le_tot clPreW _ _ _ hi
-    cases lg <;> (try simp only [St.setDone, St.setBg]) <;> (repeat' split) <;> simp_all [tot_set_eq _ _ _ _ _ hi, tot_ackWs_srw', tot_ackWs_lgw, tot_ackWs_clall, tot_ackWs_clpre, b2n_true, b2n_false, clearW_idle, clearW_exited, clearW_eq_exited, srW, lgW, clAllW, clPreW, St.bg, onOk, onErr, selNext, afterSetErr, srAllW] <;> (try omega)
-  | otxFail _ i lg hi =>
-    clear h4
-    have l0 := le_tot srW _ _ _ hi
-    have l1 := le_tot lgW _ _ _ hi
-    have l2 := le_tot clAllW _ _ _ hi
-    have l3 := le_tot clPreW _ _ _ hi
-    cases lg <;> (try simp only [St.setDone, St.setBg]) <;> (repeat' split) <;> simp_all [tot_set_eq _ _ _ _ _ hi, tot_ackWs_srw', tot_ackWs_lgw, tot_ackWs_clall, tot_ackWs_clpre, b2n_true, b2n_false, clearW_idle, clearW_exited, clearW_eq_exited, srW, lgW, clAllW, clPreW, St.bg, onOk, onErr, selNext, afterSetErr, srAllW] <;> (try omega)
-  | otxRel _ i lg hi =>
-    clear h4
-    have l0 := le_tot srW _ _ _ hi
-    have l1 := le_tot lgW _ _ _ hi
-    have l2 := le_tot clAllW _ _ _ hi
-    have l3 := le_tot clPreW _ _ _ hi
-    cases lg <;> (try simp only [St.setDone, St.setBg]) <;> (repeat' split) <;> simp_all [tot_set_eq _ _ _ _ _ hi, tot_ackWs_srw', tot_ackWs_lgw, tot_ackWs_clall, tot_ackWs_clpre, b2n_true, b2n_false, clearW_idle, clearW_exited, clearW_eq_exited, srW, lgW, clAllW, clPreW, St.bg, onOk, onErr, selNext, afterSetErr, srAllW] <;> (try omega)
-  | otxDone _ i lg hi =>
-    clear h4
-    have l0 := le_tot srW _ _ _ hi
-    have l1 := le_tot lgW _ _ _ hi
-    have l2 := le_tot clAllW _ _ _ hi
-    have l3 := le_tot clPreW _ _ _ hi
-    cases lg <;> (try simp only [St.setDone, St.setBg]) <;> (repeat' split) <;> simp_all [tot_set_eq _ _ _ _ _ hi, tot_ackWs_srw', tot_ackWs_lgw, tot_ackWs_clall, tot_ackWs_clpre, b2n_true, b2n_false, clearW_idle, clearW_exited, clearW_eq_exited, srW, lgW, clAllW, clPreW, St.bg, onOk, onErr, selNext, afterSetErr, srAllW] <;> (try omega)
-  | lgWriteOk _ i hi =>
-    clear h4
-    have l0 := le_tot srW _ _ _ hi
-    have l1 := le_tot lgW _ _ _ hi
-    have l2 := le_tot clAllW _ _ _ hi
-    have l3 := le_tot clPreW _ _ _ hi
-    (try simp only [St.setDone, St.setBg]) <;> (repeat' split) <;> simp_all [tot_set_eq _ _ _ _ _ hi, tot_ackWs_srw', tot_ackWs_lgw, tot_ackWs_clall, tot_ackWs_clpre, b2n_true, b2n_false, clearW_idle, clearW_exited, clearW_eq_exited, srW, lgW, clAllW, clPreW, St.bg, onOk, onErr, selNext, afterSetErr, srAllW] <;> (try omega)
-  | lgWriteFail _ i hi =>
-    clear h4
-    have l0 := le_tot srW _ _ _ hi
-    have l1 := le_tot lgW _ _ _ hi
-    have l2 := le_tot clAllW _ _ _ hi
-    have l3 := le_tot clPreW _ _ _ hi
-    (try simp only [St.setDone, St.setBg]) <;> (repeat' split) <;> simp_all [tot_set_eq _ _ _ _ _ hi, tot_ackWs_srw', tot_ackWs_lgw, tot_ackWs_clall, tot_ackWs_clpre, b2n_true, b2n_false, clearW_idle, clearW_exited, clearW_eq_exited, srW, lgW, clAllW, clPreW, St.bg, onOk, onErr, selNext, afterSetErr, srAllW] <;> (try omega)
-  | cmLockTr _ i lg hi hl =>
-    clear h4
-    have l0 := le_tot srW _ _ _ hi
-    have l1 := le_tot lgW _ _ _ hi
-    have l2 := le_tot clAllW _ _ _ hi
-    have l3 := le_tot clPreW _ _ _ hi
-    cases lg <;> (try simp only [St.setDone, St.setBg]) <;> (repeat' split) <;> simp_all [tot_set_eq _ _ _ _ _ hi, tot_ackWs_srw', tot_ackWs_lgw, tot_ackWs_clall, tot_ackWs_clpre, b2n_true, b2n_false, clearW_idle, clearW_exited, clearW_eq_exited, srW, lgW, clAllW, clPreW, St.bg, onOk, onErr, selNext, afterSetErr, srAllW] <;> (try omega)
-  | cmFlushOk _ i lg hi =>
-    clear h4
-    have l0 := le_tot srW _ _ _ hi
-    have l1 := le_tot lgW _ _ _ hi
-    have l2 := le_tot clAllW _ _ _ hi
-    have l3 := le_tot clPreW _ _ _ hi
-    cases lg <;> (try simp only [St.setDone, St.setBg]) <;> (repeat' split) <;> simp_all [tot_set_eq _ _ _ _ _ hi, tot_ackWs_srw', tot_ackWs_lgw, tot_ackWs_clall, tot_ackWs_clpre, b2n_true, b2n_false, clearW_idle, clearW_exited, clearW_eq_exited, srW, lgW, clAllW, clPreW, St.bg, onOk, onErr, selNext, afterSetErr, srAllW] <;> (try omega)
-  | cmFlushEmpty _ i lg hi =>
-    clear h4
-    have l0 := le_tot srW _ _ _ hi
-    have l1 := le_tot lgW _ _ _ hi
-    have l2 := le_tot clAllW _ _ _ hi
-    have l3 := le_tot clPreW _ _ _ hi
-    cases lg <;> (try simp only [St.setDone, St.setBg]) <;> (repeat' split) <;> simp_all [tot_set_eq _ _ _ _ _ hi, tot_ackWs_srw', tot_ackWs_lgw, tot_ackWs_clall, tot_ackWs_clpre, b2n_true, b2n_false, clearW_idle, clearW_exited, clearW_eq_exited, srW, lgW, clAllW, clPreW, St.bg, onOk, onErr, selNext, afterSetErr, srAllW] <;> (try omega)
-  | cmFlushFail _ i lg hi =>
-    clear h4
-    have l0 := le_tot srW _ _ _ hi
-    have l1 := le_tot lgW _ _ _ hi
-    have l2 := le_tot clAllW _ _ _ hi
-    have l3 := le_tot clPreW _ _ _ hi
-    cases lg <;> (try simp only [St.setDone, St.setBg]) <;> (repeat' split) <;> simp_all [tot_set_eq _ _ _ _ _ hi, tot_ackWs_srw', tot_ackWs_lgw, tot_ackWs_clall, tot_ackWs_clpre, b2n_true, b2n_false, clearW_idle, clearW_exited, clearW_eq_exited, srW, lgW, clAllW, clPreW, St.bg, onOk, onErr, selNext, afterSetErr, srAllW] <;> (try omega)
-  | cmLockClk _ i lg hi hl =>
-    clear h4
-    have l0 := le_tot srW _ _ _ hi
-    have l1 := le_tot lgW _ _ _ hi
-    have l2 := le_tot clAllW _ _ _ hi
-    have l3 := le_tot clPreW _ _ _ hi
-    cases lg <;> (try simp only [St.setDone, St.setBg]) <;> (repeat' split) <;> simp_all [tot_set_eq _ _ _ _ _ hi, tot_ackWs_srw', tot_ackWs_lgw, tot_ackWs_clall, tot_ackWs_clpre, b2n_true, b2n_false, clearW_idle, clearW_exited, clearW_eq_exited, srW, lgW, clAllW, clPreW, St.bg, onOk, onErr, selNext, afterSetErr, srAllW] <;> (try omega)
-  | cmTryOk _ i k lg hi =>
-    clear h4
-    have l0 := le_tot srW _ _ _ hi
-    have l1 := le_tot lgW _ _ _ hi
-    have l2 := le_tot clAllW _ _ _ hi
-    have l3 := le_tot clPreW _ _ _ hi
-    cases lg <;> (try simp only [St.setDone, St.setBg]) <;> (repeat' split) <;> simp_all [tot_set_eq _ _ _ _ _ hi, tot_ackWs_srw', tot_ackWs_lgw, tot_ackWs_clall, tot_ackWs_clpre, b2n_true, b2n_false, clearW_idle, clearW_exited, clearW_eq_exited, srW, lgW, clAllW, clPreW, St.bg, onOk, onErr, selNext, afterSetErr, srAllW] <;> (try omega)
-  | cmTryFail _ i k lg hi =>
-    clear h4
-    have l0 := le_tot srW _ _ _ hi
-    have l1 := le_tot lgW _ _ _ hi
-    have l2 := le_tot clAllW _ _ _ hi
-    have l3 := le_tot clPreW _ _ _ hi
-    cases lg <;> (try simp only [St.setDone, St.setBg]) <;> (repeat' split) <;> simp_all [tot_set_eq _ _ _ _ _ hi, tot_ackWs_srw', tot_ackWs_lgw, tot_ackWs_clall, tot_ackWs_clpre, b2n_true, b2n_false, clearW_idle, clearW_exited, clearW_eq_exited, srW, lgW, clAllW, clPreW, St.bg, onOk, onErr, selNext, afterSetErr, srAllW] <;> (try omega)
-  | cmSleepTimer _ i k lg hi =>
-    clear h4
-    have l0 := le_tot srW _ _ _ hi
-    have l1 := le_tot lgW _ _ _ hi
-    have l2 := le_tot clAllW _ _ _ hi
-    have l3 := le_tot clPreW _ _ _ hi
-    cases lg <;> (try simp only [St.setDone, St.setBg]) <;> (repeat' split) <;> simp_all [tot_set_eq _ _ _ _ _ hi, tot_ackWs_srw', tot_ackWs_lgw, tot_ackWs_clall, tot_ackWs_clpre, b2n_true, b2n_false, clearW_idle, clearW_exited, clearW_eq_exited, srW, lgW, clAllW, clPreW, St.bg, onOk, onErr, selNext, afterSetErr, srAllW] <;> (try omega)
-  | cmSleepClosed _ i k lg hi hc =>
-    clear h4
-    have l0 := le_tot srW _ _ _ hi
-    have l1 := le_tot lgW _ _ _ hi
-    have l2 := le_tot clAllW _ _ _ hi
-    have l3 := le_tot clPreW _ _ _ hi
-    cases lg <;> (try simp only [St.setDone, St.setBg]) <;> (repeat' split) <;> simp_all [tot_set_eq _ _ _ _ _ hi, tot_ackWs_srw', tot_ackWs_lgw, tot_ackWs_clall, tot_ackWs_clpre, b2n_true, b2n_false, clearW_idle, clearW_exited, clearW_eq_exited, srW, lgW, clAllW, clPreW, St.bg, onOk, onErr, selNext, afterSetErr, srAllW] <;> (try omega)
-  | cmFail3 _ i lg hi =>
-    clear h4
-    have l0 := le_tot srW _ _ _ hi
-    have l1 := le_tot lgW _ _ _ hi
-    have l2 := le_tot clAllW _ _ _ hi
-    have l3 := le_tot clPreW _ _ _ hi
-    cases lg <;> (try simp only [St.setDone, St.setBg]) <;> (repeat' split) <;> simp_all [tot_set_eq _ _ _ _ _ hi, tot_ackWs_srw', tot_ackWs_lgw, tot_ackWs_clall, tot_ackWs_clpre, b2n_true, b2n_false, clearW_idle, clearW_exited, clearW_eq_exited, srW, lgW, clAllW, clPreW, St.bg, onOk, onErr, selNext, afterSetErr, srAllW] <;> (try omega)
-  | cmAfterOk _ i lg hi =>
-    clear h4
-    have l0 := le_tot srW _ _ _ hi
-    have l1 := le_tot lgW _ _ _ hi
-    have l2 := le_tot clAllW _ _ _ hi
-    have l3 := le_tot clPreW _ _ _ hi
-    cases lg <;> (try simp only [St.setDone, St.setBg]) <;> (repeat' split) <;> simp_all [tot_set_eq _ _ _ _ _ hi, tot_ackWs_srw', tot_ackWs_lgw, tot_ackWs_clall, tot_ackWs_clpre, b2n_true, b2n_false, clearW_idle, clearW_exited, clearW_eq_exited, srW, lgW, clAllW, clPreW, St.bg, onOk, onErr, selNext, afterSetErr, srAllW] <;> (try omega)
-  | cmNoWaitComp _ i lg hi =>
-    clear h4
-    have l0 := le_tot srW _ _ _ hi
-    have l1 := le_tot lgW _ _ _ hi
-    have l2 := le_tot clAllW _ _ _ hi
-    have l3 := le_tot clPreW _ _ _ hi
-    cases lg <;> (try simp only [St.setDone, St.setBg]) <;> (repeat' split) <;> simp_all [tot_set_eq _ _ _ _ _ hi, tot_ackWs_srw', tot_ackWs_lgw, tot_ackWs_clall, tot_ackWs_clpre, b2n_true, b2n_false, clearW_idle, clearW_exited, clearW_eq_exited, srW, lgW, clAllW, clPreW, St.bg, onOk, onErr, selNext, afterSetErr, srAllW] <;> (try omega)
-  | cmWaitComp _ i lg hi =>
-    clear h4
-    have l0 := le_tot srW _ _ _ hi
-    have l1 := le_tot lgW _ _ _ hi
-    have l2 := le_tot clAllW _ _ _ hi
-    have l3 := le_tot clPreW _ _ _ hi
-    cases lg <;> (try simp only [St.setDone, St.setBg]) <;> (repeat' split) <;> simp_all [tot_set_eq _ _ _ _ _ hi, tot_ackWs_srw', tot_ackWs_lgw, tot_ackWs_clall, tot_ackWs_clpre, b2n_true, b2n_false, clearW_idle, clearW_exited, clearW_eq_exited, srW, lgW, clAllW, clPreW, St.bg, onOk, onErr, selNext, afterSetErr, srAllW] <;> (try omega)
-  | cmDone _ i lg hi =>
-    clear h4
-    have l0 := le_tot srW _ _ _ hi
-    have l1 := le_tot lgW _ _ _ hi
-    have l2 := le_tot clAllW _ _ _ hi
-    have l3 := le_tot clPreW _ _ _ hi
-    cases lg <;> (try simp only [St.setDone, St.setBg]) <;> (repeat' split) <;> simp_all [tot_set_eq _ _ _ _ _ hi, tot_ackWs_srw', tot_ackWs_lgw, tot_ackWs_clall, tot_ackWs_clpre, b2n_true, b2n_false, clearW_idle, clearW_exited, clearW_eq_exited, srW, lgW, clAllW, clPreW, St.bg, onOk, onErr, selNext, afterSetErr, srAllW] <;> (try omega)
-  | cmRet _ i ok lg hi =>
-    clear h4
-    have l0 := le_tot srW _ _ _ hi
-    have l1 := le_tot lgW _ _ _ hi
-    have l2 := le_tot clAllW _ _ _ hi
-    have l3 := le_tot clPreW _ _ _ hi
-    cases ok <;> cases lg <;> (try simp only [St.setDone, St.setBg]) <;> (repeat' split) <;> simp_all [tot_set_eq _ _ _ _ _ hi, tot_ackWs_srw', tot_ackWs_lgw, tot_ackWs_clall, tot_ackWs_clpre, b2n_true, b2n_false, clearW_idle, clearW_exited, clearW_eq_exited, srW, lgW, clAllW, clPreW, St.bg, onOk, onErr, selNext, afterSetErr, srAllW] <;> (try omega)
-  | dcLockTr _ i lg hi hl =>
-    clear h4
-    have l0 := le_tot srW _ _ _ hi
-    have l1 := le_tot lgW _ _ _ hi
-    have l2 := le_tot clAllW _ _ _ hi
-    have l3 := le_tot clPreW _ _ _ hi
-    cases lg <;> (try simp only [St.setDone, St.setBg]) <;> (repeat' split) <;> simp_all [tot_set_eq _ _ _ _ _ hi, tot_ackWs_srw', tot_ackWs_lgw, tot_ackWs_clall, tot_ackWs_clpre, b2n_true, b2n_false, clearW_idle, clearW_exited, clearW_eq_exited, srW, lgW, clAllW, clPreW, St.bg, onOk, onErr, selNext, afterSetErr, srAllW] <;> (try omega)
-  | dcBody _ i lg hi =>
-    clear h4
-    have l0 := le_tot srW _ _ _ hi
-    have l1 := le_tot lgW _ _ _ hi
-    have l2 := le_tot clAllW _ _ _ hi
-    have l3 := le_tot clPreW _ _ _ hi
-    cases lg <;> (try simp only [St.setDone, St.setBg]) <;> (repeat' split) <;> simp_all [tot_set_eq _ _ _ _ _ hi, tot_ackWs_srw', tot_ackWs_lgw, tot_ackWs_clall, tot_ackWs_clpre, b2n_true, b2n_false, clearW_idle, clearW_exited, clearW_eq_exited, srW, lgW, clAllW, clPreW, St.bg, onOk, onErr, selNext, afterSetErr, srAllW] <;> (try omega)
-  | crNoOverlap _ i hi =>
-    clear h4
-    have l0 := le_tot srW _ _ _ hi
-    have l1 := le_tot lgW _ _ _ hi
-    have l2 := le_tot clAllW _ _ _ hi
-    have l3 := le_tot clPreW _ _ _ hi
-    (try simp only [St.setDone, St.setBg]) <;> (repeat' split) <;> simp_all [tot_set_eq _ _ _ _ _ hi, tot_ackWs_srw', tot_ackWs_lgw, tot_ackWs_clall, tot_ackWs_clpre, b2n_true, b2n_false, clearW_idle, clearW_exited, clearW_eq_exited, srW, lgW, clAllW, clPreW, St.bg, onOk, onErr, selNext, afterSetErr, srAllW] <;> (try omega)
-  | crOverlap _ i hi =>
-    clear h4
-    have l0 := le_tot srW _ _ _ hi
-    have l1 := le_tot lgW _ _ _ hi
-    have l2 := le_tot clAllW _ _ _ hi
-    have l3 := le_tot clPreW _ _ _ hi
-    (try simp only [St.setDone, St.setBg]) <;> (repeat' split) <;> simp_all [tot_set_eq _ _ _ _ _ hi, tot_ackWs_srw', tot_ackWs_lgw, tot_ackWs_clall, tot_ackWs_clpre, b2n_true, b2n_false, clearW_idle, clearW_exited, clearW_eq_exited, srW, lgW, clAllW, clPreW, St.bg, onOk, onErr, selNext, afterSetErr, srAllW] <;> (try omega)
-  | crNewMemOk _ i hi =>
-    clear h4
-    have l0 := le_tot srW _ _ _ hi
-    have l1 := le_tot lgW _ _ _ hi
-    have l2 := le_tot clAllW _ _ _ hi
-    have l3 := le_tot clPreW _ _ _ hi
-    (try simp only [St.setDone, St.setBg]) <;> (repeat' split) <;> simp_all [tot_set_eq _ _ _ _ _ hi, tot_ackWs_srw', tot_ackWs_lgw, tot_ackWs_clall, tot_ackWs_clpre, b2n_true, b2n_false, clearW_idle, clearW_exited, clearW_eq_exited, srW, lgW, clAllW, clPreW, St.bg, onOk, onErr, selNext, afterSetErr, srAllW] <;> (try omega)
-  | crNewMemFail _ i hi =>
-    clear h4
-    have l0 := le_tot srW _ _ _ hi
-    have l1 := le_tot lgW _ _ _ hi
-    have l2 := le_tot clAllW _ _ _ hi
-    have l3 := le_tot clPreW _ _ _ hi
-    (try simp only [St.setDone, St.setBg]) <;> (repeat' split) <;> simp_all [tot_set_eq _ _ _ _ _ hi, tot_ackWs_srw', tot_ackWs_lgw, tot_ackWs_clall, tot_ackWs_clpre, b2n_true, b2n_false, clearW_idle, clearW_exited, clearW_eq_exited, srW, lgW, clAllW, clPreW, St.bg, onOk, onErr, selNext, afterSetErr, srAllW] <;> (try omega)
-  | crRelM _ i hi =>
-    clear h4
-    have l0 := le_tot srW _ _ _ hi
-    have l1 := le_tot lgW _ _ _ hi
-    have l2 := le_tot clAllW _ _ _ hi
-    have l3 := le_tot clPreW _ _ _ hi
-    (try simp only [St.setDone, St.setBg]) <;> (repeat' split) <;> simp_all [tot_set_eq _ _ _ _ _ hi, tot_ackWs_srw', tot_ackWs_lgw, tot_ackWs_clall, tot_ackWs_clpre, b2n_true, b2n_false, clearW_idle, clearW_exited, clearW_eq_exited, srW, lgW, clAllW, clPreW, St.bg, onOk, onErr, selNext, afterSetErr, srAllW] <;> (try omega)
-  | crRelOk _ i hi =>
-    clear h4
-    have l0 := le_tot srW _ _ _ hi
-    have l1 := le_tot lgW _ _ _ hi
-    have l2 := le_tot clAllW _ _ _ hi
-    have l3 := le_tot clPreW _ _ _ hi
-    (try simp only [St.setDone, St.setBg]) <;> (repeat' split) <;> simp_all [tot_set_eq _ _ _ _ _ hi, tot_ackWs_srw', tot_ackWs_lgw, tot_ackWs_clall, tot_ackWs_clpre, b2n_true, b2n_false, clearW_idle, clearW_exited, clearW_eq_exited, srW, lgW, clAllW, clPreW, St.bg, onOk, onErr, selNext, afterSetErr, srAllW] <;> (try omega)
-  | crRelFail _ i hi =>
-    clear h4
-    have l0 := le_tot srW _ _ _ hi
-    have l1 := le_tot lgW _ _ _ hi
-    have l2 := le_tot clAllW _ _ _ hi
-    have l3 := le_tot clPreW _ _ _ hi
-    (try simp only [St.setDone, St.setBg]) <;> (repeat' split) <;> simp_all [tot_set_eq _ _ _ _ _ hi, tot_ackWs_srw', tot_ackWs_lgw, tot_ackWs_clall, tot_ackWs_clpre, b2n_true, b2n_false, clearW_idle, clearW_exited, clearW_eq_exited, srW, lgW, clAllW, clPreW, St.bg, onOk, onErr, selNext, afterSetErr, srAllW] <;> (try omega)
-  | srSend _ i hi he =>
-    clear h4
-    have l0 := le_tot srW _ _ _ hi
-    have l1 := le_tot lgW _ _ _ hi
-    have l2 := le_tot clAllW _ _ _ hi
-    have l3 := le_tot clPreW _ _ _ hi
-    rcases he with he | he <;> (try simp only [St.setDone, St.setBg]) <;> (repeat' split) <;> simp_all [tot_set_eq _ _ _ _ _ hi, tot_ackWs_srw', tot_ackWs_lgw, tot_ackWs_clall, tot_ackWs_clpre, b2n_true, b2n_false, clearW_idle, clearW_exited, clearW_eq_exited, srW, lgW, clAllW, clPreW, St.bg, onOk, onErr, selNext, afterSetErr, srAllW] <;> (try omega)
-  | srPerErr _ i hi he =>
-    clear h4
-    have l0 := le_tot srW _ _ _ hi
-    have l1 := le_tot lgW _ _ _ hi
-    have l2 := le_tot clAllW _ _ _ hi
-    have l3 := le_tot clPreW _ _ _ hi
-    (try simp only [St.setDone, St.setBg]) <;> (repeat' split) <;> simp_all [tot_set_eq _ _ _ _ _ hi, tot_ackWs_srw', tot_ackWs_lgw, tot_ackWs_clall, tot_ackWs_clpre, b2n_true, b2n_false, clearW_idle, clearW_exited, clearW_eq_exited, srW, lgW, clAllW, clPreW, St.bg, onOk, onErr, selNext, afterSetErr, srAllW] <;> (try omega)
-  | srClosed _ i hi hc =>
-    have l0 := le_tot srW _ _ _ hi
-    have l1 := le_tot lgW _ _ _ hi
-    have l2 := le_tot clAllW _ _ _ hi
-    have l3 := le_tot clPreW _ _ _ hi
-    have ls := le_tot srAllW _ _ _ hi
-    rcases h4 with h4 | ⟨_, h4⟩ <;> (try simp only [St.setDone, St.setBg]) <;> (repeat' split) <;> simp_all [tot_set_eq _ _ _ _ _ hi, tot_ackWs_srw', tot_ackWs_lgw, tot_ackWs_clall, tot_ackWs_clpre, b2n_true, b2n_false, clearW_idle, clearW_exited, clearW_eq_exited, srW, lgW, clAllW, clPreW, St.bg, onOk, onErr, selNext, afterSetErr, srAllW] <;> (try omega)
-  | clCheckTr _ i hi =>
-    clear h4
-    have l0 := le_tot srW _ _ _ hi
-    have l1 := le_tot lgW _ _ _ hi
-    have l2 := le_tot clAllW _ _ _ hi
-    have l3 := le_tot clPreW _ _ _ hi
-    (try simp only [St.setDone, St.setBg]) <;> (repeat' split) <;> simp_all [tot_set_eq _ _ _ _ _ hi, tot_ackWs_srw', tot_ackWs_lgw, tot_ackWs_clall, tot_ackWs_clpre, b2n_true, b2n_false, clearW_idle, clearW_exited, clearW_eq_exited, srW, lgW, clAllW, clPreW, St.bg, onOk, onErr, selNext, afterSetErr, srAllW] <;> (try omega)
-  | clLockTr _ i hi hl =>
-    clear h4
-    have l0 := le_tot srW _ _ _ hi
-    have l1 := le_tot lgW _ _ _ hi
-    have l2 := le_tot clAllW _ _ _ hi
-    have l3 := le_tot clPreW _ _ _ hi
-    (try simp only [St.setDone, St.setBg]) <;> (repeat' split) <;> simp_all [tot_set_eq _ _ _ _ _ hi, tot_ackWs_srw', tot_ackWs_lgw, tot_ackWs_clall, tot_ackWs_clpre, b2n_true, b2n_false, clearW_idle, clearW_exited, clearW_eq_exited, srW, lgW, clAllW, clPreW, St.bg, onOk, onErr, selNext, afterSetErr, srAllW] <;> (try omega)
-  | clBody _ i hi =>
-    clear h4
-    have l0 := le_tot srW _ _ _ hi
-    have l1 := le_tot lgW _ _ _ hi
-    have l2 := le_tot clAllW _ _ _ hi
-    have l3 := le_tot clPreW _ _ _ hi
-    (try simp only [St.setDone, St.setBg]) <;> (repeat' split) <;> simp_all [tot_set_eq _ _ _ _ _ hi, tot_ackWs_srw', tot_ackWs_lgw, tot_ackWs_clall, tot_ackWs_clpre, b2n_true, b2n_false, clearW_idle, clearW_exited, clearW_eq_exited, srW, lgW, clAllW, clPreW, St.bg, onOk, onErr, selNext, afterSetErr, srAllW] <;> (try omega)
-  | clAcq _ i hi ht =>
-    clear h4
-    have l0 := le_tot srW _ _ _ hi
-    have l1 := le_tot lgW _ _ _ hi
-    have l2 := le_tot clAllW _ _ _ hi
-    have l3 := le_tot clPreW _ _ _ hi
-    (try simp only [St.setDone, St.setBg]) <;> (repeat' split) <;> simp_all [tot_set_eq _ _ _ _ _ hi, tot_ackWs_srw', tot_ackWs_lgw, tot_ackWs_clall, tot_ackWs_clpre, b2n_true, b2n_false, clearW_idle, clearW_exited, clearW_eq_exited, srW, lgW, clAllW, clPreW, St.bg, onOk, onErr, selNext, afterSetErr, srAllW] <;> (try omega)
-  | clWait _ i hi hm ht =>
-    clear h4
-    have l0 := le_tot srW _ _ _ hi
-    have l1 := le_tot lgW _ _ _ hi
-    have l2 := le_tot clAllW _ _ _ hi
-    have l3 := le_tot clPreW _ _ _ hi
-    (try simp only [St.setDone, St.setBg]) <;> (repeat' split) <;> simp_all [tot_set_eq _ _ _ _ _ hi, tot_ackWs_srw', tot_ackWs_lgw, tot_ackWs_clall, tot_ackWs_clpre, b2n_true, b2n_false, clearW_idle, clearW_exited, clearW_eq_exited, srW, lgW, clAllW, clPreW, St.bg, onOk, onErr, selNext, afterSetErr, srAllW] <;> (try omega)
-  | ehAcquire _ he ht hn =>
-    clear h4
-    (try simp only [St.setDone, St.setBg]) <;> (repeat' split) <;> simp_all [tot_ackWs_srw', tot_ackWs_lgw, tot_ackWs_clall, tot_ackWs_clpre, b2n_true, b2n_false, clearW_idle, clearW_exited, clearW_eq_exited, srW, lgW, clAllW, clPreW, St.bg, onOk, onErr, selNext, afterSetErr, srAllW] <;> (try omega)
-  | ehExit _ he hc =>
-    clear h4
-    cases he' : s.eh <;> (try simp only [St.setDone, St.setBg]) <;> (repeat' split) <;> simp_all [tot_ackWs_srw', tot_ackWs_lgw, tot_ackWs_clall, tot_ackWs_clpre, b2n_true, b2n_false, clearW_idle, clearW_exited, clearW_eq_exited, srW, lgW, clAllW, clPreW, St.bg, onOk, onErr, selNext, afterSetErr, srAllW] <;> (try omega)
-  | bgExitIdle _ b hb hc =>
-    clear h4
-    cases b <;> (try simp only [St.setDone, St.setBg]) <;> (repeat' split) <;> simp_all [tot_ackWs_srw', tot_ackWs_lgw, tot_ackWs_clall, tot_ackWs_clpre, b2n_true, b2n_false, clearW_idle, clearW_exited, clearW_eq_exited, srW, lgW, clAllW, clPreW, St.bg, onOk, onErr, selNext, afterSetErr, srAllW] <;> (try omega)
-  | bgWorkOk _ b w hb =>
-    clear h4
-    cases b <;> (try simp only [St.setDone, St.setBg]) <;> (repeat' split) <;> simp_all [tot_ackWs_srw', tot_ackWs_lgw, tot_ackWs_clall, tot_ackWs_clpre, b2n_true, b2n_false, clearW_idle, clearW_exited, clearW_eq_exited, srW, lgW, clAllW, clPreW, St.bg, onOk, onErr, selNext, afterSetErr, srAllW] <;> (try omega)
-  | bgWorkFail _ b w hb =>
-    clear h4
-    cases b <;> (try simp only [St.setDone, St.setBg]) <;> (repeat' split) <;> simp_all [tot_ackWs_srw', tot_ackWs_lgw, tot_ackWs_clall, tot_ackWs_clpre, b2n_true, b2n_false, clearW_idle, clearW_exited, clearW_eq_exited, srW, lgW, clAllW, clPreW, St.bg, onOk, onErr, selNext, afterSetErr, srAllW] <;> (try omega)
-  | bgCommitOk _ b w hb =>
-    clear h4
-    cases b <;> (try simp only [St.setDone, St.setBg]) <;> (repeat' split) <;> simp_all [tot_ackWs_srw', tot_ackWs_lgw, tot_ackWs_clall, tot_ackWs_clpre, b2n_true, b2n_false, clearW_idle, clearW_exited, clearW_eq_exited, srW, lgW, clAllW, clPreW, St.bg, onOk, onErr, selNext, afterSetErr, srAllW] <;> (try omega)
-  | bgCommitFail _ b w hb =>
-    clear h4
-    cases b <;> (try simp only [St.setDone, St.setBg]) <;> (repeat' split) <;> simp_all [tot_ackWs_srw', tot_ackWs_lgw, tot_ackWs_clall, tot_ackWs_clpre, b2n_true, b2n_false, clearW_idle, clearW_exited, clearW_eq_exited, srW, lgW, clAllW, clPreW, St.bg, onOk, onErr, selNext, afterSetErr, srAllW] <;> (try omega)
-  | bgSetErr _ b w ok c hb he =>
-    clear h4
-    rcases he with he | he <;> cases b <;> cases ok <;> cases c <;> (try simp only [St.setDone, St.setBg]) <;> (repeat' split) <;> simp_all [tot_ackWs_srw', tot_ackWs_lgw, tot_ackWs_clall, tot_ackWs_clpre, b2n_true, b2n_false, clearW_idle, clearW_exited, clearW_eq_exited, srW, lgW, clAllW, clPreW, St.bg, onOk, onErr, selNext, afterSetErr, srAllW] <;> (try omega)
-  | bgSetErrPer _ b w c hb he =>
-    clear h4
-    cases b <;> cases c <;> (try simp only [St.setDone, St.setBg]) <;> (repeat' split) <;> simp_all [tot_ackWs_srw', tot_ackWs_lgw, tot_ackWs_clall, tot_ackWs_clpre, b2n_true, b2n_false, clearW_idle, clearW_exited, clearW_eq_exited, srW, lgW, clAllW, clPreW, St.bg, onOk, onErr, selNext, afterSetErr, srAllW] <;> (try omega)
-  | bgBackoff _ b w c hb =>
-    clear h4
-    cases b <;> cases c <;> (try simp only [St.setDone, St.setBg]) <;> (repeat' split) <;> simp_all [tot_ackWs_srw', tot_ackWs_lgw, tot_ackWs_clall, tot_ackWs_clpre, b2n_true, b2n_false, clearW_idle, clearW_exited, clearW_eq_exited, srW, lgW, clAllW, clPreW, St.bg, onOk, onErr, selNext, afterSetErr, srAllW] <;> (try omega)
-  | bgLockClk _ b w hb hl =>
-    clear h4
-    cases b <;> (try simp only [St.setDone, St.setBg]) <;> (repeat' split) <;> simp_all [tot_ackWs_srw', tot_ackWs_lgw, tot_ackWs_clall, tot_ackWs_clpre, b2n_true, b2n_false, clearW_idle, clearW_exited, clearW_eq_exited, srW, lgW, clAllW, clPreW, St.bg, onOk, onErr, selNext, afterSetErr, srAllW] <;> (try omega)
-  | bgAck _ b w hb =>
-    clear h4
-    cases b <;> (try simp only [St.setDone, St.setBg]) <;> (repeat' split) <;> simp_all [tot_ackWs_srw', tot_ackWs_lgw, tot_ackWs_clall, tot_ackWs_clpre, b2n_true, b2n_false, clearW_idle, clearW_exited, clearW_eq_exited, srW, lgW, clAllW, clPreW, St.bg, onOk, onErr, selNext, afterSetErr, srAllW] <;> (try omega)
-  | bgExit _ b w ph hb hx =>
-    clear h4
-    cases b <;> cases ph <;> (try simp only [St.setDone, St.setBg]) <;> (repeat' split) <;> simp_all [tot_ackWs_srw', tot_ackWs_lgw, tot_ackWs_clall, tot_ackWs_clpre, b2n_true, b2n_false, clearW_idle, clearW_exited, clearW_eq_exited, srW, lgW, clAllW, clPreW, St.bg, onOk, onErr, selNext, afterSetErr, srAllW] <;> (try omega) <;> (try (rcases hx with hx | hx <;> simp_all))
-
-theorem step_pinvC (s t : St) (f : Bool) (cfg : Cfg) (hfx : Fixed3 cfg)
-    (h4 : cfg.setReadOnlyReleasesOnClose = true ∨ NoSR s) (h : Step cfg f s t) (inv : PInvC s) : PInvC t := by
-  unfold PInvC at *
-  obtain ⟨h6, h7, h8⟩ := inv
-  have c1 := b2n_le s.closed
-  have c2 := b2n_le s.closeTok
-  have hle := tot_le_tot clPreW clAllW (by intro p; cases p <;> simp [clPreW, clAllW]) s.ws
-  obtain ⟨f1, f2, f3⟩ := hfx
-  cases h with
-  | startPut _ i hi =>
-    clear h4
-    have l0 := le_tot srW _ _ _ hi
-    have l1 := le_tot lgW _ _ _ hi
-    have l2 := le_tot clAllW _ _ _ hi
-    have l3 := le_tot clPreW _ _ _ hi
-    (try simp only [St.setDone, St.setBg]) <;> (repeat' split) <;> simp_all [tot_set_eq _ _ _ _ _ hi, tot_ackWs_srw', tot_ackWs_lgw, tot_ackWs_clall, tot_ackWs_clpre, b2n_true, b2n_false, clearW_idle, clearW_exited, clearW_eq_exited, srW, lgW, clAllW, clPreW, St.bg, onOk, onErr, selNext, afterSetErr, srAllW] <;> (try omega)
-  | startWrite _ i hi =>
-    clear h4
-    have l0 := le_tot srW _ _ _ hi
-    have l1 := le_tot lgW _ _ _ hi
-    have l2 := le_tot clAllW _ _ _ hi
-    have l3 := le_tot clPreW _ _ _ hi
-    (try simp only [St.setDone, St.setBg]) <;> (repeat' split) <;> simp_all [tot_set_eq _ _ _ _ _ hi, tot_ackWs_srw', tot_ackWs_lgw, tot_ackWs_clall, tot_ackWs_clpre, b2n_true, b2n_false, clearW_idle, clearW_exited, clearW_eq_exited, srW, lgW, clAllW, clPreW, St.bg, onOk, onErr, selNext, afterSetErr, srAllW] <;> (try omega)
-  | startOtx _ i hi =>
-    clear h4
-    have l0 := le_tot srW _ _ _ hi
-    have l1 := le_tot lgW _ _ _ hi
-    have l2 := le_tot clAllW _ _ _ hi
-    have l3 := le_tot clPreW _ _ _ hi
-    (try simp only [St.setDone, St.setBg]) <;> (repeat' split) <;> simp_all [tot_set_eq _ _ _ _ _ hi, tot_ackWs_srw', tot_ackWs_lgw, tot_ackWs_clall, tot_ackWs_clpre, b2n_true, b2n_false, clearW_idle, clearW_exited, clearW_eq_exited, srW, lgW, clAllW, clPreW, St.bg, onOk, onErr, selNext, afterSetErr, srAllW] <;> (try omega)
-  | startCommit _ i hi hu =>
-    clear h4
-    have l0 := le_tot srW _ _ _ hi
-    have l1 := le_tot lgW _ _ _ hi
-    have l2 := le_tot clAllW _ _ _ hi
-    have l3 := le_tot clPreW _ _ _ hi
-    (try simp only [St.setDone, St.setBg]) <;> (repeat' split) <;> simp_all [tot_set_eq _ _ _ _ _ hi, tot_ackWs_srw', tot_ackWs_lgw, tot_ackWs_clall, tot_ackWs_clpre, b2n_true, b2n_false, clearW_idle, clearW_exited, clearW_eq_exited, srW, lgW, clAllW, clPreW, St.bg, onOk, onErr, selNext, afterSetErr, srAllW] <;> (try omega)
-  | startDiscard _ i hi hu =>
-    clear h4
-    have l0 := le_tot srW _ _ _ hi
-    have l1 := le_tot lgW _ _ _ hi
-    have l2 := le_tot clAllW _ _ _ hi
-    have l3 := le_tot clPreW _ _ _ hi
-    (try simp only [St.setDone, St.setBg]) <;> (repeat' split) <;> simp_all [tot_set_eq _ _ _ _ _ hi, tot_ackWs_srw', tot_ackWs_lgw, tot_ackWs_clall, tot_ackWs_clpre, b2n_true, b2n_false, clearW_idle, clearW_exited, clearW_eq_exited, srW, lgW, clAllW, clPreW, St.bg, onOk, onErr, selNext, afterSetErr, srAllW] <;> (try omega)
-  | startCR _ i hi =>
-    clear h4
-    have l0 := le_tot srW _ _ _ hi
-    have l1 := le_tot lgW _ _ _ hi
-    have l2 := le_tot clAllW _ _ _ hi
-    have l3 := le_tot clPreW _ _ _ hi
-    (try simp only [St.setDone, St.setBg]) <;> (repeat' split) <;> simp_all [tot_set_eq _ _ _ _ _ hi, tot_ackWs_srw', tot_ackWs_lgw, tot_ackWs_clall, tot_ackWs_clpre, b2n_true, b2n_false, clearW_idle, clearW_exited, clearW_eq_exited, srW, lgW, clAllW, clPreW, St.bg, onOk, onErr, selNext, afterSetErr, srAllW] <;> (try omega)
-  | startSR _ i hi ha =>
-    clear h4
-    have l0 := le_tot srW _ _ _ hi
-    have l1 := le_tot lgW _ _ _ hi
-    have l2 := le_tot clAllW _ _ _ hi
-    have l3 := le_tot clPreW _ _ _ hi
-    (try simp only [St.setDone, St.setBg]) <;> (repeat' split) <;> simp_all [tot_set_eq _ _ _ _ _ hi, tot_ackWs_srw', tot_ackWs_lgw, tot_ackWs_clall, tot_ackWs_clpre, b2n_true, b2n_false, clearW_idle, clearW_exited, clearW_eq_exited, srW, lgW, clAllW, clPreW, St.bg, onOk, onErr, selNext, afterSetErr, srAllW] <;> (try omega)
-  | startClose _ i hi =>
-    clear h4
-    have l0 := le_tot srW _ _ _ hi
-    have l1 := le_tot lgW _ _ _ hi
-    have l2 := le_tot clAllW _ _ _ hi
-    have l3 := le_tot clPreW _ _ _ hi
-    (try simp only [St.setDone, St.setBg]) <;> (repeat' split) <;> simp_all [tot_set_eq _ _ _ _ _ hi, tot_ackWs_srw', tot_ackWs_lgw, tot_ackWs_clall, tot_ackWs_clpre, b2n_true, b2n_false, clearW_idle, clearW_exited, clearW_eq_exited, srW, lgW, clAllW, clPreW, St.bg, onOk, onErr, selNext, afterSetErr, srAllW] <;> (try omega)
-  | selTok _ i p q hi hq ht =>
-    clear h4
-    have l0 := le_tot srW _ _ _ hi
-    have l1 := le_tot lgW _ _ _ hi
-    have l2 := le_tot clAllW _ _ _ hi
-    have l3 := le_tot clPreW _ _ _ hi
-    cases p <;> simp only [selNext] at hq <;> (try contradiction) <;> cases hq <;> simp_all [tot_set_eq _ _ _ _ _ hi, tot_ackWs_srw', tot_ackWs_lgw, tot_ackWs_clall, tot_ackWs_clpre, b2n_true, b2n_false, clearW_idle, clearW_exited, clearW_eq_exited, srW, lgW, clAllW, clPreW, St.bg, onOk, onErr, selNext, afterSetErr, srAllW] <;> (try omega)
-  | selPerErr _ i p q hi hq he =>
-    clear h4
-    have l0 := le_tot srW _ _ _ hi
-    have l1 := le_tot lgW _ _ _ hi
-    have l2 := le_tot clAllW _ _ _ hi
-    have l3 := le_tot clPreW _ _ _ hi
-    cases p <;> simp only [selNext] at hq <;> (try contradiction) <;> cases hq <;> simp_all [tot_set_eq _ _ _ _ _ hi, tot_ackWs_srw', tot_ackWs_lgw, tot_ackWs_clall, tot_ackWs_clpre, b2n_true, b2n_false, clearW_idle, clearW_exited, clearW_eq_exited, srW, lgW, clAllW, clPreW, St.bg, onOk, onErr, selNext, afterSetErr, srAllW] <;> (try omega)
-  | selClosed _ i p q hi hq hc =>
-    clear h4
-    have l0 := le_tot srW _ _ _ hi
-    have l1 := le_tot lgW _ _ _ hi
-    have l2 := le_tot clAllW _ _ _ hi
-    have l3 := le_tot clPreW _ _ _ hi
-    cases p <;> simp only [selNext] at hq <;> (try contradiction) <;> cases hq <;> simp_all [tot_set_eq _ _ _ _ _ hi, tot_ackWs_srw', tot_ackWs_lgw, tot_ackWs_clall, tot_ackWs_clpre, b2n_true, b2n_false, clearW_idle, clearW_exited, clearW_eq_exited, srW, lgW, clAllW, clPreW, St.bg, onOk, onErr, selNext, afterSetErr, srAllW] <;> (try omega)
-  | putNoWait _ i hi =>
-    clear h4
-    have l0 := le_tot srW _ _ _ hi
-    have l1 := le_tot lgW _ _ _ hi
-    have l2 := le_tot clAllW _ _ _ hi
-    have l3 := le_tot clPreW _ _ _ hi
-    (try simp only [St.setDone, St.setBg]) <;> (repeat' split) <;> simp_all [tot_set_eq _ _ _ _ _ hi, tot_ackWs_srw', tot_ackWs_lgw, tot_ackWs_clall, tot_ackWs_clpre, b2n_true, b2n_false, clearW_idle, clearW_exited, clearW_eq_exited, srW, lgW, clAllW, clPreW, St.bg, onOk, onErr, selNext, afterSetErr, srAllW] <;> (try omega)
-  | putWait _ i b hi =>
-    clear h4
-    have l0 := le_tot srW _ _ _ hi
-    have l1 := le_tot lgW _ _ _ hi
-    have l2 := le_tot clAllW _ _ _ hi
-    have l3 := le_tot clPreW _ _ _ hi
-    cases b <;> (try simp only [St.setDone, St.setBg]) <;> (repeat' split) <;> simp_all [tot_set_eq _ _ _ _ _ hi, tot_ackWs_srw', tot_ackWs_lgw, tot_ackWs_clall, tot_ackWs_clpre, b2n_true, b2n_false, clearW_idle, clearW_exited, clearW_eq_exited, srW, lgW, clAllW, clPreW, St.bg, onOk, onErr, selNext, afterSetErr, srAllW] <;> (try omega)
-  | putJournalOk _ i hi =>
-    clear h4
-    have l0 := le_tot srW _ _ _ hi
-    have l1 := le_tot lgW _ _ _ hi
-    have l2 := le_tot clAllW _ _ _ hi
-    have l3 := le_tot clPreW _ _ _ hi
-    (try simp only [St.setDone, St.setBg]) <;> (repeat' split) <;> simp_all [tot_set_eq _ _ _ _ _ hi, tot_ackWs_srw', tot_ackWs_lgw, tot_ackWs_clall, tot_ackWs_clpre, b2n_true, b2n_false, clearW_idle, clearW_exited, clearW_eq_exited, srW, lgW, clAllW, clPreW, St.bg, onOk, onErr, selNext, afterSetErr, srAllW] <;> (try omega)
-  | putJournalFail _ i hi =>
-    clear h4
-    have l0 := le_tot srW _ _ _ hi
-    have l1 := le_tot lgW _ _ _ hi
-    have l2 := le_tot clAllW _ _ _ hi
-    have l3 := le_tot clPreW _ _ _ hi
-    (try simp only [St.setDone, St.setBg]) <;> (repeat' split) <;> simp_all [tot_set_eq _ _ _ _ _ hi, tot_ackWs_srw', tot_ackWs_lgw, tot_ackWs_clall, tot_ackWs_clpre, b2n_true, b2n_false, clearW_idle, clearW_exited, clearW_eq_exited, srW, lgW, clAllW, clPreW, St.bg, onOk, onErr, selNext, afterSetErr, srAllW] <;> (try omega)
-  | putUnlock _ i r hi =>
-    clear h4
-    have l0 := le_tot srW _ _ _ hi
-    have l1 := le_tot lgW _ _ _ hi
-    have l2 := le_tot clAllW _ _ _ hi
-    have l3 := le_tot clPreW _ _ _ hi
-    cases r <;> (try simp only [St.setDone, St.setBg]) <;> (repeat' split) <;> simp_all [tot_set_eq _ _ _ _ _ hi, tot_ackWs_srw', tot_ackWs_lgw, tot_ackWs_clall, tot_ackWs_clpre, b2n_true, b2n_false, clearW_idle, clearW_exited, clearW_eq_exited, srW, lgW, clAllW, clPreW, St.bg, onOk, onErr, selNext, afterSetErr, srAllW] <;> (try omega)
-  | cwSendGo _ i b site lg hi hb =>
-    clear h4
-    have l0 := le_tot srW _ _ _ hi
-    have l1 := le_tot lgW _ _ _ hi
-    have l2 := le_tot clAllW _ _ _ hi
-    have l3 := le_tot clPreW _ _ _ hi
-    cases site <;> cases b <;> cases lg <;> (try simp only [St.setDone, St.setBg]) <;> (repeat' split) <;> simp_all [tot_set_eq _ _ _ _ _ hi, tot_ackWs_srw', tot_ackWs_lgw, tot_ackWs_clall, tot_ackWs_clpre, b2n_true, b2n_false, clearW_idle, clearW_exited, clearW_eq_exited, srW, lgW, clAllW, clPreW, St.bg, onOk, onErr, selNext, afterSetErr, srAllW] <;> (try omega)
-  | cwSendErr _ i b site lg hi he =>
-    clear h4
-    have l0 := le_tot srW _ _ _ hi
-    have l1 := le_tot lgW _ _ _ hi
-    have l2 := le_tot clAllW _ _ _ hi
-    have l3 := le_tot clPreW _ _ _ hi
-    cases site <;> cases b <;> cases lg <;> (try simp only [St.setDone, St.setBg]) <;> (repeat' split) <;> simp_all [tot_set_eq _ _ _ _ _ hi, tot_ackWs_srw', tot_ackWs_lgw, tot_ackWs_clall, tot_ackWs_clpre, b2n_true, b2n_false, clearW_idle, clearW_exited, clearW_eq_exited, srW, lgW, clAllW, clPreW, St.bg, onOk, onErr, selNext, afterSetErr, srAllW] <;> (try omega)
-  | cwAckErr _ i b site lg hi he =>
-    clear h4
-    have l0 := le_tot srW _ _ _ hi
-    have l1 := le_tot lgW _ _ _ hi
-    have l2 := le_tot clAllW _ _ _ hi
-    have l3 := le_tot clPreW _ _ _ hi
-    cases site <;> cases b <;> cases lg <;> (try simp only [St.setDone, St.setBg]) <;> (repeat' split) <;> simp_all [tot_set_eq _ _ _ _ _ hi, tot_ackWs_srw', tot_ackWs_lgw, tot_ackWs_clall, tot_ackWs_clpre, b2n_true, b2n_false, clearW_idle, clearW_exited, clearW_eq_exited, srW, lgW, clAllW, clPreW, St.bg, onOk, onErr, selNext, afterSetErr, srAllW] <;> (try omega)
-  | otxRotate _ i lg hi =>
-    clear h4
-    have l0 := le_tot srW _ _ _ hi
-    have l1 := le_tot lgW _ _ _ hi
-    have l2 := le_tot clAllW _ _ _ hi
-    have l3 := le_tot clPreW _ _ _ hi
-    cases lg <;> (try simp only [St.setDone, St.setBg]) <;> (repeat' split) <;> simp_all [tot_set_eq _ _ _ _ _ hi, tot_ackWs_srw', tot_ackWs_lgw, tot_ackWs_clall, tot_ackWs_clpre, b2n_true, b2n_false, clearW_idle, clearW_exited, clearW_eq_exited, srW, lgW, clAllW, clPreW, St.bg, onOk, onErr, selNext, afterSetErr, srAllW] <;> (try omega)
-  | otxNoRotate _ i lg hi =>
-    clear h4
-    have l0 := le_tot srW _ _ _ hi
-    have l1 := le_tot lgW _ _ _ hi
-    have l2 := le_tot clAllW _ _ _ hi
-    have l3 := le_tot clPreW _ _ _ hi
-    cases lg <;> (try simp only [St.setDone, St.setBg]) <;> (repeat' split) <;> simp_all [tot_set_eq _ _ _ _ _ hi, tot_ackWs_srw', tot_ackWs_lgw, tot_ackWs_clall, tot_ackWs_clpre, b2n_true, b2n_false, clearW_idle, clearW_exited, clearW_eq_exited, srW, lgW, clAllW, clPreW, St.bg, onOk, onErr, selNext, afterSetErr, srAllW] <;> (try omega)
-  | otxNewMemOk _ i lg hi =>
-    clear h4
-    have l0 := le_tot srW _ _ _ hi
-    have l1 := le_tot lgW _ _ _ hi
-    have l2 := le_tot clAllW _ _ _ hi
-    have l3 := le_tot clPreW _ _ _ hi
-    cases lg <;> (try simp only [St.setDone, St.setBg]) <;> (repeat' split) <;> simp_all [tot_set_eq _ _ _ _ _ hi, tot_ackWs_srw', tot_ackWs_lgw, tot_ackWs_clall, tot_ackWs_clpre, b2n_true, b2n_false, clearW_idle, clearW_exited, clearW_eq_exited, srW, lgW, clAllW, clPreW, St.bg, onOk, onErr, selNext, afterSetErr, srAllW] <;> (try omega)
-  | otxNewMemFail _ i lg hi =>
-    clear h4
-    have l0 := le_tot srW _ _ _ hi
-    have l1 := le_tot lgW _ _ _ hi
-    have l2 := le_tot clAllW _ _ _ hi
-    have l3 := le_tot clPreW _ _ _ hi
-    cases lg <;> (try simp only [St.setDone, St.setBg]) <;> (repeat' split) <;> simp_all [tot_set_eq _ _ _ _ _ hi, tot_ackWs_srw', tot_ackWs_lgw, tot_ackWs_clall, tot_ackWs_clpre, b2n_true, b2n_false, clearW_idle, clearW_exited, clearW_eq_exited, srW, lgW, clAllW, clPreW, St.bg, onOk, onErr, selNext, afterSetErr, srAllW] <;> (try omega)
-  | otxNoWaitComp _ i lg hi =>
-    clear h4
-    have l0 := le_tot srW _ _ _ hi
-    have l1 := le_tot lgW _ _ _ hi
-    have l2 := le_tot clAllW _ _ _ hi
-    have l3 := le_tot clPreW _ _ _ hi
-    cases lg <;> (try simp only [St.setDone, St.setBg]) <;> (repeat' split) <;> simp_all [tot_set_eq _ _ _ _ _ hi, tot_ackWs_srw', tot_ackWs_lgw, tot_ackWs_clall, tot_ackWs_clpre, b2n_true, b2n_false, clearW_idle, clearW_exited, clearW_eq_exited, srW, lgW, clAllW, clPreW, St.bg, onOk, onErr, selNext, afterSetErr, srAllW] <;> (try omega)
-  | otxWaitComp _ i lg hi =>
-    clear h4
-    have l0 := le_tot srW _ _ _ hi
-    have l1 := le_tot lgW _ _ _ hi
-    have l2 := le_tot clAllW _ _ _ hi
-    have l3 := le_tot clPreW _ _ _ hi
-    cases lg <;> (try simp only [St.setDone, St.setBg]) <;> (repeat' split) <;> simp_all [tot_set_eq _ _ _ _ _ hi, tot_ackWs_srw', tot_ackWs_lgw, tot_ackWs_clall, tot_ackWs_clpre, b2n_true, b2n_false, clearW_idle, clearW_exited, clearW_eq_exited, srW, lgW, clAllW, clPreW, St.bg, onOk, onErr, selNext, afterSetErr, srAllW] <;> (try omega)
-  | otxFail _ i lg hi =>
-    clear h4
-    have l0 := le_tot srW _ _ _ hi
-    have l1 := le_tot lgW _ _ _ hi
-    have l2 := le_tot clAllW _ _ _ hi
-    have l3 := le_tot clPreW _ _ _ hi
-    cases lg <;> (try simp only [St.setDone, St.setBg]) <;> (repeat' split) <;> simp_all [tot_set_eq _ _ _ _ _ hi, tot_ackWs_srw', tot_ackWs_lgw, tot_ackWs_clall, tot_ackWs_clpre, b2n_true, b2n_false, clearW_idle, clearW_exited, clearW_eq_exited, srW, lgW, clAllW, clPreW, St.bg, onOk, onErr, selNext, afterSetErr, srAllW] <;> (try omega)
-  | otxRel _ i lg hi =>
-    clear h4
-    have l0 := le_tot srW _ _ _ hi
-    have l1 := le_tot lgW _ _ _ hi
-    have l2 := le_tot clAllW _ _ _ hi
-    have l3 := le_tot clPreW _ _ _ hi
-    cases lg <;> (try simp only [St.setDone, St.setBg]) <;> (repeat' split) <;> simp_all [tot_set_eq _ _ _ _ _ hi, tot_ackWs_srw', tot_ackWs_lgw, tot_ackWs_clall, tot_ackWs_clpre, b2n_true, b2n_false, clearW_idle, clearW_exited, clearW_eq_exited, srW, lgW, clAllW, clPreW, St.bg, onOk, onErr, selNext, afterSetErr, srAllW] <;> (try omega)
-  | otxDone _ i lg hi =>
-    clear h4
-    have l0 := le_tot srW _ _ _ hi
-    have l1 := le_tot lgW _ _ _ hi
-    have l2 := le_tot clAllW _ _ _ hi
-    have l3 := le_tot clPreW _ _ _ hi
-    cases lg <;> (try simp only [St.setDone, St.setBg]) <;> (repeat' split) <;> simp_all [tot_set_eq _ _ _ _ _ hi, tot_ackWs_srw', tot_ackWs_lgw, tot_ackWs_clall, tot_ackWs_clpre, b2n_true, b2n_false, clearW_idle, clearW_exited, clearW_eq_exited, srW, lgW, clAllW, clPreW, St.bg, onOk, onErr, selNext, afterSetErr, srAllW] <;> (try omega)
-  | lgWriteOk _ i hi =>
-    clear h4
-    have l0 := le_tot srW _ _ _ hi
-    have l1 := le_tot lgW _ _ _ hi
-    have l2 := le_tot clAllW _ _ _ hi
-    have l3 := le_tot clPreW _ _ _ hi
-    (try simp only [St.setDone, St.setBg]) <;> (repeat' split) <;> simp_all [tot_set_eq _ _ _ _ _ hi, tot_ackWs_srw', tot_ackWs_lgw, tot_ackWs_clall, tot_ackWs_clpre, b2n_true, b2n_false, clearW_idle, clearW_exited, clearW_eq_exited, srW, lgW, clAllW, clPreW, St.bg, onOk, onErr, selNext, afterSetErr, srAllW] <;> (try omega)
-  | lgWriteFail _ i hi =>
-    clear h4
-    have l0 := le_tot srW _ _ _ hi
-    have l1 := le_tot lgW _ _ _ hi
-    have l2 := le_tot clAllW _ _ _ hi
-    have l3 := le_tot clPreW _ _ _ hi
-    (try simp only [St.setDone, St.setBg]) <;> (repeat' split) <;> simp_all [tot_set_eq _ _ _ _ _ hi, tot_ackWs_srw', tot_ackWs_lgw, tot_ackWs_clall, tot_ackWs_clpre, b2n_true, b2n_false, clearW_idle, clearW_exited, clearW_eq_exited, srW, lgW, clAllW, clPreW, St.bg, onOk, onErr, selNext, afterSetErr, srAllW] <;> (try omega)
-  | cmLockTr _ i lg hi hl =>
-    clear h4
-    have l0 := le_tot srW _ _ _ hi
-    have l1 := le_tot lgW _ _ _ hi
-    have l2 := le_tot clAllW _ _ _ hi
-    have l3 := le_tot clPreW _ _ _ hi
-    cases lg <;> (try simp only [St.setDone, St.setBg]) <;> (repeat' split) <;> simp_all [tot_set_eq _ _ _ _ _ hi, tot_ackWs_srw', tot_ackWs_lgw, tot_ackWs_clall, tot_ackWs_clpre, b2n_true, b2n_false, clearW_idle, clearW_exited, clearW_eq_exited, srW, lgW, clAllW, clPreW, St.bg, onOk, onErr, selNext, afterSetErr, srAllW] <;> (try omega)
-  | cmFlushOk _ i lg hi =>
-    clear h4
-    have l0 := le_tot srW _ _ _ hi
-    have l1 := le_tot lgW _ _ _ hi
-    have l2 := le_tot clAllW _ _ _ hi
-    have l3 := le_tot clPreW _ _ _ hi
-    cases lg <;> (try simp only [St.setDone, St.setBg]) <;> (repeat' split) <;> simp_all [tot_set_eq _ _ _ _ _ hi, tot_ackWs_srw', tot_ackWs_lgw, tot_ackWs_clall, tot_ackWs_clpre, b2n_true, b2n_false, clearW_idle, clearW_exited, clearW_eq_exited, srW, lgW, clAllW, clPreW, St.bg, onOk, onErr, selNext, afterSetErr, srAllW] <;> (try omega)
-  | cmFlushEmpty _ i lg hi =>
-    clear h4
-    have l0 := le_tot srW _ _ _ hi
-    have l1 := le_tot lgW _ _ _ hi
-    have l2 := le_tot clAllW _ _ _ hi
-    have l3 := le_tot clPreW _ _ _ hi
-    cases lg <;> (try simp only [St.setDone, St.setBg]) <;> (repeat' split) <;> simp_all [tot_set_eq _ _ _ _ _ hi, tot_ackWs_srw', tot_ackWs_lgw, tot_ackWs_clall, tot_ackWs_clpre, b2n_true, b2n_false, clearW_idle, clearW_exited, clearW_eq_exited, srW, lgW, clAllW, clPreW, St.bg, onOk, onErr, selNext, afterSetErr, srAllW] <;> (try omega)
-  | cmFlushFail _ i lg hi =>
-    clear h4
-    have l0 := le_tot srW _ _ _ hi
-    have l1 := le_tot lgW _ _ _ hi
-    have l2 := le_tot clAllW _ _ _ hi
-    have l3 := le_tot clPreW _ _ _ hi
-    cases lg <;> (try simp only [St.setDone, St.setBg]) <;> (repeat' split) <;> simp_all [tot_set_eq _ _ _ _ _ hi, tot_ackWs_srw', tot_ackWs_lgw, tot_ackWs_clall, tot_ackWs_clpre, b2n_true, b2n_false, clearW_idle, clearW_exited, clearW_eq_exited, srW, lgW, clAllW, clPreW, St.bg, onOk, onErr, selNext, afterSetErr, srAllW] <;> (try omega)
-  | cmLockClk _ i lg hi hl =>
-    clear h4
-    have l0 := le_tot srW _ _ _ hi
-    have l1 := le_tot lgW _ _ _ hi
-    have l2 := le_tot clAllW _ _ _ hi
-    have l3 := le_tot clPreW _ _ _ hi
-    cases lg <;> (try simp only [St.setDone, St.setBg]) <;> (repeat' split) <;> simp_all [tot_set_eq _ _ _ _ _ hi, tot_ackWs_srw', tot_ackWs_lgw, tot_ackWs_clall, tot_ackWs_clpre, b2n_true, b2n_false, clearW_idle, clearW_exited, clearW_eq_exited, srW, lgW, clAllW, clPreW, St.bg, onOk, onErr, selNext, afterSetErr, srAllW] <;> (try omega)
-  | cmTryOk _ i k lg hi =>
-    clear h4
-    have l0 := le_tot srW _ _ _ hi
-    have l1 := le_tot lgW _ _ _ hi
-    have l2 := le_tot clAllW _ _ _ hi
-    have l3 := le_tot clPreW _ _ _ hi
-    cases lg <;> (try simp only [St.setDone, St.setBg]) <;> (repeat' split) <;> simp_all [tot_set_eq _ _ _ _ _ hi, tot_ackWs_srw', tot_ackWs_lgw, tot_ackWs_clall, tot_ackWs_clpre, b2n_true, b2n_false, clearW_idle, clearW_exited, clearW_eq_exited, srW, lgW, clAllW, clPreW, St.bg, onOk, onErr, selNext, afterSetErr, srAllW] <;> (try omega)
-  | cmTryFail _ i k lg hi =>
-    clear h4
-    have l0 := le_tot srW _ _ _ hi
-    have l1 := le_tot lgW _ _ _ hi
-    have l2 := le_tot clAllW _ _ _ hi
-    have l3 := le_tot clPreW _ _ _ hi
-    cases lg <;> (try simp only [St.setDone, St.setBg]) <;> (repeat' split) <;> simp_all [tot_set_eq _ _ _ _ _ hi, tot_ackWs_srw', tot_ackWs_lgw, tot_ackWs_clall, tot_ackWs_clpre, b2n_true, b2n_false, clearW_idle, clearW_exited, clearW_eq_exited, srW, lgW, clAllW, clPreW, St.bg, onOk, onErr, selNext, afterSetErr, srAllW] <;> (try omega)
-  | cmSleepTimer _ i k lg hi =>
-    clear h4
-    have l0 := le_tot srW _ _ _ hi
-    have l1 := le_tot lgW _ _ _ hi
-    have l2 := le_tot clAllW _ _ _ hi
-    have l3 := le_tot clPreW _ _ _ hi
-    cases lg <;> (try simp only [St.setDone, St.setBg]) <;> (repeat' split) <;> simp_all [tot_set_eq _ _ _ _ _ hi, tot_ackWs_srw', tot_ackWs_lgw, tot_ackWs_clall, tot_ackWs_clpre, b2n_true, b2n_false, clearW_idle, clearW_exited, clearW_eq_exited, srW, lgW, clAllW, clPreW, St.bg, onOk, onErr, selNext, afterSetErr, srAllW] <;> (try omega)
-  | cmSleepClosed _ i k lg hi hc =>
-    clear h4
-    have l0 := le_tot srW _ _ _ hi
-    have l1 := le_tot lgW _ _ _ hi
-    have l2 := le_tot clAllW _ _ _ hi
-    have l3 := le_tot clPreW _ _ _ hi
-    cases lg <;> (try simp only [St.setDone, St.setBg]) <;> (repeat' split) <;> simp_all [tot_set_eq _ _ _ _ _ hi, tot_ackWs_srw', tot_ackWs_lgw, tot_ackWs_clall, tot_ackWs_clpre, b2n_true, b2n_false, clearW_idle, clearW_exited, clearW_eq_exited, srW, lgW, clAllW, clPreW, St.bg, onOk, onErr, selNext, afterSetErr, srAllW] <;> (try omega)
-  | cmFail3 _ i lg hi =>
-    clear h4
-    have l0 := le_tot srW _ _ _ hi
-    have l1 := le_tot lgW _ _ _ hi
-    have l2 := le_tot clAllW _ _ _ hi
-    have l3 := le_tot clPreW _ _ _ hi
-    cases lg <;> (try simp only [St.setDone, St.setBg]) <;> (repeat' split) <;> simp_all [tot_set_eq _ _ _ _ _ hi, tot_ackWs_srw', tot_ackWs_lgw, tot_ackWs_clall, tot_ackWs_clpre, b2n_true, b2n_false, clearW_idle, clearW_exited, clearW_eq_exited, srW, lgW, clAllW, clPreW, St.bg, onOk, onErr, selNext, afterSetErr, srAllW] <;> (try omega)
-  | cmAfterOk _ i lg hi =>
-    clear h4
-    have l0 := le_tot srW _ _ _ hi
-    have l1 := le_tot lgW _ _ _ hi
-    have l2 := le_tot clAllW _ _ _ hi
-    have l3 := le_tot clPreW _ _ _ hi
-    cases lg <;> (try simp only [St.setDone, St.setBg]) <;> (repeat' split) <;> simp_all [tot_set_eq _ _ _ _ _ hi, tot_ackWs_srw', tot_ackWs_lgw, tot_ackWs_clall, tot_ackWs_clpre, b2n_true, b2n_false, clearW_idle, clearW_exited, clearW_eq_exited, srW, lgW, clAllW, clPreW, St.bg, onOk, onErr, selNext, afterSetErr, srAllW] <;> (try omega)
-  | cmNoWaitComp _ i lg hi =>
-    clear h4
-    have l0 := le_tot srW _ _ _ hi
-    have l1 := le_tot lgW _ _ _ hi
-    have l2 := le_tot clAllW _ _ _ hi
-    have l3 := le_tot clPreW _ _ _ hi
-    cases lg <;> (try simp only [St.setDone, St.setBg]) <;> (repeat' split) <;> simp_all [tot_set_eq _ _ _ _ _ hi, tot_ackWs_srw', tot_ackWs_lgw, tot_ackWs_clall, tot_ackWs_clpre, b2n_true, b2n_false, clearW_idle, clearW_exited, clearW_eq_exited, srW, lgW, clAllW, clPreW, St.bg, onOk, onErr, selNext, afterSetErr, srAllW] <;> (try omega)
-  | cmWaitComp _ i lg hi =>
-    clear h4
-    have l0 := le_tot srW _ _ _ hi
-    have l1 := le_tot lgW _ _ _ hi
-    have l2 := le_tot clAllW _ _ _ hi
-    have l3 := le_tot clPreW _ _ _ hi
-    cases lg <;> (try simp only [St.setDone, St.setBg]) <;> (repeat' split) <;> simp_all [tot_set_eq _ _ _ _ _ hi, tot_ackWs_srw', tot_ackWs_lgw, tot_ackWs_clall, tot_ackWs_clpre, b2n_true, b2n_false, clearW_idle, clearW_exited, clearW_eq_exited, srW, lgW, clAllW, clPreW, St.bg, onOk, onErr, selNext, afterSetErr, srAllW] <;> (try omega)
-  | cmDone _ i lg hi =>
-    clear h4
-    have l0 := le_tot srW _ _ _ hi
-    have l1 := le_tot lgW _ _ _ hi
-    have l2 := le_tot clAllW _ _ _ hi
-    have l3 := le_tot clPreW _ _ _ hi
-    cases lg <;> (try simp only [St.setDone, St.setBg]) <;> (repeat' split) <;> simp_all [tot_set_eq _ _ _ _ _ hi, tot_ackWs_srw', tot_ackWs_lgw, tot_ackWs_clall, tot_ackWs_clpre, b2n_true, b2n_false, clearW_idle, clearW_exited, clearW_eq_exited, srW, lgW, clAllW, clPreW, St.bg, onOk, onErr, selNext, afterSetErr, srAllW] <;> (try omega)
-  | cmRet _ i ok lg hi =>
-    clear h4
-    have l0 := le_tot srW _ _ _ hi
-    have l1 := le_tot lgW _ _ _ hi
-    have l2 := le_tot clAllW _ _ _ hi
-    have l3 := le_tot clPreW _ _ _ hi
-    cases ok <;> cases lg <;> (try simp only [St.setDone, St.setBg]) <;> (repeat' split) <;> simp_all [tot_set_eq _ _ _ _ _ hi, tot_ackWs_srw', tot_ackWs_lgw, tot_ackWs_clall, tot_ackWs_clpre, b2n_true, b2n_false, clearW_idle, clearW_exited, clearW_eq_exited, srW, lgW, clAllW, clPreW, St.bg, onOk, onErr, selNext, afterSetErr, srAllW] <;> (try omega)
-  | dcLockTr _ i lg hi hl =>
-    clear h4
-    have l0 := le_tot srW _ _ _ hi
-    have l1 := le_tot lgW _ _ _ hi
-    have l2 := le_tot clAllW _ _ _ hi
-    have l3 := le_tot clPreW _ _ _ hi
-    cases lg <;> (try simp only [St.setDone, St.setBg]) <;> (repeat' split) <;> simp_all [tot_set_eq _ _ _ _ _ hi, tot_ackWs_srw', tot_ackWs_lgw, tot_ackWs_clall, tot_ackWs_clpre, b2n_true, b2n_false, clearW_idle, clearW_exited, clearW_eq_exited, srW, lgW, clAllW, clPreW, St.bg, onOk, onErr, selNext, afterSetErr, srAllW] <;> (try omega)
-  | dcBody _ i lg hi =>
-    clear h4
-    have l0 := le_tot srW _ _ _ hi
-    have l1 := le_tot lgW _ _ _ hi
-    have l2 := le_tot clAllW _ _ _ hi
-    have l3 := le_tot clPreW _ _ _ hi
-    cases lg <;> (try simp only [St.setDone, St.setBg]) <;> (repeat' split) <;> simp_all [tot_set_eq _ _ _ _ _ hi, tot_ackWs_srw', tot_ackWs_lgw, tot_ackWs_clall, tot_ackWs_clpre, b2n_true, b2n_false, clearW_idle, clearW_exited, clearW_eq_exited, srW, lgW, clAllW, clPreW, St.bg, onOk, onErr, selNext, afterSetErr, srAllW] <;> (try omega)
-  | crNoOverlap _ i hi =>
-    clear h4
-    have l0 := le_tot srW _ _ _ hi
-    have l1 := le_tot lgW _ _ _ hi
-    have l2 := le_tot clAllW _ _ _ hi
-    have l3 := le_tot clPreW _ _ _ hi
-    (try simp only [St.setDone, St.setBg]) <;> (repeat' split) <;> simp_all [tot_set_eq _ _ _ _ _ hi, tot_ackWs_srw', tot_ackWs_lgw, tot_ackWs_clall, tot_ackWs_clpre, b2n_true, b2n_false, clearW_idle, clearW_exited, clearW_eq_exited, srW, lgW, clAllW, clPreW, St.bg, onOk, onErr, selNext, afterSetErr, srAllW] <;> (try omega)
-  | crOverlap _ i hi =>
-    clear h4
-    have l0 := le_tot srW _ _ _ hi
-    have l1 := le_tot lgW _ _ _ hi
-    have l2 := le_tot clAllW _ _ _ hi
-    have l3 := le_tot clPreW _ _ _ hi
-    (try simp only [St.setDone, St.setBg]) <;> (repeat' split) <;> simp_all [tot_set_eq _ _ _ _ _ hi, tot_ackWs_srw', tot_ackWs_lgw, tot_ackWs_clall, tot_ackWs_clpre, b2n_true, b2n_false, clearW_idle, clearW_exited, clearW_eq_exited, srW, lgW, clAllW, clPreW, St.bg, onOk, onErr, selNext, afterSetErr, srAllW] <;> (try omega)
-  | crNewMemOk _ i hi =>
-    clear h4
-    have l0 := le_tot srW _ _ _ hi
-    have l1 := le_tot lgW _ _ _ hi
-    have l2 := le_tot clAllW _ _ _ hi
-    have l3 := le_tot clPreW _ _ _ hi
-    (try simp only [St.setDone, St.setBg]) <;> (repeat' split) <;> simp_all [tot_set_eq _ _ _ _ _ hi, tot_ackWs_srw', tot_ackWs_lgw, tot_ackWs_clall, tot_ackWs_clpre, b2n_true, b2n_false, clearW_idle, clearW_exited, clearW_eq_exited, srW, lgW, clAllW, clPreW, St.bg, onOk, onErr, selNext, afterSetErr, srAllW] <;> (try omega)
-  | crNewMemFail _ i hi =>
-    clear h4
-    have l0 := le_tot srW _ _ _ hi
-    have l1 := le_tot lgW _ _ _ hi
-    have l2 := le_tot clAllW _ _ _ hi
-    have l3 := le_tot clPreW _ _ _ hi
-    (try simp only [St.setDone, St.setBg]) <;> (repeat' split) <;> simp_all [tot_set_eq _ _ _ _ _ hi, tot_ackWs_srw', tot_ackWs_lgw, tot_ackWs_clall, tot_ackWs_clpre, b2n_true, b2n_false, clearW_idle, clearW_exited, clearW_eq_exited, srW, lgW, clAllW, clPreW, St.bg, onOk, onErr, selNext, afterSetErr, srAllW] <;> (try omega)
-  | crRelM _ i hi =>
-    clear h4
-    have l0 := le_tot srW _ _ _ hi
-    have l1 := le_tot lgW _ _ _ hi
-    have l2 := le_tot clAllW _ _ _ hi
-    have l3 := le_tot clPreW _ _ _ hi
-    (try simp only [St.setDone, St.setBg]) <;> (repeat' split) <;> simp_all [tot_set_eq _ _ _ _ _ hi, tot_ackWs_srw', tot_ackWs_lgw, tot_ackWs_clall, tot_ackWs_clpre, b2n_true, b2n_false, clearW_idle, clearW_exited, clearW_eq_exited, srW, lgW, clAllW, clPreW, St.bg, onOk, onErr, selNext, afterSetErr, srAllW] <;> (try omega)
-  | crRelOk _ i hi =>
-    clear h4
-    have l0 := le_tot srW _ _ _ hi
-    have l1 := le_tot lgW _ _ _ hi
-    have l2 := le_tot clAllW _ _ _ hi
-    have l3 := le_tot clPreW _ _ _ hi
-    (try simp only [St.setDone, St.setBg]) <;> (repeat' split) <;> simp_all [tot_set_eq _ _ _ _ _ hi, tot_ackWs_srw', tot_ackWs_lgw, tot_ackWs_clall, tot_ackWs_clpre, b2n_true, b2n_false, clearW_idle, clearW_exited, clearW_eq_exited, srW, lgW, clAllW, clPreW, St.bg, onOk, onErr, selNext, afterSetErr, srAllW] <;> (try omega)
-  | crRelFail _ i hi =>
-    clear h4
-    have l0 := le_tot srW _ _ _ hi
-    have l1 := le_tot lgW _ _ _ hi
-    have l2 := le_tot clAllW _ _ _ hi
-    have l3 := le_tot clPreW _ _ _ hi
-    (try simp only [St.setDone, St.setBg]) <;> (repeat' split) <;> simp_all [tot_set_eq _ _ _ _ _ hi, tot_ackWs_srw', tot_ackWs_lgw, tot_ackWs_clall, tot_ackWs_clpre, b2n_true, b2n_false, clearW_idle, clearW_exited, clearW_eq_exited, srW, lgW, clAllW, clPreW, St.bg, onOk, onErr, selNext, afterSetErr, srAllW] <;> (try omega)
-  | srSend _ i hi he =>
-    clear h4
-    have l0 := le_tot srW _ _ _ hi
-    have l1 := le_tot lgW _ _ _ hi
-    have l2 := le_tot clAllW _ _ _ hi
-    have l3 := le_tot clPreW _ _ _ hi
-    rcases he with he | he <;> (try simp only [St.setDone, St.setBg]) <;> (repeat' split) <;> simp_all [tot_set_eq _ _ _ _ _ hi, tot_ackWs_srw', tot_ackWs_lgw, tot_ackWs_clall, tot_ackWs_clpre, b2n_true, b2n_false, clearW_idle, clearW_exited, clearW_eq_exited, srW, lgW, clAllW, clPreW, St.bg, onOk, onErr, selNext, afterSetErr, srAllW] <;> (try omega)
-  | srPerErr _ i hi he =>
-    clear h4
-    have l0 := le_tot srW _ _ _ hi
-    have l1 := le_tot lgW _ _ _ hi
-    have l2 := le_tot clAllW _ _ _ hi
-    have l3 := le_tot clPreW _ _ _ hi
-    (try simp only [St.setDone, St.setBg]) <;> (repeat' split) <;> simp_all [tot_set_eq _ _ _ _ _ hi, tot_ackWs_srw', tot_ackWs_lgw, tot_ackWs_clall, tot_ackWs_clpre, b2n_true, b2n_false, clearW_idle, clearW_exited, clearW_eq_exited, srW, lgW, clAllW, clPreW, St.bg, onOk, onErr, selNext, afterSetErr, srAllW] <;> (try omega)
-  | srClosed _ i hi hc =>
-    have l0 := le_tot srW _ _ _ hi
-    have l1 := le_tot lgW _ _ _ hi
-    have l2 := le_tot clAllW _ _ _ hi
-    have l3 := le_tot clPreW _ _ _ hi
-    have ls := le_tot srAllW _ _ _ hi
-    rcases h4 with h4 | ⟨_, h4⟩ <;> (try simp only [St.setDone, St.setBg]) <;> (repeat' split) <;> simp_all [tot_set_eq _ _ _ _ _ hi, tot_ackWs_srw', tot_ackWs_lgw, tot_ackWs_clall, tot_ackWs_clpre, b2n_true, b2n_false, clearW_idle, clearW_exited, clearW_eq_exited, srW, lgW, clAllW, clPreW, St.bg, onOk, onErr, selNext, afterSetErr, srAllW] <;> (try omega)
-  | clCheckTr _ i hi =>
-    clear h4
-    have l0 := le_tot srW _ _ _ hi
-    have l1 := le_tot lgW _ _ _ hi
-    have l2 := le_tot clAllW _ _ _ hi
-    have l3 := le_tot clPreW _ _ _ hi
-    (try simp only [St.setDone, St.setBg]) <;> (repeat' split) <;> simp_all [tot_set_eq _ _ _ _ _ hi, tot_ackWs_srw', tot_ackWs_lgw, tot_ackWs_clall, tot_ackWs_clpre, b2n_true, b2n_false, clearW_idle, clearW_exited, clearW_eq_exited, srW, lgW, clAllW, clPreW, St.bg, onOk, onErr, selNext, afterSetErr, srAllW] <;> (try omega)
-  | clLockTr _ i hi hl =>
-    clear h4
-    have l0 := le_tot srW _ _ _ hi
-    have l1 := le_tot lgW _ _ _ hi
-    have l2 := le_tot clAllW _ _ _ hi
-    have l3 := le_tot clPreW _ _ _ hi
-    (try simp only [St.setDone, St.setBg]) <;> (repeat' split) <;> simp_all [tot_set_eq _ _ _ _ _ hi, tot_ackWs_srw', tot_ackWs_lgw, tot_ackWs_clall, tot_ackWs_clpre, b2n_true, b2n_false, clearW_idle, clearW_exited, clearW_eq_exited, srW, lgW, clAllW, clPreW, St.bg, onOk, onErr, selNext, afterSetErr, srAllW] <;> (try omega)
-  | clBody _ i hi =>
-    clear h4
-    have l0 := le_tot srW _ _ _ hi
-    have l1 := le_tot lgW _ _ _ hi
-    have l2 := le_tot clAllW _ _ _ hi
-    have l3 := le_tot clPreW _ _ _ hi
-    (try simp only [St.setDone, St.setBg]) <;> (repeat' split) <;> simp_all [tot_set_eq _ _ _ _ _ hi, tot_ackWs_srw', tot_ackWs_lgw, tot_ackWs_clall, tot_ackWs_clpre, b2n_true, b2n_false, clearW_idle, clearW_exited, clearW_eq_exited, srW, lgW, clAllW, clPreW, St.bg, onOk, onErr, selNext, afterSetErr, srAllW] <;> (try omega)
-  | clAcq _ i hi ht =>
-    clear h4
-    have l0 := le_tot srW _ _ _ hi
-    have l1 := le_tot lgW _ _ _ hi
-    have l2 := le_tot clAllW _ _ _ hi
-    have l3 := le_tot clPreW _ _ _ hi
-    (try simp only [St.setDone, St.setBg]) <;> (repeat' split) <;> simp_all [tot_set_eq _ _ _ _ _ hi, tot_ackWs_srw', tot_ackWs_lgw, tot_ackWs_clall, tot_ackWs_clpre, b2n_true, b2n_false, clearW_idle, clearW_exited, clearW_eq_exited, srW, lgW, clAllW, clPreW, St.bg, onOk, onErr, selNext, afterSetErr, srAllW] <;> (try omega)
-  | clWait _ i hi hm ht =>
-    clear h4
-    have l0 := le_tot srW _ _ _ hi
-    have l1 := le_tot lgW _ _ _ hi
-    have l2 := le_tot clAllW _ _ _ hi
-    have l3 := le_tot clPreW _ _ _ hi
-    (try simp only [St.setDone, St.setBg]) <;> (repeat' split) <;> simp_all [tot_set_eq _ _ _ _ _ hi, tot_ackWs_srw', tot_ackWs_lgw, tot_ackWs_clall, tot_ackWs_clpre, b2n_true, b2n_false, clearW_idle, clearW_exited, clearW_eq_exited, srW, lgW, clAllW, clPreW, St.bg, onOk, onErr, selNext, afterSetErr, srAllW] <;> (try omega)
-  | ehAcquire _ he ht hn =>
-    clear h4
-    (try simp only [St.setDone, St.setBg]) <;> (repeat' split) <;> simp_all [tot_ackWs_srw', tot_ackWs_lgw, tot_ackWs_clall, tot_ackWs_clpre, b2n_true, b2n_false, clearW_idle, clearW_exited, clearW_eq_exited, srW, lgW, clAllW, clPreW, St.bg, onOk, onErr, selNext, afterSetErr, srAllW] <;> (try omega)
-  | ehExit _ he hc =>
-    clear h4
-    cases he' : s.eh <;> (try simp only [St.setDone, St.setBg]) <;> (repeat' split) <;> simp_all [tot_ackWs_srw', tot_ackWs_lgw, tot_ackWs_clall, tot_ackWs_clpre, b2n_true, b2n_false, clearW_idle, clearW_exited, clearW_eq_exited, srW, lgW, clAllW, clPreW, St.bg, onOk, onErr, selNext, afterSetErr, srAllW] <;> (try omega)
-  | bgExitIdle _ b hb hc =>
-    clear h4
-    cases b <;> (try simp only [St.setDone, St.setBg]) <;> (repeat' split) <;> simp_all [tot_ackWs_srw', tot_ackWs_lgw, tot_ackWs_clall, tot_ackWs_clpre, b2n_true, b2n_false, clearW_idle, clearW_exited, clearW_eq_exited, srW, lgW, clAllW, clPreW, St.bg, onOk, onErr, selNext, afterSetErr, srAllW] <;> (try omega)
-  | bgWorkOk _ b w hb =>
-    clear h4
-    cases b <;> (try simp only [St.setDone, St.setBg]) <;> (repeat' split) <;> simp_all [tot_ackWs_srw', tot_ackWs_lgw, tot_ackWs_clall, tot_ackWs_clpre, b2n_true, b2n_false, clearW_idle, clearW_exited, clearW_eq_exited, srW, lgW, clAllW, clPreW, St.bg, onOk, onErr, selNext, afterSetErr, srAllW] <;> (try omega)
-  | bgWorkFail _ b w hb =>
-    clear h4
-    cases b <;> (try simp only [St.setDone, St.setBg]) <;> (repeat' split) <;> simp_all [tot_ackWs_srw', tot_ackWs_lgw, tot_ackWs_clall, tot_ackWs_clpre, b2n_true, b2n_false, clearW_idle, clearW_exited, clearW_eq_exited, srW, lgW, clAllW, clPreW, St.bg, onOk, onErr, selNext, afterSetErr, srAllW] <;> (try omega)
-  | bgCommitOk _ b w hb =>
-    clear h4
-    cases b <;> (try simp only [St.setDone, St.setBg]) <;> (repeat' split) <;> simp_all [tot_ackWs_srw', tot_ackWs_lgw, tot_ackWs_clall, tot_ackWs_clpre, b2n_true, b2n_false, clearW_idle, clearW_exited, clearW_eq_exited, srW, lgW, clAllW, clPreW, St.bg, onOk, onErr, selNext, afterSetErr, srAllW] <;> (try omega)
-  | bgCommitFail _ b w hb =>
-    clear h4
-    cases b <;> (try simp only [St.setDone, St.setBg]) <;> (repeat' split) <;> simp_all [tot_ackWs_srw', tot_ackWs_lgw, tot_ackWs_clall, tot_ackWs_clpre, b2n_true, b2n_false, clearW_idle, clearW_exited, clearW_eq_exited, srW, lgW, clAllW, clPreW, St.bg, onOk, onErr, selNext, afterSetErr, srAllW] <;> (try omega)
-  | bgSetErr _ b w ok c hb he =>
-    clear h4
-    rcases he with he | he <;> cases b <;> cases ok <;> cases c <;> (try simp only [St.setDone, St.setBg]) <;> (repeat' split) <;> simp_all [tot_ackWs_srw', tot_ackWs_lgw, tot_ackWs_clall, tot_ackWs_clpre, b2n_true, b2n_false, clearW_idle, clearW_exited, clearW_eq_exited, srW, lgW, clAllW, clPreW, St.bg, onOk, onErr, selNext, afterSetErr, srAllW] <;> (try omega)
-  | bgSetErrPer _ b w c hb he =>
-    clear h4
-    cases b <;> cases c <;> (try simp only [St.setDone, St.setBg]) <;> (repeat' split) <;> simp_all [tot_ackWs_srw', tot_ackWs_lgw, tot_ackWs_clall, tot_ackWs_clpre, b2n_true, b2n_false, clearW_idle, clearW_exited, clearW_eq_exited, srW, lgW, clAllW, clPreW, St.bg, onOk, onErr, selNext, afterSetErr, srAllW] <;> (try omega)
-  | bgBackoff _ b w c hb =>
-    clear h4
-    cases b <;> cases c <;> (try simp only [St.setDone, St.setBg]) <;> (repeat' split) <;> simp_all [tot_ackWs_srw', tot_ackWs_lgw, tot_ackWs_clall, tot_ackWs_clpre, b2n_true, b2n_false, clearW_idle, clearW_exited, clearW_eq_exited, srW, lgW, clAllW, clPreW, St.bg, onOk, onErr, selNext, afterSetErr, srAllW] <;> (try omega)
-  | bgLockClk _ b w hb hl =>
-    clear h4
-    cases b <;> (try simp only [St.setDone, St.setBg]) <;> (repeat' split) <;> simp_all [tot_ackWs_srw', tot_ackWs_lgw, tot_ackWs_clall, tot_ackWs_clpre, b2n_true, b2n_false, clearW_idle, clearW_exited, clearW_eq_exited, srW, lgW, clAllW, clPreW, St.bg, onOk, onErr, selNext, afterSetErr, srAllW] <;> (try omega)
-  | bgAck _ b w hb =>
-    clear h4
-    cases b <;> (try simp only [St.setDone, St.setBg]) <;> (repeat' split) <;> simp_all [tot_ackWs_srw', tot_ackWs_lgw, tot_ackWs_clall, tot_ackWs_clpre, b2n_true, b2n_false, clearW_idle, clearW_exited, clearW_eq_exited, srW, lgW, clAllW, clPreW, St.bg, onOk, onErr, selNext, afterSetErr, srAllW] <;> (try omega)
-  | bgExit _ b w ph hb hx =>
-    clear h4
-    cases b <;> cases ph <;> (try simp only [St.setDone, St.setBg]) <;> (repeat' split) <;> simp_all [tot_ackWs_srw', tot_ackWs_lgw, tot_ackWs_clall, tot_ackWs_clpre, b2n_true, b2n_false, clearW_idle, clearW_exited, clearW_eq_exited, srW, lgW, clAllW, clPreW, St.bg, onOk, onErr, selNext, afterSetErr, srAllW] <;> (try omega) <;> (try (rcases hx with hx | hx <;> simp_all))
 
 end GoLevel.Locks
